@@ -8,7 +8,9 @@
 import TfelVerif.Common.M3
 import TfelVerif.C23.Spec
 import TfelVerif.C23.Lemmas
-import TfelVerif.C23.PropsN1\nimport TfelVerif.C23.PropsN1Chains\n
+import TfelVerif.C23.PropsN1
+import TfelVerif.C23.PropsN1Chains
+
 namespace TfelVerif.C23.PropsCompose1
 open TfelVerif TfelVerif.Mandel TfelVerif.C23
 set_option linter.all false
@@ -16,4 +18,562 @@ set_option maxHeartbeats 16000000
 set_option maxRecDepth 100000
 variable {K : Type} [Field K] (c c3 : K) (fn : Fns K)
 
-/-- round trip `DS_DC → DS_DEGL → DS_DC`: converting back gives an operator with the same action (hence the same\nmeaning) as the one started from, for every variation. -/\ntheorem N1_roundtrip_DS_DC__DS_DEGL (hc : c * c = 2) (h2 : (2:K) ≠ 0)\n    (D : Nat → Nat → K) (F0 : M3 K) (f0 f1 f2 : K) (l0 l1 l2 : K) (s : Nat → K)  :\n    upper (lamS (dg f0 f1 f2) (M3.ofMandel c [s 0, s 1, s 2]) (dg l0 l1 l2) (M3.ofMandel c (act (Gen.N1_DS_DC__DS_DEGL_r c c3 fn (matOf (Gen.N1_DS_DEGL__DS_DC_r c c3 fn D (tensv F0) (tensv (dg f0 f1 f2)) s)) (tensv F0) (tensv (dg f0 f1 f2)) s) (M3.mandel1 (dC (dg f0 f1 f2) (dg l0 l1 l2))))))\n      = upper (lamS (dg f0 f1 f2) (M3.ofMandel c [s 0, s 1, s 2]) (dg l0 l1 l2) (M3.ofMandel c (act (rowsOf D i3 i3) (M3.mandel1 (dC (dg f0 f1 f2) (dg l0 l1 l2)))))) := by\n  refine (PropsN1.N1_DS_DC__DS_DEGL c c3 fn hc h2 ..).trans ?_\n  exact PropsN1.N1_DS_DEGL__DS_DC c c3 fn hc h2 ..\n\n/-- round trip `DS_DEGL → DS_DC → DS_DEGL`: converting back gives an operator with the same action (hence the same\nmeaning) as the one started from, for every variation. -/\ntheorem N1_roundtrip_DS_DEGL__DS_DC (hc : c * c = 2) (h2 : (2:K) ≠ 0)\n    (D : Nat → Nat → K) (F0 : M3 K) (f0 f1 f2 : K) (l0 l1 l2 : K) (s : Nat → K)  :\n    upper (lamS (dg f0 f1 f2) (M3.ofMandel c [s 0, s 1, s 2]) (dg l0 l1 l2) (M3.ofMandel c (act (Gen.N1_DS_DEGL__DS_DC_r c c3 fn (matOf (Gen.N1_DS_DC__DS_DEGL_r c c3 fn D (tensv F0) (tensv (dg f0 f1 f2)) s)) (tensv F0) (tensv (dg f0 f1 f2)) s) (M3.mandel1 (dE (dg f0 f1 f2) (dg l0 l1 l2))))))\n      = upper (lamS (dg f0 f1 f2) (M3.ofMandel c [s 0, s 1, s 2]) (dg l0 l1 l2) (M3.ofMandel c (act (rowsOf D i3 i3) (M3.mandel1 (dE (dg f0 f1 f2) (dg l0 l1 l2)))))) := by\n  refine (PropsN1.N1_DS_DEGL__DS_DC c c3 fn hc h2 ..).trans ?_\n  exact PropsN1.N1_DS_DC__DS_DEGL c c3 fn hc h2 ..\n\n/-- round trip `SPATIAL_MODULI → DS_DEGL → SPATIAL_MODULI`: converting back gives an operator with the same action (hence the same\nmeaning) as the one started from, for every variation. -/\ntheorem N1_roundtrip_SPATIAL_MODULI__DS_DEGL (hc : c * c = 2) (h2 : (2:K) ≠ 0)\n    (D : Nat → Nat → K) (F0 : M3 K) (f0 f1 f2 : K) (l0 l1 l2 : K) (s : Nat → K) (hJ : (dg f0 f1 f2).det ≠ 0) :\n    upper (lamSM (dg f0 f1 f2) (M3.ofMandel c [s 0, s 1, s 2]) (dg l0 l1 l2) (M3.ofMandel c (act (Gen.N1_SPATIAL_MODULI__DS_DEGL_r c c3 fn (matOf (Gen.N1_DS_DEGL__SPATIAL_MODULI_r c c3 fn D (tensv F0) (tensv (dg f0 f1 f2)) s)) (tensv F0) (tensv (dg f0 f1 f2)) s) (M3.mandel1 (symm (dg l0 l1 l2))))))\n      = upper (lamSM (dg f0 f1 f2) (M3.ofMandel c [s 0, s 1, s 2]) (dg l0 l1 l2) (M3.ofMandel c (act (rowsOf D i3 i3) (M3.mandel1 (symm (dg l0 l1 l2)))))) := by\n  refine (PropsN1.N1_SPATIAL_MODULI__DS_DEGL c c3 fn hc h2 ..).trans ?_\n  exact PropsN1Chains.N1_DS_DEGL__SPATIAL_MODULI c c3 fn hc h2 (hJ := hJ) ..\n\n/-- round trip `DS_DEGL → SPATIAL_MODULI → DS_DEGL`: converting back gives an operator with the same action (hence the same\nmeaning) as the one started from, for every variation. -/\ntheorem N1_roundtrip_DS_DEGL__SPATIAL_MODULI (hc : c * c = 2) (h2 : (2:K) ≠ 0)\n    (D : Nat → Nat → K) (F0 : M3 K) (f0 f1 f2 : K) (l0 l1 l2 : K) (s : Nat → K) (hJ : (dg f0 f1 f2).det ≠ 0) :\n    upper (lamS (dg f0 f1 f2) (M3.ofMandel c [s 0, s 1, s 2]) (dg l0 l1 l2) (M3.ofMandel c (act (Gen.N1_DS_DEGL__SPATIAL_MODULI_r c c3 fn (matOf (Gen.N1_SPATIAL_MODULI__DS_DEGL_r c c3 fn D (tensv F0) (tensv (dg f0 f1 f2)) s)) (tensv F0) (tensv (dg f0 f1 f2)) s) (M3.mandel1 (dE (dg f0 f1 f2) (dg l0 l1 l2))))))\n      = upper (lamS (dg f0 f1 f2) (M3.ofMandel c [s 0, s 1, s 2]) (dg l0 l1 l2) (M3.ofMandel c (act (rowsOf D i3 i3) (M3.mandel1 (dE (dg f0 f1 f2) (dg l0 l1 l2)))))) := by\n  refine (PropsN1Chains.N1_DS_DEGL__SPATIAL_MODULI c c3 fn hc h2 (hJ := hJ) ..).trans ?_\n  exact PropsN1.N1_SPATIAL_MODULI__DS_DEGL c c3 fn hc h2 ..\n\n/-- round trip `ABAQUS → SPATIAL_MODULI → ABAQUS`: converting back gives an operator with the same action (hence the same\nmeaning) as the one started from, for every variation. -/\ntheorem N1_roundtrip_ABAQUS__SPATIAL_MODULI (hc : c * c = 2) (h2 : (2:K) ≠ 0)\n    (D : Nat → Nat → K) (F0 : M3 K) (f0 f1 f2 : K) (l0 l1 l2 : K) (s : Nat → K) (hJ : (dg f0 f1 f2).det ≠ 0) :\n    upper (lamAb (dg f0 f1 f2) (M3.ofMandel c [s 0, s 1, s 2]) (dg l0 l1 l2) (M3.ofMandel c (act (Gen.N1_ABAQUS__SPATIAL_MODULI_r c c3 fn (matOf (Gen.N1_SPATIAL_MODULI__ABAQUS_r c c3 fn D (tensv F0) (tensv (dg f0 f1 f2)) s)) (tensv F0) (tensv (dg f0 f1 f2)) s) (M3.mandel1 (symm (dg l0 l1 l2))))))\n      = upper (lamAb (dg f0 f1 f2) (M3.ofMandel c [s 0, s 1, s 2]) (dg l0 l1 l2) (M3.ofMandel c (act (rowsOf D i3 i3) (M3.mandel1 (symm (dg l0 l1 l2)))))) := by\n  refine (PropsN1.N1_ABAQUS__SPATIAL_MODULI c c3 fn hc h2 (hJ := hJ) ..).trans ?_\n  exact PropsN1.N1_SPATIAL_MODULI__ABAQUS c c3 fn hc h2 ..\n\n/-- round trip `SPATIAL_MODULI → ABAQUS → SPATIAL_MODULI`: converting back gives an operator with the same action (hence the same\nmeaning) as the one started from, for every variation. -/\ntheorem N1_roundtrip_SPATIAL_MODULI__ABAQUS (hc : c * c = 2) (h2 : (2:K) ≠ 0)\n    (D : Nat → Nat → K) (F0 : M3 K) (f0 f1 f2 : K) (l0 l1 l2 : K) (s : Nat → K) (hJ : (dg f0 f1 f2).det ≠ 0) :\n    upper (lamSM (dg f0 f1 f2) (M3.ofMandel c [s 0, s 1, s 2]) (dg l0 l1 l2) (M3.ofMandel c (act (Gen.N1_SPATIAL_MODULI__ABAQUS_r c c3 fn (matOf (Gen.N1_ABAQUS__SPATIAL_MODULI_r c c3 fn D (tensv F0) (tensv (dg f0 f1 f2)) s)) (tensv F0) (tensv (dg f0 f1 f2)) s) (M3.mandel1 (symm (dg l0 l1 l2))))))\n      = upper (lamSM (dg f0 f1 f2) (M3.ofMandel c [s 0, s 1, s 2]) (dg l0 l1 l2) (M3.ofMandel c (act (rowsOf D i3 i3) (M3.mandel1 (symm (dg l0 l1 l2)))))) := by\n  refine (PropsN1.N1_SPATIAL_MODULI__ABAQUS c c3 fn hc h2 ..).trans ?_\n  exact PropsN1.N1_ABAQUS__SPATIAL_MODULI c c3 fn hc h2 (hJ := hJ) ..\n\n/-- round trip `C_TRUESDELL → SPATIAL_MODULI → C_TRUESDELL`: converting back gives an operator with the same action (hence the same\nmeaning) as the one started from, for every variation. -/\ntheorem N1_roundtrip_C_TRUESDELL__SPATIAL_MODULI (hc : c * c = 2) (h2 : (2:K) ≠ 0)\n    (D : Nat → Nat → K) (F0 : M3 K) (f0 f1 f2 : K) (l0 l1 l2 : K) (s : Nat → K) (hJ : (dg f0 f1 f2).det ≠ 0) :\n    upper (lamTr (dg f0 f1 f2) (M3.ofMandel c [s 0, s 1, s 2]) (dg l0 l1 l2) (M3.ofMandel c (act (Gen.N1_C_TRUESDELL__SPATIAL_MODULI_r c c3 fn (matOf (Gen.N1_SPATIAL_MODULI__C_TRUESDELL_r c c3 fn D (tensv F0) (tensv (dg f0 f1 f2)) s)) (tensv F0) (tensv (dg f0 f1 f2)) s) (M3.mandel1 (symm (dg l0 l1 l2))))))\n      = upper (lamTr (dg f0 f1 f2) (M3.ofMandel c [s 0, s 1, s 2]) (dg l0 l1 l2) (M3.ofMandel c (act (rowsOf D i3 i3) (M3.mandel1 (symm (dg l0 l1 l2)))))) := by\n  refine (PropsN1.N1_C_TRUESDELL__SPATIAL_MODULI c c3 fn hc h2 (hJ := hJ) ..).trans ?_\n  exact PropsN1.N1_SPATIAL_MODULI__C_TRUESDELL c c3 fn hc h2 ..\n\n/-- round trip `SPATIAL_MODULI → C_TRUESDELL → SPATIAL_MODULI`: converting back gives an operator with the same action (hence the same\nmeaning) as the one started from, for every variation. -/\ntheorem N1_roundtrip_SPATIAL_MODULI__C_TRUESDELL (hc : c * c = 2) (h2 : (2:K) ≠ 0)\n    (D : Nat → Nat → K) (F0 : M3 K) (f0 f1 f2 : K) (l0 l1 l2 : K) (s : Nat → K) (hJ : (dg f0 f1 f2).det ≠ 0) :\n    upper (lamSM (dg f0 f1 f2) (M3.ofMandel c [s 0, s 1, s 2]) (dg l0 l1 l2) (M3.ofMandel c (act (Gen.N1_SPATIAL_MODULI__C_TRUESDELL_r c c3 fn (matOf (Gen.N1_C_TRUESDELL__SPATIAL_MODULI_r c c3 fn D (tensv F0) (tensv (dg f0 f1 f2)) s)) (tensv F0) (tensv (dg f0 f1 f2)) s) (M3.mandel1 (symm (dg l0 l1 l2))))))\n      = upper (lamSM (dg f0 f1 f2) (M3.ofMandel c [s 0, s 1, s 2]) (dg l0 l1 l2) (M3.ofMandel c (act (rowsOf D i3 i3) (M3.mandel1 (symm (dg l0 l1 l2)))))) := by\n  refine (PropsN1.N1_SPATIAL_MODULI__C_TRUESDELL c c3 fn hc h2 ..).trans ?_\n  exact PropsN1.N1_C_TRUESDELL__SPATIAL_MODULI c c3 fn hc h2 (hJ := hJ) ..\n\n/-- round trip `DSIG_DDF → DSIG_DF → DSIG_DDF`: converting back gives an operator with the same action (hence the same\nmeaning) as the one started from, for every variation. -/\ntheorem N1_roundtrip_DSIG_DDF__DSIG_DF (hc : c * c = 2) (h2 : (2:K) ≠ 0)\n    (D : Nat → Nat → K) (g0 g1 g2 d0 d1 d2 : K) (l0 l1 l2 : K) (s : Nat → K) (hJ : (dg g0 g1 g2).det ≠ 0) :\n    upper (lamSig ((dg d0 d1 d2) * (dg g0 g1 g2)) (M3.ofMandel c [s 0, s 1, s 2]) (dg l0 l1 l2) (M3.ofMandel c (act (Gen.N1_DSIG_DDF__DSIG_DF_r c c3 fn (matOf (Gen.N1_DSIG_DF__DSIG_DDF_r c c3 fn D (tensv (dg g0 g1 g2)) (tensv ((dg d0 d1 d2) * (dg g0 g1 g2))) s)) (tensv (dg g0 g1 g2)) (tensv ((dg d0 d1 d2) * (dg g0 g1 g2))) s) (M3.tens1 ((dg l0 l1 l2) * (dg d0 d1 d2))))))\n      = upper (lamSig ((dg d0 d1 d2) * (dg g0 g1 g2)) (M3.ofMandel c [s 0, s 1, s 2]) (dg l0 l1 l2) (M3.ofMandel c (act (rowsOf D i3 i3) (M3.tens1 ((dg l0 l1 l2) * (dg d0 d1 d2)))))) := by\n  refine (PropsN1.N1_DSIG_DDF__DSIG_DF c c3 fn hc h2 ..).trans ?_\n  exact PropsN1.N1_DSIG_DF__DSIG_DDF c c3 fn hc h2 (hJ := hJ) ..\n\n/-- round trip `DSIG_DF → DSIG_DDF → DSIG_DF`: converting back gives an operator with the same action (hence the same\nmeaning) as the one started from, for every variation. -/\ntheorem N1_roundtrip_DSIG_DF__DSIG_DDF (hc : c * c = 2) (h2 : (2:K) ≠ 0)\n    (D : Nat → Nat → K) (g0 g1 g2 d0 d1 d2 : K) (l0 l1 l2 : K) (s : Nat → K) (hJ : (dg g0 g1 g2).det ≠ 0) :\n    upper (lamSig ((dg d0 d1 d2) * (dg g0 g1 g2)) (M3.ofMandel c [s 0, s 1, s 2]) (dg l0 l1 l2) (M3.ofMandel c (act (Gen.N1_DSIG_DF__DSIG_DDF_r c c3 fn (matOf (Gen.N1_DSIG_DDF__DSIG_DF_r c c3 fn D (tensv (dg g0 g1 g2)) (tensv ((dg d0 d1 d2) * (dg g0 g1 g2))) s)) (tensv (dg g0 g1 g2)) (tensv ((dg d0 d1 d2) * (dg g0 g1 g2))) s) (M3.tens1 ((dg l0 l1 l2) * ((dg d0 d1 d2) * (dg g0 g1 g2)))))))\n      = upper (lamSig ((dg d0 d1 d2) * (dg g0 g1 g2)) (M3.ofMandel c [s 0, s 1, s 2]) (dg l0 l1 l2) (M3.ofMandel c (act (rowsOf D i3 i3) (M3.tens1 ((dg l0 l1 l2) * ((dg d0 d1 d2) * (dg g0 g1 g2))))))) := by\n  refine (PropsN1.N1_DSIG_DF__DSIG_DDF c c3 fn hc h2 (hJ := hJ) ..).trans ?_\n  exact PropsN1.N1_DSIG_DDF__DSIG_DF c c3 fn hc h2 ..\n\n/-- round trip `DTAU_DDF → DTAU_DF → DTAU_DDF`: converting back gives an operator with the same action (hence the same\nmeaning) as the one started from, for every variation. -/\ntheorem N1_roundtrip_DTAU_DDF__DTAU_DF (hc : c * c = 2) (h2 : (2:K) ≠ 0)\n    (D : Nat → Nat → K) (g0 g1 g2 d0 d1 d2 : K) (l0 l1 l2 : K) (s : Nat → K) (hJ : (dg g0 g1 g2).det ≠ 0) :\n    upper (lamTau ((dg d0 d1 d2) * (dg g0 g1 g2)) (M3.ofMandel c [s 0, s 1, s 2]) (dg l0 l1 l2) (M3.ofMandel c (act (Gen.N1_DTAU_DDF__DTAU_DF_r c c3 fn (matOf (Gen.N1_DTAU_DF__DTAU_DDF_r c c3 fn D (tensv (dg g0 g1 g2)) (tensv ((dg d0 d1 d2) * (dg g0 g1 g2))) s)) (tensv (dg g0 g1 g2)) (tensv ((dg d0 d1 d2) * (dg g0 g1 g2))) s) (M3.tens1 ((dg l0 l1 l2) * (dg d0 d1 d2))))))\n      = upper (lamTau ((dg d0 d1 d2) * (dg g0 g1 g2)) (M3.ofMandel c [s 0, s 1, s 2]) (dg l0 l1 l2) (M3.ofMandel c (act (rowsOf D i3 i3) (M3.tens1 ((dg l0 l1 l2) * (dg d0 d1 d2)))))) := by\n  refine (PropsN1.N1_DTAU_DDF__DTAU_DF c c3 fn hc h2 ..).trans ?_\n  exact PropsN1.N1_DTAU_DF__DTAU_DDF c c3 fn hc h2 (hJ := hJ) ..\n\n/-- round trip `DTAU_DF → DTAU_DDF → DTAU_DF`: converting back gives an operator with the same action (hence the same\nmeaning) as the one started from, for every variation. -/\ntheorem N1_roundtrip_DTAU_DF__DTAU_DDF (hc : c * c = 2) (h2 : (2:K) ≠ 0)\n    (D : Nat → Nat → K) (g0 g1 g2 d0 d1 d2 : K) (l0 l1 l2 : K) (s : Nat → K) (hJ : (dg g0 g1 g2).det ≠ 0) :\n    upper (lamTau ((dg d0 d1 d2) * (dg g0 g1 g2)) (M3.ofMandel c [s 0, s 1, s 2]) (dg l0 l1 l2) (M3.ofMandel c (act (Gen.N1_DTAU_DF__DTAU_DDF_r c c3 fn (matOf (Gen.N1_DTAU_DDF__DTAU_DF_r c c3 fn D (tensv (dg g0 g1 g2)) (tensv ((dg d0 d1 d2) * (dg g0 g1 g2))) s)) (tensv (dg g0 g1 g2)) (tensv ((dg d0 d1 d2) * (dg g0 g1 g2))) s) (M3.tens1 ((dg l0 l1 l2) * ((dg d0 d1 d2) * (dg g0 g1 g2)))))))\n      = upper (lamTau ((dg d0 d1 d2) * (dg g0 g1 g2)) (M3.ofMandel c [s 0, s 1, s 2]) (dg l0 l1 l2) (M3.ofMandel c (act (rowsOf D i3 i3) (M3.tens1 ((dg l0 l1 l2) * ((dg d0 d1 d2) * (dg g0 g1 g2))))))) := by\n  refine (PropsN1.N1_DTAU_DF__DTAU_DDF c c3 fn hc h2 (hJ := hJ) ..).trans ?_\n  exact PropsN1.N1_DTAU_DDF__DTAU_DF c c3 fn hc h2 ..\n\n/-- round trip `SPATIAL_MODULI → DTAU_DF → SPATIAL_MODULI`: converting back gives an operator with the same action (hence the same\nmeaning) as the one started from, for every variation. -/\ntheorem N1_roundtrip_SPATIAL_MODULI__DTAU_DF (hc : c * c = 2) (h2 : (2:K) ≠ 0)\n    (D : Nat → Nat → K) (F0 : M3 K) (f0 f1 f2 : K) (l0 l1 l2 : K) (s : Nat → K) (hJ : (dg f0 f1 f2).det ≠ 0) :\n    upper (lamSM (dg f0 f1 f2) (M3.ofMandel c [s 0, s 1, s 2]) (dg l0 l1 l2) (M3.ofMandel c (act (Gen.N1_SPATIAL_MODULI__DTAU_DF_r c c3 fn (matOf (Gen.N1_DTAU_DF__SPATIAL_MODULI_r c c3 fn D (tensv F0) (tensv (dg f0 f1 f2)) s)) (tensv F0) (tensv (dg f0 f1 f2)) s) (M3.mandel1 (symm (dg l0 l1 l2))))))\n      = upper (lamSM (dg f0 f1 f2) (M3.ofMandel c [s 0, s 1, s 2]) (dg l0 l1 l2) (M3.ofMandel c (act (rowsOf D i3 i3) (M3.mandel1 (symm (dg l0 l1 l2)))))) := by\n  refine (PropsN1Chains.N1_SPATIAL_MODULI__DTAU_DF c c3 fn hc h2 ..).trans ?_\n  exact PropsN1Chains.N1_DTAU_DF__SPATIAL_MODULI c c3 fn hc h2 (hJ := hJ) ..\n\n/-- round trip `C_TAU_JAUMANN → DTAU_DF → C_TAU_JAUMANN`: converting back gives an operator with the same action (hence the same\nmeaning) as the one started from, for every variation. -/\ntheorem N1_roundtrip_C_TAU_JAUMANN__DTAU_DF (hc : c * c = 2) (h2 : (2:K) ≠ 0)\n    (D : Nat → Nat → K) (F0 : M3 K) (f0 f1 f2 : K) (l0 l1 l2 : K) (s : Nat → K) (hJ : (dg f0 f1 f2).det ≠ 0) :\n    upper (lamJ (dg f0 f1 f2) (M3.ofMandel c [s 0, s 1, s 2]) (dg l0 l1 l2) (M3.ofMandel c (act (Gen.N1_C_TAU_JAUMANN__DTAU_DF_r c c3 fn (matOf (Gen.N1_DTAU_DF__C_TAU_JAUMANN_r c c3 fn D (tensv F0) (tensv (dg f0 f1 f2)) s)) (tensv F0) (tensv (dg f0 f1 f2)) s) (M3.mandel1 (symm (dg l0 l1 l2))))))\n      = upper (lamJ (dg f0 f1 f2) (M3.ofMandel c [s 0, s 1, s 2]) (dg l0 l1 l2) (M3.ofMandel c (act (rowsOf D i3 i3) (M3.mandel1 (symm (dg l0 l1 l2)))))) := by\n  refine (PropsN1.N1_C_TAU_JAUMANN__DTAU_DF c c3 fn hc h2 ..).trans ?_\n  exact PropsN1.N1_DTAU_DF__C_TAU_JAUMANN c c3 fn hc h2 (hJ := hJ) ..\n\n/-- round trip `ABAQUS → C_TAU_JAUMANN → ABAQUS`: converting back gives an operator with the same action (hence the same\nmeaning) as the one started from, for every variation. -/\ntheorem N1_roundtrip_ABAQUS__C_TAU_JAUMANN (hc : c * c = 2) (h2 : (2:K) ≠ 0)\n    (D : Nat → Nat → K) (F0 : M3 K) (f0 f1 f2 : K) (l0 l1 l2 : K) (s : Nat → K) (hJ : (dg f0 f1 f2).det ≠ 0) :\n    upper (lamAb (dg f0 f1 f2) (M3.ofMandel c [s 0, s 1, s 2]) (dg l0 l1 l2) (M3.ofMandel c (act (Gen.N1_ABAQUS__C_TAU_JAUMANN_r c c3 fn (matOf (Gen.N1_C_TAU_JAUMANN__ABAQUS_r c c3 fn D (tensv F0) (tensv (dg f0 f1 f2)) s)) (tensv F0) (tensv (dg f0 f1 f2)) s) (M3.mandel1 (symm (dg l0 l1 l2))))))\n      = upper (lamAb (dg f0 f1 f2) (M3.ofMandel c [s 0, s 1, s 2]) (dg l0 l1 l2) (M3.ofMandel c (act (rowsOf D i3 i3) (M3.mandel1 (symm (dg l0 l1 l2)))))) := by\n  refine (PropsN1.N1_ABAQUS__C_TAU_JAUMANN c c3 fn hc h2 (hJ := hJ) ..).trans ?_\n  exact PropsN1.N1_C_TAU_JAUMANN__ABAQUS c c3 fn hc h2 ..\n\n/-- round trip `C_TAU_JAUMANN → ABAQUS → C_TAU_JAUMANN`: converting back gives an operator with the same action (hence the same\nmeaning) as the one started from, for every variation. -/\ntheorem N1_roundtrip_C_TAU_JAUMANN__ABAQUS (hc : c * c = 2) (h2 : (2:K) ≠ 0)\n    (D : Nat → Nat → K) (F0 : M3 K) (f0 f1 f2 : K) (l0 l1 l2 : K) (s : Nat → K) (hJ : (dg f0 f1 f2).det ≠ 0) :\n    upper (lamJ (dg f0 f1 f2) (M3.ofMandel c [s 0, s 1, s 2]) (dg l0 l1 l2) (M3.ofMandel c (act (Gen.N1_C_TAU_JAUMANN__ABAQUS_r c c3 fn (matOf (Gen.N1_ABAQUS__C_TAU_JAUMANN_r c c3 fn D (tensv F0) (tensv (dg f0 f1 f2)) s)) (tensv F0) (tensv (dg f0 f1 f2)) s) (M3.mandel1 (symm (dg l0 l1 l2))))))\n      = upper (lamJ (dg f0 f1 f2) (M3.ofMandel c [s 0, s 1, s 2]) (dg l0 l1 l2) (M3.ofMandel c (act (rowsOf D i3 i3) (M3.mandel1 (symm (dg l0 l1 l2)))))) := by\n  refine (PropsN1.N1_C_TAU_JAUMANN__ABAQUS c c3 fn hc h2 ..).trans ?_\n  exact PropsN1.N1_ABAQUS__C_TAU_JAUMANN c c3 fn hc h2 (hJ := hJ) ..\n\n/-- round trip `C_TAU_JAUMANN → SPATIAL_MODULI → C_TAU_JAUMANN`: converting back gives an operator with the same action (hence the same\nmeaning) as the one started from, for every variation. -/\ntheorem N1_roundtrip_C_TAU_JAUMANN__SPATIAL_MODULI (hc : c * c = 2) (h2 : (2:K) ≠ 0)\n    (D : Nat → Nat → K) (F0 : M3 K) (f0 f1 f2 : K) (l0 l1 l2 : K) (s : Nat → K)  :\n    upper (lamJ (dg f0 f1 f2) (M3.ofMandel c [s 0, s 1, s 2]) (dg l0 l1 l2) (M3.ofMandel c (act (Gen.N1_C_TAU_JAUMANN__SPATIAL_MODULI_r c c3 fn (matOf (Gen.N1_SPATIAL_MODULI__C_TAU_JAUMANN_r c c3 fn D (tensv F0) (tensv (dg f0 f1 f2)) s)) (tensv F0) (tensv (dg f0 f1 f2)) s) (M3.mandel1 (symm (dg l0 l1 l2))))))\n      = upper (lamJ (dg f0 f1 f2) (M3.ofMandel c [s 0, s 1, s 2]) (dg l0 l1 l2) (M3.ofMandel c (act (rowsOf D i3 i3) (M3.mandel1 (symm (dg l0 l1 l2)))))) := by\n  refine (PropsN1.N1_C_TAU_JAUMANN__SPATIAL_MODULI c c3 fn hc h2 ..).trans ?_\n  exact PropsN1.N1_SPATIAL_MODULI__C_TAU_JAUMANN c c3 fn hc h2 ..\n\n/-- round trip `SPATIAL_MODULI → C_TAU_JAUMANN → SPATIAL_MODULI`: converting back gives an operator with the same action (hence the same\nmeaning) as the one started from, for every variation. -/\ntheorem N1_roundtrip_SPATIAL_MODULI__C_TAU_JAUMANN (hc : c * c = 2) (h2 : (2:K) ≠ 0)\n    (D : Nat → Nat → K) (F0 : M3 K) (f0 f1 f2 : K) (l0 l1 l2 : K) (s : Nat → K)  :\n    upper (lamSM (dg f0 f1 f2) (M3.ofMandel c [s 0, s 1, s 2]) (dg l0 l1 l2) (M3.ofMandel c (act (Gen.N1_SPATIAL_MODULI__C_TAU_JAUMANN_r c c3 fn (matOf (Gen.N1_C_TAU_JAUMANN__SPATIAL_MODULI_r c c3 fn D (tensv F0) (tensv (dg f0 f1 f2)) s)) (tensv F0) (tensv (dg f0 f1 f2)) s) (M3.mandel1 (symm (dg l0 l1 l2))))))\n      = upper (lamSM (dg f0 f1 f2) (M3.ofMandel c [s 0, s 1, s 2]) (dg l0 l1 l2) (M3.ofMandel c (act (rowsOf D i3 i3) (M3.mandel1 (symm (dg l0 l1 l2)))))) := by\n  refine (PropsN1.N1_SPATIAL_MODULI__C_TAU_JAUMANN c c3 fn hc h2 ..).trans ?_\n  exact PropsN1.N1_C_TAU_JAUMANN__SPATIAL_MODULI c c3 fn hc h2 ..\n\n/-- round trip `ABAQUS → DTAU_DF → ABAQUS`: converting back gives an operator with the same action (hence the same\nmeaning) as the one started from, for every variation. -/\ntheorem N1_roundtrip_ABAQUS__DTAU_DF (hc : c * c = 2) (h2 : (2:K) ≠ 0)\n    (D : Nat → Nat → K) (F0 : M3 K) (f0 f1 f2 : K) (l0 l1 l2 : K) (s : Nat → K) (hJ : (dg f0 f1 f2).det ≠ 0) :\n    upper (lamAb (dg f0 f1 f2) (M3.ofMandel c [s 0, s 1, s 2]) (dg l0 l1 l2) (M3.ofMandel c (act (Gen.N1_ABAQUS__DTAU_DF_r c c3 fn (matOf (Gen.N1_DTAU_DF__ABAQUS_r c c3 fn D (tensv F0) (tensv (dg f0 f1 f2)) s)) (tensv F0) (tensv (dg f0 f1 f2)) s) (M3.mandel1 (symm (dg l0 l1 l2))))))\n      = upper (lamAb (dg f0 f1 f2) (M3.ofMandel c [s 0, s 1, s 2]) (dg l0 l1 l2) (M3.ofMandel c (act (rowsOf D i3 i3) (M3.mandel1 (symm (dg l0 l1 l2)))))) := by\n  refine (PropsN1.N1_ABAQUS__DTAU_DF c c3 fn hc h2 (hJ := hJ) ..).trans ?_\n  exact PropsN1.N1_DTAU_DF__ABAQUS c c3 fn hc h2 (hJ := hJ) ..\n\n/-- round trip `DTAU_DF → C_TAU_JAUMANN → DTAU_DF`: converting back gives an operator with the same action (hence the same\nmeaning) as the one started from, for every variation. -/\ntheorem N1_roundtrip_DTAU_DF__C_TAU_JAUMANN (hc : c * c = 2) (h2 : (2:K) ≠ 0)\n    (D : Nat → Nat → K) (F0 : M3 K) (f0 f1 f2 : K) (l0 l1 l2 : K) (s : Nat → K) (hJ : (dg f0 f1 f2).det ≠ 0) :\n    upper (lamTau (dg f0 f1 f2) (M3.ofMandel c [s 0, s 1, s 2]) (dg l0 l1 l2) (M3.ofMandel c (act (Gen.N1_DTAU_DF__C_TAU_JAUMANN_r c c3 fn (matOf (Gen.N1_C_TAU_JAUMANN__DTAU_DF_r c c3 fn D (tensv F0) (tensv (dg f0 f1 f2)) s)) (tensv F0) (tensv (dg f0 f1 f2)) s) (M3.tens1 ((dg l0 l1 l2) * (dg f0 f1 f2))))))\n      = upper (lamTau (dg f0 f1 f2) (M3.ofMandel c [s 0, s 1, s 2]) (dg l0 l1 l2) (M3.ofMandel c (act (rowsOf D i3 i3) (M3.tens1 ((dg l0 l1 l2) * (dg f0 f1 f2)))))) := by\n  refine (PropsN1.N1_DTAU_DF__C_TAU_JAUMANN c c3 fn hc h2 (hJ := hJ) ..).trans ?_\n  exact PropsN1.N1_C_TAU_JAUMANN__DTAU_DF c c3 fn hc h2 ..\n\n/-- round trip `DTAU_DF → ABAQUS → DTAU_DF`: converting back gives an operator with the same action (hence the same\nmeaning) as the one started from, for every variation. -/\ntheorem N1_roundtrip_DTAU_DF__ABAQUS (hc : c * c = 2) (h2 : (2:K) ≠ 0)\n    (D : Nat → Nat → K) (F0 : M3 K) (f0 f1 f2 : K) (l0 l1 l2 : K) (s : Nat → K) (hJ : (dg f0 f1 f2).det ≠ 0) :\n    upper (lamTau (dg f0 f1 f2) (M3.ofMandel c [s 0, s 1, s 2]) (dg l0 l1 l2) (M3.ofMandel c (act (Gen.N1_DTAU_DF__ABAQUS_r c c3 fn (matOf (Gen.N1_ABAQUS__DTAU_DF_r c c3 fn D (tensv F0) (tensv (dg f0 f1 f2)) s)) (tensv F0) (tensv (dg f0 f1 f2)) s) (M3.tens1 ((dg l0 l1 l2) * (dg f0 f1 f2))))))\n      = upper (lamTau (dg f0 f1 f2) (M3.ofMandel c [s 0, s 1, s 2]) (dg l0 l1 l2) (M3.ofMandel c (act (rowsOf D i3 i3) (M3.tens1 ((dg l0 l1 l2) * (dg f0 f1 f2)))))) := by\n  refine (PropsN1.N1_DTAU_DF__ABAQUS c c3 fn hc h2 (hJ := hJ) ..).trans ?_\n  exact PropsN1.N1_ABAQUS__DTAU_DF c c3 fn hc h2 (hJ := hJ) ..\n\n/-- round trip `DTAU_DF → SPATIAL_MODULI → DTAU_DF`: converting back gives an operator with the same action (hence the same\nmeaning) as the one started from, for every variation. -/\ntheorem N1_roundtrip_DTAU_DF__SPATIAL_MODULI (hc : c * c = 2) (h2 : (2:K) ≠ 0)\n    (D : Nat → Nat → K) (F0 : M3 K) (f0 f1 f2 : K) (l0 l1 l2 : K) (s : Nat → K) (hJ : (dg f0 f1 f2).det ≠ 0) :\n    upper (lamTau (dg f0 f1 f2) (M3.ofMandel c [s 0, s 1, s 2]) (dg l0 l1 l2) (M3.ofMandel c (act (Gen.N1_DTAU_DF__SPATIAL_MODULI_r c c3 fn (matOf (Gen.N1_SPATIAL_MODULI__DTAU_DF_r c c3 fn D (tensv F0) (tensv (dg f0 f1 f2)) s)) (tensv F0) (tensv (dg f0 f1 f2)) s) (M3.tens1 ((dg l0 l1 l2) * (dg f0 f1 f2))))))\n      = upper (lamTau (dg f0 f1 f2) (M3.ofMandel c [s 0, s 1, s 2]) (dg l0 l1 l2) (M3.ofMandel c (act (rowsOf D i3 i3) (M3.tens1 ((dg l0 l1 l2) * (dg f0 f1 f2)))))) := by\n  refine (PropsN1Chains.N1_DTAU_DF__SPATIAL_MODULI c c3 fn hc h2 (hJ := hJ) ..).trans ?_\n  exact PropsN1Chains.N1_SPATIAL_MODULI__DTAU_DF c c3 fn hc h2 ..\n\n/-- conversions compose: `DS_DF ← DS_DC ← DS_DEGL` acts as the direct `DS_DF ← DS_DEGL`, for every variation. -/\ntheorem N1_compose_DS_DF__DS_DC__DS_DEGL (hc : c * c = 2) (h2 : (2:K) ≠ 0)\n    (D : Nat → Nat → K) (F0 : M3 K) (f0 f1 f2 : K) (l0 l1 l2 : K) (s : Nat → K)  :\n    upper (lamS (dg f0 f1 f2) (M3.ofMandel c [s 0, s 1, s 2]) (dg l0 l1 l2) (M3.ofMandel c (act (Gen.N1_DS_DF__DS_DC_r c c3 fn (matOf (Gen.N1_DS_DC__DS_DEGL_r c c3 fn D (tensv F0) (tensv (dg f0 f1 f2)) s)) (tensv F0) (tensv (dg f0 f1 f2)) s) (M3.tens1 ((dg l0 l1 l2) * (dg f0 f1 f2))))))\n      = upper (lamS (dg f0 f1 f2) (M3.ofMandel c [s 0, s 1, s 2]) (dg l0 l1 l2) (M3.ofMandel c (act (Gen.N1_DS_DF__DS_DEGL_r c c3 fn D (tensv F0) (tensv (dg f0 f1 f2)) s) (M3.tens1 ((dg l0 l1 l2) * (dg f0 f1 f2)))))) := by\n  refine (PropsN1.N1_DS_DF__DS_DC c c3 fn hc h2 ..).trans ?_\n  refine (PropsN1.N1_DS_DC__DS_DEGL c c3 fn hc h2 ..).trans ?_\n  exact (PropsN1.N1_DS_DF__DS_DEGL c c3 fn hc h2 ..).symm\n\n/-- conversions compose: `DS_DF ← DS_DEGL ← DS_DC` acts as the direct `DS_DF ← DS_DC`, for every variation. -/\ntheorem N1_compose_DS_DF__DS_DEGL__DS_DC (hc : c * c = 2) (h2 : (2:K) ≠ 0)\n    (D : Nat → Nat → K) (F0 : M3 K) (f0 f1 f2 : K) (l0 l1 l2 : K) (s : Nat → K)  :\n    upper (lamS (dg f0 f1 f2) (M3.ofMandel c [s 0, s 1, s 2]) (dg l0 l1 l2) (M3.ofMandel c (act (Gen.N1_DS_DF__DS_DEGL_r c c3 fn (matOf (Gen.N1_DS_DEGL__DS_DC_r c c3 fn D (tensv F0) (tensv (dg f0 f1 f2)) s)) (tensv F0) (tensv (dg f0 f1 f2)) s) (M3.tens1 ((dg l0 l1 l2) * (dg f0 f1 f2))))))\n      = upper (lamS (dg f0 f1 f2) (M3.ofMandel c [s 0, s 1, s 2]) (dg l0 l1 l2) (M3.ofMandel c (act (Gen.N1_DS_DF__DS_DC_r c c3 fn D (tensv F0) (tensv (dg f0 f1 f2)) s) (M3.tens1 ((dg l0 l1 l2) * (dg f0 f1 f2)))))) := by\n  refine (PropsN1.N1_DS_DF__DS_DEGL c c3 fn hc h2 ..).trans ?_\n  refine (PropsN1.N1_DS_DEGL__DS_DC c c3 fn hc h2 ..).trans ?_\n  exact (PropsN1.N1_DS_DF__DS_DC c c3 fn hc h2 ..).symm\n\n/-- conversions compose: `ABAQUS ← SPATIAL_MODULI ← DS_DEGL` acts as the direct `ABAQUS ← DS_DEGL`, for every variation. -/\ntheorem N1_compose_ABAQUS__SPATIAL_MODULI__DS_DEGL (hc : c * c = 2) (h2 : (2:K) ≠ 0)\n    (D : Nat → Nat → K) (F0 : M3 K) (f0 f1 f2 : K) (l0 l1 l2 : K) (s : Nat → K) (hJ : (dg f0 f1 f2).det ≠ 0) :\n    upper (lamAb (dg f0 f1 f2) (M3.ofMandel c [s 0, s 1, s 2]) (dg l0 l1 l2) (M3.ofMandel c (act (Gen.N1_ABAQUS__SPATIAL_MODULI_r c c3 fn (matOf (Gen.N1_SPATIAL_MODULI__DS_DEGL_r c c3 fn D (tensv F0) (tensv (dg f0 f1 f2)) s)) (tensv F0) (tensv (dg f0 f1 f2)) s) (M3.mandel1 (symm (dg l0 l1 l2))))))\n      = upper (lamAb (dg f0 f1 f2) (M3.ofMandel c [s 0, s 1, s 2]) (dg l0 l1 l2) (M3.ofMandel c (act (Gen.N1_ABAQUS__DS_DEGL_r c c3 fn D (tensv F0) (tensv (dg f0 f1 f2)) s) (M3.mandel1 (symm (dg l0 l1 l2)))))) := by\n  refine (PropsN1.N1_ABAQUS__SPATIAL_MODULI c c3 fn hc h2 (hJ := hJ) ..).trans ?_\n  refine (PropsN1.N1_SPATIAL_MODULI__DS_DEGL c c3 fn hc h2 ..).trans ?_\n  exact (PropsN1Chains.N1_ABAQUS__DS_DEGL c c3 fn hc h2 (hJ := hJ) ..).symm\n\n/-- conversions compose: `ABAQUS ← SPATIAL_MODULI ← DTAU_DF` acts as the direct `ABAQUS ← DTAU_DF`, for every variation. -/\ntheorem N1_compose_ABAQUS__SPATIAL_MODULI__DTAU_DF (hc : c * c = 2) (h2 : (2:K) ≠ 0)\n    (D : Nat → Nat → K) (F0 : M3 K) (f0 f1 f2 : K) (l0 l1 l2 : K) (s : Nat → K) (hJ : (dg f0 f1 f2).det ≠ 0) :\n    upper (lamAb (dg f0 f1 f2) (M3.ofMandel c [s 0, s 1, s 2]) (dg l0 l1 l2) (M3.ofMandel c (act (Gen.N1_ABAQUS__SPATIAL_MODULI_r c c3 fn (matOf (Gen.N1_SPATIAL_MODULI__DTAU_DF_r c c3 fn D (tensv F0) (tensv (dg f0 f1 f2)) s)) (tensv F0) (tensv (dg f0 f1 f2)) s) (M3.mandel1 (symm (dg l0 l1 l2))))))\n      = upper (lamAb (dg f0 f1 f2) (M3.ofMandel c [s 0, s 1, s 2]) (dg l0 l1 l2) (M3.ofMandel c (act (Gen.N1_ABAQUS__DTAU_DF_r c c3 fn D (tensv F0) (tensv (dg f0 f1 f2)) s) (M3.mandel1 (symm (dg l0 l1 l2)))))) := by\n  refine (PropsN1.N1_ABAQUS__SPATIAL_MODULI c c3 fn hc h2 (hJ := hJ) ..).trans ?_\n  refine (PropsN1Chains.N1_SPATIAL_MODULI__DTAU_DF c c3 fn hc h2 ..).trans ?_\n  exact (PropsN1.N1_ABAQUS__DTAU_DF c c3 fn hc h2 (hJ := hJ) ..).symm\n\n/-- conversions compose: `ABAQUS ← SPATIAL_MODULI ← C_TAU_JAUMANN` acts as the direct `ABAQUS ← C_TAU_JAUMANN`, for every variation. -/\ntheorem N1_compose_ABAQUS__SPATIAL_MODULI__C_TAU_JAUMANN (hc : c * c = 2) (h2 : (2:K) ≠ 0)\n    (D : Nat → Nat → K) (F0 : M3 K) (f0 f1 f2 : K) (l0 l1 l2 : K) (s : Nat → K) (hJ : (dg f0 f1 f2).det ≠ 0) :\n    upper (lamAb (dg f0 f1 f2) (M3.ofMandel c [s 0, s 1, s 2]) (dg l0 l1 l2) (M3.ofMandel c (act (Gen.N1_ABAQUS__SPATIAL_MODULI_r c c3 fn (matOf (Gen.N1_SPATIAL_MODULI__C_TAU_JAUMANN_r c c3 fn D (tensv F0) (tensv (dg f0 f1 f2)) s)) (tensv F0) (tensv (dg f0 f1 f2)) s) (M3.mandel1 (symm (dg l0 l1 l2))))))\n      = upper (lamAb (dg f0 f1 f2) (M3.ofMandel c [s 0, s 1, s 2]) (dg l0 l1 l2) (M3.ofMandel c (act (Gen.N1_ABAQUS__C_TAU_JAUMANN_r c c3 fn D (tensv F0) (tensv (dg f0 f1 f2)) s) (M3.mandel1 (symm (dg l0 l1 l2)))))) := by\n  refine (PropsN1.N1_ABAQUS__SPATIAL_MODULI c c3 fn hc h2 (hJ := hJ) ..).trans ?_\n  refine (PropsN1.N1_SPATIAL_MODULI__C_TAU_JAUMANN c c3 fn hc h2 ..).trans ?_\n  exact (PropsN1.N1_ABAQUS__C_TAU_JAUMANN c c3 fn hc h2 (hJ := hJ) ..).symm\n\n/-- conversions compose: `ABAQUS ← DS_DEGL ← SPATIAL_MODULI` acts as the direct `ABAQUS ← SPATIAL_MODULI`, for every variation. -/\ntheorem N1_compose_ABAQUS__DS_DEGL__SPATIAL_MODULI (hc : c * c = 2) (h2 : (2:K) ≠ 0)\n    (D : Nat → Nat → K) (F0 : M3 K) (f0 f1 f2 : K) (l0 l1 l2 : K) (s : Nat → K) (hJ : (dg f0 f1 f2).det ≠ 0) :\n    upper (lamAb (dg f0 f1 f2) (M3.ofMandel c [s 0, s 1, s 2]) (dg l0 l1 l2) (M3.ofMandel c (act (Gen.N1_ABAQUS__DS_DEGL_r c c3 fn (matOf (Gen.N1_DS_DEGL__SPATIAL_MODULI_r c c3 fn D (tensv F0) (tensv (dg f0 f1 f2)) s)) (tensv F0) (tensv (dg f0 f1 f2)) s) (M3.mandel1 (symm (dg l0 l1 l2))))))\n      = upper (lamAb (dg f0 f1 f2) (M3.ofMandel c [s 0, s 1, s 2]) (dg l0 l1 l2) (M3.ofMandel c (act (Gen.N1_ABAQUS__SPATIAL_MODULI_r c c3 fn D (tensv F0) (tensv (dg f0 f1 f2)) s) (M3.mandel1 (symm (dg l0 l1 l2)))))) := by\n  refine (PropsN1Chains.N1_ABAQUS__DS_DEGL c c3 fn hc h2 (hJ := hJ) ..).trans ?_\n  refine (PropsN1Chains.N1_DS_DEGL__SPATIAL_MODULI c c3 fn hc h2 (hJ := hJ) ..).trans ?_\n  exact (PropsN1.N1_ABAQUS__SPATIAL_MODULI c c3 fn hc h2 (hJ := hJ) ..).symm\n\n/-- conversions compose: `DSIG_DF ← C_TRUESDELL ← DS_DEGL` acts as the direct `DSIG_DF ← DS_DEGL`, for every variation. -/\ntheorem N1_compose_DSIG_DF__C_TRUESDELL__DS_DEGL (hc : c * c = 2) (h2 : (2:K) ≠ 0)\n    (D : Nat → Nat → K) (F0 : M3 K) (f0 f1 f2 : K) (l0 l1 l2 : K) (s : Nat → K) (hJ : (dg f0 f1 f2).det ≠ 0) :\n    upper (lamSig (dg f0 f1 f2) (M3.ofMandel c [s 0, s 1, s 2]) (dg l0 l1 l2) (M3.ofMandel c (act (Gen.N1_DSIG_DF__C_TRUESDELL_r c c3 fn (matOf (Gen.N1_C_TRUESDELL__DS_DEGL_r c c3 fn D (tensv F0) (tensv (dg f0 f1 f2)) s)) (tensv F0) (tensv (dg f0 f1 f2)) s) (M3.tens1 ((dg l0 l1 l2) * (dg f0 f1 f2))))))\n      = upper (lamSig (dg f0 f1 f2) (M3.ofMandel c [s 0, s 1, s 2]) (dg l0 l1 l2) (M3.ofMandel c (act (Gen.N1_DSIG_DF__DS_DEGL_r c c3 fn D (tensv F0) (tensv (dg f0 f1 f2)) s) (M3.tens1 ((dg l0 l1 l2) * (dg f0 f1 f2)))))) := by\n  refine (PropsN1Chains.N1_DSIG_DF__C_TRUESDELL c c3 fn hc h2 (hJ := hJ) ..).trans ?_\n  refine (PropsN1Chains.N1_C_TRUESDELL__DS_DEGL c c3 fn hc h2 (hJ := hJ) ..).trans ?_\n  exact (PropsN1Chains.N1_DSIG_DF__DS_DEGL c c3 fn hc h2 (hJ := hJ) ..).symm\n\n/-- conversions compose: `DSIG_DF ← C_TRUESDELL ← DTAU_DF` acts as the direct `DSIG_DF ← DTAU_DF`, for every variation. -/\ntheorem N1_compose_DSIG_DF__C_TRUESDELL__DTAU_DF (hc : c * c = 2) (h2 : (2:K) ≠ 0)\n    (D : Nat → Nat → K) (F0 : M3 K) (f0 f1 f2 : K) (l0 l1 l2 : K) (s : Nat → K) (hJ : (dg f0 f1 f2).det ≠ 0) :\n    upper (lamSig (dg f0 f1 f2) (M3.ofMandel c [s 0, s 1, s 2]) (dg l0 l1 l2) (M3.ofMandel c (act (Gen.N1_DSIG_DF__C_TRUESDELL_r c c3 fn (matOf (Gen.N1_C_TRUESDELL__DTAU_DF_r c c3 fn D (tensv F0) (tensv (dg f0 f1 f2)) s)) (tensv F0) (tensv (dg f0 f1 f2)) s) (M3.tens1 ((dg l0 l1 l2) * (dg f0 f1 f2))))))\n      = upper (lamSig (dg f0 f1 f2) (M3.ofMandel c [s 0, s 1, s 2]) (dg l0 l1 l2) (M3.ofMandel c (act (Gen.N1_DSIG_DF__DTAU_DF_r c c3 fn D (tensv F0) (tensv (dg f0 f1 f2)) s) (M3.tens1 ((dg l0 l1 l2) * (dg f0 f1 f2)))))) := by\n  refine (PropsN1Chains.N1_DSIG_DF__C_TRUESDELL c c3 fn hc h2 (hJ := hJ) ..).trans ?_\n  refine (PropsN1Chains.N1_C_TRUESDELL__DTAU_DF c c3 fn hc h2 (hJ := hJ) ..).trans ?_\n  exact (PropsN1.N1_DSIG_DF__DTAU_DF c c3 fn hc h2 (hJ := hJ) ..).symm\n\n/-- conversions compose: `SPATIAL_MODULI ← ABAQUS ← DS_DEGL` acts as the direct `SPATIAL_MODULI ← DS_DEGL`, for every variation. -/\ntheorem N1_compose_SPATIAL_MODULI__ABAQUS__DS_DEGL (hc : c * c = 2) (h2 : (2:K) ≠ 0)\n    (D : Nat → Nat → K) (F0 : M3 K) (f0 f1 f2 : K) (l0 l1 l2 : K) (s : Nat → K) (hJ : (dg f0 f1 f2).det ≠ 0) :\n    upper (lamSM (dg f0 f1 f2) (M3.ofMandel c [s 0, s 1, s 2]) (dg l0 l1 l2) (M3.ofMandel c (act (Gen.N1_SPATIAL_MODULI__ABAQUS_r c c3 fn (matOf (Gen.N1_ABAQUS__DS_DEGL_r c c3 fn D (tensv F0) (tensv (dg f0 f1 f2)) s)) (tensv F0) (tensv (dg f0 f1 f2)) s) (M3.mandel1 (symm (dg l0 l1 l2))))))\n      = upper (lamSM (dg f0 f1 f2) (M3.ofMandel c [s 0, s 1, s 2]) (dg l0 l1 l2) (M3.ofMandel c (act (Gen.N1_SPATIAL_MODULI__DS_DEGL_r c c3 fn D (tensv F0) (tensv (dg f0 f1 f2)) s) (M3.mandel1 (symm (dg l0 l1 l2)))))) := by\n  refine (PropsN1.N1_SPATIAL_MODULI__ABAQUS c c3 fn hc h2 ..).trans ?_\n  refine (PropsN1Chains.N1_ABAQUS__DS_DEGL c c3 fn hc h2 (hJ := hJ) ..).trans ?_\n  exact (PropsN1.N1_SPATIAL_MODULI__DS_DEGL c c3 fn hc h2 ..).symm\n\n/-- conversions compose: `SPATIAL_MODULI ← ABAQUS ← C_TAU_JAUMANN` acts as the direct `SPATIAL_MODULI ← C_TAU_JAUMANN`, for every variation. -/\ntheorem N1_compose_SPATIAL_MODULI__ABAQUS__C_TAU_JAUMANN (hc : c * c = 2) (h2 : (2:K) ≠ 0)\n    (D : Nat → Nat → K) (F0 : M3 K) (f0 f1 f2 : K) (l0 l1 l2 : K) (s : Nat → K) (hJ : (dg f0 f1 f2).det ≠ 0) :\n    upper (lamSM (dg f0 f1 f2) (M3.ofMandel c [s 0, s 1, s 2]) (dg l0 l1 l2) (M3.ofMandel c (act (Gen.N1_SPATIAL_MODULI__ABAQUS_r c c3 fn (matOf (Gen.N1_ABAQUS__C_TAU_JAUMANN_r c c3 fn D (tensv F0) (tensv (dg f0 f1 f2)) s)) (tensv F0) (tensv (dg f0 f1 f2)) s) (M3.mandel1 (symm (dg l0 l1 l2))))))\n      = upper (lamSM (dg f0 f1 f2) (M3.ofMandel c [s 0, s 1, s 2]) (dg l0 l1 l2) (M3.ofMandel c (act (Gen.N1_SPATIAL_MODULI__C_TAU_JAUMANN_r c c3 fn D (tensv F0) (tensv (dg f0 f1 f2)) s) (M3.mandel1 (symm (dg l0 l1 l2)))))) := by\n  refine (PropsN1.N1_SPATIAL_MODULI__ABAQUS c c3 fn hc h2 ..).trans ?_\n  refine (PropsN1.N1_ABAQUS__C_TAU_JAUMANN c c3 fn hc h2 (hJ := hJ) ..).trans ?_\n  exact (PropsN1.N1_SPATIAL_MODULI__C_TAU_JAUMANN c c3 fn hc h2 ..).symm\n\n/-- conversions compose: `SPATIAL_MODULI ← ABAQUS ← DTAU_DF` acts as the direct `SPATIAL_MODULI ← DTAU_DF`, for every variation. -/\ntheorem N1_compose_SPATIAL_MODULI__ABAQUS__DTAU_DF (hc : c * c = 2) (h2 : (2:K) ≠ 0)\n    (D : Nat → Nat → K) (F0 : M3 K) (f0 f1 f2 : K) (l0 l1 l2 : K) (s : Nat → K) (hJ : (dg f0 f1 f2).det ≠ 0) :\n    upper (lamSM (dg f0 f1 f2) (M3.ofMandel c [s 0, s 1, s 2]) (dg l0 l1 l2) (M3.ofMandel c (act (Gen.N1_SPATIAL_MODULI__ABAQUS_r c c3 fn (matOf (Gen.N1_ABAQUS__DTAU_DF_r c c3 fn D (tensv F0) (tensv (dg f0 f1 f2)) s)) (tensv F0) (tensv (dg f0 f1 f2)) s) (M3.mandel1 (symm (dg l0 l1 l2))))))\n      = upper (lamSM (dg f0 f1 f2) (M3.ofMandel c [s 0, s 1, s 2]) (dg l0 l1 l2) (M3.ofMandel c (act (Gen.N1_SPATIAL_MODULI__DTAU_DF_r c c3 fn D (tensv F0) (tensv (dg f0 f1 f2)) s) (M3.mandel1 (symm (dg l0 l1 l2)))))) := by\n  refine (PropsN1.N1_SPATIAL_MODULI__ABAQUS c c3 fn hc h2 ..).trans ?_\n  refine (PropsN1.N1_ABAQUS__DTAU_DF c c3 fn hc h2 (hJ := hJ) ..).trans ?_\n  exact (PropsN1Chains.N1_SPATIAL_MODULI__DTAU_DF c c3 fn hc h2 ..).symm\n\n/-- conversions compose: `C_TRUESDELL ← SPATIAL_MODULI ← DS_DEGL` acts as the direct `C_TRUESDELL ← DS_DEGL`, for every variation. -/\ntheorem N1_compose_C_TRUESDELL__SPATIAL_MODULI__DS_DEGL (hc : c * c = 2) (h2 : (2:K) ≠ 0)\n    (D : Nat → Nat → K) (F0 : M3 K) (f0 f1 f2 : K) (l0 l1 l2 : K) (s : Nat → K) (hJ : (dg f0 f1 f2).det ≠ 0) :\n    upper (lamTr (dg f0 f1 f2) (M3.ofMandel c [s 0, s 1, s 2]) (dg l0 l1 l2) (M3.ofMandel c (act (Gen.N1_C_TRUESDELL__SPATIAL_MODULI_r c c3 fn (matOf (Gen.N1_SPATIAL_MODULI__DS_DEGL_r c c3 fn D (tensv F0) (tensv (dg f0 f1 f2)) s)) (tensv F0) (tensv (dg f0 f1 f2)) s) (M3.mandel1 (symm (dg l0 l1 l2))))))\n      = upper (lamTr (dg f0 f1 f2) (M3.ofMandel c [s 0, s 1, s 2]) (dg l0 l1 l2) (M3.ofMandel c (act (Gen.N1_C_TRUESDELL__DS_DEGL_r c c3 fn D (tensv F0) (tensv (dg f0 f1 f2)) s) (M3.mandel1 (symm (dg l0 l1 l2)))))) := by\n  refine (PropsN1.N1_C_TRUESDELL__SPATIAL_MODULI c c3 fn hc h2 (hJ := hJ) ..).trans ?_\n  refine (PropsN1.N1_SPATIAL_MODULI__DS_DEGL c c3 fn hc h2 ..).trans ?_\n  exact (PropsN1Chains.N1_C_TRUESDELL__DS_DEGL c c3 fn hc h2 (hJ := hJ) ..).symm\n\n/-- conversions compose: `C_TRUESDELL ← SPATIAL_MODULI ← DTAU_DF` acts as the direct `C_TRUESDELL ← DTAU_DF`, for every variation. -/\ntheorem N1_compose_C_TRUESDELL__SPATIAL_MODULI__DTAU_DF (hc : c * c = 2) (h2 : (2:K) ≠ 0)\n    (D : Nat → Nat → K) (F0 : M3 K) (f0 f1 f2 : K) (l0 l1 l2 : K) (s : Nat → K) (hJ : (dg f0 f1 f2).det ≠ 0) :\n    upper (lamTr (dg f0 f1 f2) (M3.ofMandel c [s 0, s 1, s 2]) (dg l0 l1 l2) (M3.ofMandel c (act (Gen.N1_C_TRUESDELL__SPATIAL_MODULI_r c c3 fn (matOf (Gen.N1_SPATIAL_MODULI__DTAU_DF_r c c3 fn D (tensv F0) (tensv (dg f0 f1 f2)) s)) (tensv F0) (tensv (dg f0 f1 f2)) s) (M3.mandel1 (symm (dg l0 l1 l2))))))\n      = upper (lamTr (dg f0 f1 f2) (M3.ofMandel c [s 0, s 1, s 2]) (dg l0 l1 l2) (M3.ofMandel c (act (Gen.N1_C_TRUESDELL__DTAU_DF_r c c3 fn D (tensv F0) (tensv (dg f0 f1 f2)) s) (M3.mandel1 (symm (dg l0 l1 l2)))))) := by\n  refine (PropsN1.N1_C_TRUESDELL__SPATIAL_MODULI c c3 fn hc h2 (hJ := hJ) ..).trans ?_\n  refine (PropsN1Chains.N1_SPATIAL_MODULI__DTAU_DF c c3 fn hc h2 ..).trans ?_\n  exact (PropsN1Chains.N1_C_TRUESDELL__DTAU_DF c c3 fn hc h2 (hJ := hJ) ..).symm\n\n/-- conversions compose: `C_TRUESDELL ← DS_DEGL ← SPATIAL_MODULI` acts as the direct `C_TRUESDELL ← SPATIAL_MODULI`, for every variation. -/\ntheorem N1_compose_C_TRUESDELL__DS_DEGL__SPATIAL_MODULI (hc : c * c = 2) (h2 : (2:K) ≠ 0)\n    (D : Nat → Nat → K) (F0 : M3 K) (f0 f1 f2 : K) (l0 l1 l2 : K) (s : Nat → K) (hJ : (dg f0 f1 f2).det ≠ 0) :\n    upper (lamTr (dg f0 f1 f2) (M3.ofMandel c [s 0, s 1, s 2]) (dg l0 l1 l2) (M3.ofMandel c (act (Gen.N1_C_TRUESDELL__DS_DEGL_r c c3 fn (matOf (Gen.N1_DS_DEGL__SPATIAL_MODULI_r c c3 fn D (tensv F0) (tensv (dg f0 f1 f2)) s)) (tensv F0) (tensv (dg f0 f1 f2)) s) (M3.mandel1 (symm (dg l0 l1 l2))))))\n      = upper (lamTr (dg f0 f1 f2) (M3.ofMandel c [s 0, s 1, s 2]) (dg l0 l1 l2) (M3.ofMandel c (act (Gen.N1_C_TRUESDELL__SPATIAL_MODULI_r c c3 fn D (tensv F0) (tensv (dg f0 f1 f2)) s) (M3.mandel1 (symm (dg l0 l1 l2)))))) := by\n  refine (PropsN1Chains.N1_C_TRUESDELL__DS_DEGL c c3 fn hc h2 (hJ := hJ) ..).trans ?_\n  refine (PropsN1Chains.N1_DS_DEGL__SPATIAL_MODULI c c3 fn hc h2 (hJ := hJ) ..).trans ?_\n  exact (PropsN1.N1_C_TRUESDELL__SPATIAL_MODULI c c3 fn hc h2 (hJ := hJ) ..).symm\n\n/-- conversions compose: `SPATIAL_MODULI ← C_TRUESDELL ← DS_DEGL` acts as the direct `SPATIAL_MODULI ← DS_DEGL`, for every variation. -/\ntheorem N1_compose_SPATIAL_MODULI__C_TRUESDELL__DS_DEGL (hc : c * c = 2) (h2 : (2:K) ≠ 0)\n    (D : Nat → Nat → K) (F0 : M3 K) (f0 f1 f2 : K) (l0 l1 l2 : K) (s : Nat → K) (hJ : (dg f0 f1 f2).det ≠ 0) :\n    upper (lamSM (dg f0 f1 f2) (M3.ofMandel c [s 0, s 1, s 2]) (dg l0 l1 l2) (M3.ofMandel c (act (Gen.N1_SPATIAL_MODULI__C_TRUESDELL_r c c3 fn (matOf (Gen.N1_C_TRUESDELL__DS_DEGL_r c c3 fn D (tensv F0) (tensv (dg f0 f1 f2)) s)) (tensv F0) (tensv (dg f0 f1 f2)) s) (M3.mandel1 (symm (dg l0 l1 l2))))))\n      = upper (lamSM (dg f0 f1 f2) (M3.ofMandel c [s 0, s 1, s 2]) (dg l0 l1 l2) (M3.ofMandel c (act (Gen.N1_SPATIAL_MODULI__DS_DEGL_r c c3 fn D (tensv F0) (tensv (dg f0 f1 f2)) s) (M3.mandel1 (symm (dg l0 l1 l2)))))) := by\n  refine (PropsN1.N1_SPATIAL_MODULI__C_TRUESDELL c c3 fn hc h2 ..).trans ?_\n  refine (PropsN1Chains.N1_C_TRUESDELL__DS_DEGL c c3 fn hc h2 (hJ := hJ) ..).trans ?_\n  exact (PropsN1.N1_SPATIAL_MODULI__DS_DEGL c c3 fn hc h2 ..).symm\n\n/-- conversions compose: `SPATIAL_MODULI ← C_TRUESDELL ← DTAU_DF` acts as the direct `SPATIAL_MODULI ← DTAU_DF`, for every variation. -/\ntheorem N1_compose_SPATIAL_MODULI__C_TRUESDELL__DTAU_DF (hc : c * c = 2) (h2 : (2:K) ≠ 0)\n    (D : Nat → Nat → K) (F0 : M3 K) (f0 f1 f2 : K) (l0 l1 l2 : K) (s : Nat → K) (hJ : (dg f0 f1 f2).det ≠ 0) :\n    upper (lamSM (dg f0 f1 f2) (M3.ofMandel c [s 0, s 1, s 2]) (dg l0 l1 l2) (M3.ofMandel c (act (Gen.N1_SPATIAL_MODULI__C_TRUESDELL_r c c3 fn (matOf (Gen.N1_C_TRUESDELL__DTAU_DF_r c c3 fn D (tensv F0) (tensv (dg f0 f1 f2)) s)) (tensv F0) (tensv (dg f0 f1 f2)) s) (M3.mandel1 (symm (dg l0 l1 l2))))))\n      = upper (lamSM (dg f0 f1 f2) (M3.ofMandel c [s 0, s 1, s 2]) (dg l0 l1 l2) (M3.ofMandel c (act (Gen.N1_SPATIAL_MODULI__DTAU_DF_r c c3 fn D (tensv F0) (tensv (dg f0 f1 f2)) s) (M3.mandel1 (symm (dg l0 l1 l2)))))) := by\n  refine (PropsN1.N1_SPATIAL_MODULI__C_TRUESDELL c c3 fn hc h2 ..).trans ?_\n  refine (PropsN1Chains.N1_C_TRUESDELL__DTAU_DF c c3 fn hc h2 (hJ := hJ) ..).trans ?_\n  exact (PropsN1Chains.N1_SPATIAL_MODULI__DTAU_DF c c3 fn hc h2 ..).symm\n\n/-- conversions compose: `DSIG_DF ← DTAU_DF ← ABAQUS` acts as the direct `DSIG_DF ← ABAQUS`, for every variation. -/\ntheorem N1_compose_DSIG_DF__DTAU_DF__ABAQUS (hc : c * c = 2) (h2 : (2:K) ≠ 0)\n    (D : Nat → Nat → K) (F0 : M3 K) (f0 f1 f2 : K) (l0 l1 l2 : K) (s : Nat → K) (hJ : (dg f0 f1 f2).det ≠ 0) :\n    upper (lamSig (dg f0 f1 f2) (M3.ofMandel c [s 0, s 1, s 2]) (dg l0 l1 l2) (M3.ofMandel c (act (Gen.N1_DSIG_DF__DTAU_DF_r c c3 fn (matOf (Gen.N1_DTAU_DF__ABAQUS_r c c3 fn D (tensv F0) (tensv (dg f0 f1 f2)) s)) (tensv F0) (tensv (dg f0 f1 f2)) s) (M3.tens1 ((dg l0 l1 l2) * (dg f0 f1 f2))))))\n      = upper (lamSig (dg f0 f1 f2) (M3.ofMandel c [s 0, s 1, s 2]) (dg l0 l1 l2) (M3.ofMandel c (act (Gen.N1_DSIG_DF__ABAQUS_r c c3 fn D (tensv F0) (tensv (dg f0 f1 f2)) s) (M3.tens1 ((dg l0 l1 l2) * (dg f0 f1 f2)))))) := by\n  refine (PropsN1.N1_DSIG_DF__DTAU_DF c c3 fn hc h2 (hJ := hJ) ..).trans ?_\n  refine (PropsN1.N1_DTAU_DF__ABAQUS c c3 fn hc h2 (hJ := hJ) ..).trans ?_\n  exact (PropsN1Chains.N1_DSIG_DF__ABAQUS c c3 fn hc h2 (hJ := hJ) ..).symm\n\n/-- conversions compose: `SPATIAL_MODULI ← DTAU_DF ← C_TAU_JAUMANN` acts as the direct `SPATIAL_MODULI ← C_TAU_JAUMANN`, for every variation. -/\ntheorem N1_compose_SPATIAL_MODULI__DTAU_DF__C_TAU_JAUMANN (hc : c * c = 2) (h2 : (2:K) ≠ 0)\n    (D : Nat → Nat → K) (F0 : M3 K) (f0 f1 f2 : K) (l0 l1 l2 : K) (s : Nat → K) (hJ : (dg f0 f1 f2).det ≠ 0) :\n    upper (lamSM (dg f0 f1 f2) (M3.ofMandel c [s 0, s 1, s 2]) (dg l0 l1 l2) (M3.ofMandel c (act (Gen.N1_SPATIAL_MODULI__DTAU_DF_r c c3 fn (matOf (Gen.N1_DTAU_DF__C_TAU_JAUMANN_r c c3 fn D (tensv F0) (tensv (dg f0 f1 f2)) s)) (tensv F0) (tensv (dg f0 f1 f2)) s) (M3.mandel1 (symm (dg l0 l1 l2))))))\n      = upper (lamSM (dg f0 f1 f2) (M3.ofMandel c [s 0, s 1, s 2]) (dg l0 l1 l2) (M3.ofMandel c (act (Gen.N1_SPATIAL_MODULI__C_TAU_JAUMANN_r c c3 fn D (tensv F0) (tensv (dg f0 f1 f2)) s) (M3.mandel1 (symm (dg l0 l1 l2)))))) := by\n  refine (PropsN1Chains.N1_SPATIAL_MODULI__DTAU_DF c c3 fn hc h2 ..).trans ?_\n  refine (PropsN1.N1_DTAU_DF__C_TAU_JAUMANN c c3 fn hc h2 (hJ := hJ) ..).trans ?_\n  exact (PropsN1.N1_SPATIAL_MODULI__C_TAU_JAUMANN c c3 fn hc h2 ..).symm\n\n/-- conversions compose: `SPATIAL_MODULI ← DTAU_DF ← ABAQUS` acts as the direct `SPATIAL_MODULI ← ABAQUS`, for every variation. -/\ntheorem N1_compose_SPATIAL_MODULI__DTAU_DF__ABAQUS (hc : c * c = 2) (h2 : (2:K) ≠ 0)\n    (D : Nat → Nat → K) (F0 : M3 K) (f0 f1 f2 : K) (l0 l1 l2 : K) (s : Nat → K) (hJ : (dg f0 f1 f2).det ≠ 0) :\n    upper (lamSM (dg f0 f1 f2) (M3.ofMandel c [s 0, s 1, s 2]) (dg l0 l1 l2) (M3.ofMandel c (act (Gen.N1_SPATIAL_MODULI__DTAU_DF_r c c3 fn (matOf (Gen.N1_DTAU_DF__ABAQUS_r c c3 fn D (tensv F0) (tensv (dg f0 f1 f2)) s)) (tensv F0) (tensv (dg f0 f1 f2)) s) (M3.mandel1 (symm (dg l0 l1 l2))))))\n      = upper (lamSM (dg f0 f1 f2) (M3.ofMandel c [s 0, s 1, s 2]) (dg l0 l1 l2) (M3.ofMandel c (act (Gen.N1_SPATIAL_MODULI__ABAQUS_r c c3 fn D (tensv F0) (tensv (dg f0 f1 f2)) s) (M3.mandel1 (symm (dg l0 l1 l2)))))) := by\n  refine (PropsN1Chains.N1_SPATIAL_MODULI__DTAU_DF c c3 fn hc h2 ..).trans ?_\n  refine (PropsN1.N1_DTAU_DF__ABAQUS c c3 fn hc h2 (hJ := hJ) ..).trans ?_\n  exact (PropsN1.N1_SPATIAL_MODULI__ABAQUS c c3 fn hc h2 ..).symm\n\n/-- conversions compose: `C_TAU_JAUMANN ← DTAU_DF ← ABAQUS` acts as the direct `C_TAU_JAUMANN ← ABAQUS`, for every variation. -/\ntheorem N1_compose_C_TAU_JAUMANN__DTAU_DF__ABAQUS (hc : c * c = 2) (h2 : (2:K) ≠ 0)\n    (D : Nat → Nat → K) (F0 : M3 K) (f0 f1 f2 : K) (l0 l1 l2 : K) (s : Nat → K) (hJ : (dg f0 f1 f2).det ≠ 0) :\n    upper (lamJ (dg f0 f1 f2) (M3.ofMandel c [s 0, s 1, s 2]) (dg l0 l1 l2) (M3.ofMandel c (act (Gen.N1_C_TAU_JAUMANN__DTAU_DF_r c c3 fn (matOf (Gen.N1_DTAU_DF__ABAQUS_r c c3 fn D (tensv F0) (tensv (dg f0 f1 f2)) s)) (tensv F0) (tensv (dg f0 f1 f2)) s) (M3.mandel1 (symm (dg l0 l1 l2))))))\n      = upper (lamJ (dg f0 f1 f2) (M3.ofMandel c [s 0, s 1, s 2]) (dg l0 l1 l2) (M3.ofMandel c (act (Gen.N1_C_TAU_JAUMANN__ABAQUS_r c c3 fn D (tensv F0) (tensv (dg f0 f1 f2)) s) (M3.mandel1 (symm (dg l0 l1 l2)))))) := by\n  refine (PropsN1.N1_C_TAU_JAUMANN__DTAU_DF c c3 fn hc h2 ..).trans ?_\n  refine (PropsN1.N1_DTAU_DF__ABAQUS c c3 fn hc h2 (hJ := hJ) ..).trans ?_\n  exact (PropsN1.N1_C_TAU_JAUMANN__ABAQUS c c3 fn hc h2 ..).symm\n\n/-- conversions compose: `C_TAU_JAUMANN ← DTAU_DF ← SPATIAL_MODULI` acts as the direct `C_TAU_JAUMANN ← SPATIAL_MODULI`, for every variation. -/\ntheorem N1_compose_C_TAU_JAUMANN__DTAU_DF__SPATIAL_MODULI (hc : c * c = 2) (h2 : (2:K) ≠ 0)\n    (D : Nat → Nat → K) (F0 : M3 K) (f0 f1 f2 : K) (l0 l1 l2 : K) (s : Nat → K) (hJ : (dg f0 f1 f2).det ≠ 0) :\n    upper (lamJ (dg f0 f1 f2) (M3.ofMandel c [s 0, s 1, s 2]) (dg l0 l1 l2) (M3.ofMandel c (act (Gen.N1_C_TAU_JAUMANN__DTAU_DF_r c c3 fn (matOf (Gen.N1_DTAU_DF__SPATIAL_MODULI_r c c3 fn D (tensv F0) (tensv (dg f0 f1 f2)) s)) (tensv F0) (tensv (dg f0 f1 f2)) s) (M3.mandel1 (symm (dg l0 l1 l2))))))\n      = upper (lamJ (dg f0 f1 f2) (M3.ofMandel c [s 0, s 1, s 2]) (dg l0 l1 l2) (M3.ofMandel c (act (Gen.N1_C_TAU_JAUMANN__SPATIAL_MODULI_r c c3 fn D (tensv F0) (tensv (dg f0 f1 f2)) s) (M3.mandel1 (symm (dg l0 l1 l2)))))) := by\n  refine (PropsN1.N1_C_TAU_JAUMANN__DTAU_DF c c3 fn hc h2 ..).trans ?_\n  refine (PropsN1Chains.N1_DTAU_DF__SPATIAL_MODULI c c3 fn hc h2 (hJ := hJ) ..).trans ?_\n  exact (PropsN1.N1_C_TAU_JAUMANN__SPATIAL_MODULI c c3 fn hc h2 ..).symm\n\n/-- conversions compose: `C_TRUESDELL ← DTAU_DF ← SPATIAL_MODULI` acts as the direct `C_TRUESDELL ← SPATIAL_MODULI`, for every variation. -/\ntheorem N1_compose_C_TRUESDELL__DTAU_DF__SPATIAL_MODULI (hc : c * c = 2) (h2 : (2:K) ≠ 0)\n    (D : Nat → Nat → K) (F0 : M3 K) (f0 f1 f2 : K) (l0 l1 l2 : K) (s : Nat → K) (hJ : (dg f0 f1 f2).det ≠ 0) :\n    upper (lamTr (dg f0 f1 f2) (M3.ofMandel c [s 0, s 1, s 2]) (dg l0 l1 l2) (M3.ofMandel c (act (Gen.N1_C_TRUESDELL__DTAU_DF_r c c3 fn (matOf (Gen.N1_DTAU_DF__SPATIAL_MODULI_r c c3 fn D (tensv F0) (tensv (dg f0 f1 f2)) s)) (tensv F0) (tensv (dg f0 f1 f2)) s) (M3.mandel1 (symm (dg l0 l1 l2))))))\n      = upper (lamTr (dg f0 f1 f2) (M3.ofMandel c [s 0, s 1, s 2]) (dg l0 l1 l2) (M3.ofMandel c (act (Gen.N1_C_TRUESDELL__SPATIAL_MODULI_r c c3 fn D (tensv F0) (tensv (dg f0 f1 f2)) s) (M3.mandel1 (symm (dg l0 l1 l2)))))) := by\n  refine (PropsN1Chains.N1_C_TRUESDELL__DTAU_DF c c3 fn hc h2 (hJ := hJ) ..).trans ?_\n  refine (PropsN1Chains.N1_DTAU_DF__SPATIAL_MODULI c c3 fn hc h2 (hJ := hJ) ..).trans ?_\n  exact (PropsN1.N1_C_TRUESDELL__SPATIAL_MODULI c c3 fn hc h2 (hJ := hJ) ..).symm\n\n/-- conversions compose: `ABAQUS ← C_TAU_JAUMANN ← DTAU_DF` acts as the direct `ABAQUS ← DTAU_DF`, for every variation. -/\ntheorem N1_compose_ABAQUS__C_TAU_JAUMANN__DTAU_DF (hc : c * c = 2) (h2 : (2:K) ≠ 0)\n    (D : Nat → Nat → K) (F0 : M3 K) (f0 f1 f2 : K) (l0 l1 l2 : K) (s : Nat → K) (hJ : (dg f0 f1 f2).det ≠ 0) :\n    upper (lamAb (dg f0 f1 f2) (M3.ofMandel c [s 0, s 1, s 2]) (dg l0 l1 l2) (M3.ofMandel c (act (Gen.N1_ABAQUS__C_TAU_JAUMANN_r c c3 fn (matOf (Gen.N1_C_TAU_JAUMANN__DTAU_DF_r c c3 fn D (tensv F0) (tensv (dg f0 f1 f2)) s)) (tensv F0) (tensv (dg f0 f1 f2)) s) (M3.mandel1 (symm (dg l0 l1 l2))))))\n      = upper (lamAb (dg f0 f1 f2) (M3.ofMandel c [s 0, s 1, s 2]) (dg l0 l1 l2) (M3.ofMandel c (act (Gen.N1_ABAQUS__DTAU_DF_r c c3 fn D (tensv F0) (tensv (dg f0 f1 f2)) s) (M3.mandel1 (symm (dg l0 l1 l2)))))) := by\n  refine (PropsN1.N1_ABAQUS__C_TAU_JAUMANN c c3 fn hc h2 (hJ := hJ) ..).trans ?_\n  refine (PropsN1.N1_C_TAU_JAUMANN__DTAU_DF c c3 fn hc h2 ..).trans ?_\n  exact (PropsN1.N1_ABAQUS__DTAU_DF c c3 fn hc h2 (hJ := hJ) ..).symm\n\n/-- conversions compose: `ABAQUS ← C_TAU_JAUMANN ← SPATIAL_MODULI` acts as the direct `ABAQUS ← SPATIAL_MODULI`, for every variation. -/\ntheorem N1_compose_ABAQUS__C_TAU_JAUMANN__SPATIAL_MODULI (hc : c * c = 2) (h2 : (2:K) ≠ 0)\n    (D : Nat → Nat → K) (F0 : M3 K) (f0 f1 f2 : K) (l0 l1 l2 : K) (s : Nat → K) (hJ : (dg f0 f1 f2).det ≠ 0) :\n    upper (lamAb (dg f0 f1 f2) (M3.ofMandel c [s 0, s 1, s 2]) (dg l0 l1 l2) (M3.ofMandel c (act (Gen.N1_ABAQUS__C_TAU_JAUMANN_r c c3 fn (matOf (Gen.N1_C_TAU_JAUMANN__SPATIAL_MODULI_r c c3 fn D (tensv F0) (tensv (dg f0 f1 f2)) s)) (tensv F0) (tensv (dg f0 f1 f2)) s) (M3.mandel1 (symm (dg l0 l1 l2))))))\n      = upper (lamAb (dg f0 f1 f2) (M3.ofMandel c [s 0, s 1, s 2]) (dg l0 l1 l2) (M3.ofMandel c (act (Gen.N1_ABAQUS__SPATIAL_MODULI_r c c3 fn D (tensv F0) (tensv (dg f0 f1 f2)) s) (M3.mandel1 (symm (dg l0 l1 l2)))))) := by\n  refine (PropsN1.N1_ABAQUS__C_TAU_JAUMANN c c3 fn hc h2 (hJ := hJ) ..).trans ?_\n  refine (PropsN1.N1_C_TAU_JAUMANN__SPATIAL_MODULI c c3 fn hc h2 ..).trans ?_\n  exact (PropsN1.N1_ABAQUS__SPATIAL_MODULI c c3 fn hc h2 (hJ := hJ) ..).symm\n\n/-- conversions compose: `C_TAU_JAUMANN ← ABAQUS ← SPATIAL_MODULI` acts as the direct `C_TAU_JAUMANN ← SPATIAL_MODULI`, for every variation. -/\ntheorem N1_compose_C_TAU_JAUMANN__ABAQUS__SPATIAL_MODULI (hc : c * c = 2) (h2 : (2:K) ≠ 0)\n    (D : Nat → Nat → K) (F0 : M3 K) (f0 f1 f2 : K) (l0 l1 l2 : K) (s : Nat → K) (hJ : (dg f0 f1 f2).det ≠ 0) :\n    upper (lamJ (dg f0 f1 f2) (M3.ofMandel c [s 0, s 1, s 2]) (dg l0 l1 l2) (M3.ofMandel c (act (Gen.N1_C_TAU_JAUMANN__ABAQUS_r c c3 fn (matOf (Gen.N1_ABAQUS__SPATIAL_MODULI_r c c3 fn D (tensv F0) (tensv (dg f0 f1 f2)) s)) (tensv F0) (tensv (dg f0 f1 f2)) s) (M3.mandel1 (symm (dg l0 l1 l2))))))\n      = upper (lamJ (dg f0 f1 f2) (M3.ofMandel c [s 0, s 1, s 2]) (dg l0 l1 l2) (M3.ofMandel c (act (Gen.N1_C_TAU_JAUMANN__SPATIAL_MODULI_r c c3 fn D (tensv F0) (tensv (dg f0 f1 f2)) s) (M3.mandel1 (symm (dg l0 l1 l2)))))) := by\n  refine (PropsN1.N1_C_TAU_JAUMANN__ABAQUS c c3 fn hc h2 ..).trans ?_\n  refine (PropsN1.N1_ABAQUS__SPATIAL_MODULI c c3 fn hc h2 (hJ := hJ) ..).trans ?_\n  exact (PropsN1.N1_C_TAU_JAUMANN__SPATIAL_MODULI c c3 fn hc h2 ..).symm\n\n/-- conversions compose: `C_TAU_JAUMANN ← ABAQUS ← DTAU_DF` acts as the direct `C_TAU_JAUMANN ← DTAU_DF`, for every variation. -/\ntheorem N1_compose_C_TAU_JAUMANN__ABAQUS__DTAU_DF (hc : c * c = 2) (h2 : (2:K) ≠ 0)\n    (D : Nat → Nat → K) (F0 : M3 K) (f0 f1 f2 : K) (l0 l1 l2 : K) (s : Nat → K) (hJ : (dg f0 f1 f2).det ≠ 0) :\n    upper (lamJ (dg f0 f1 f2) (M3.ofMandel c [s 0, s 1, s 2]) (dg l0 l1 l2) (M3.ofMandel c (act (Gen.N1_C_TAU_JAUMANN__ABAQUS_r c c3 fn (matOf (Gen.N1_ABAQUS__DTAU_DF_r c c3 fn D (tensv F0) (tensv (dg f0 f1 f2)) s)) (tensv F0) (tensv (dg f0 f1 f2)) s) (M3.mandel1 (symm (dg l0 l1 l2))))))\n      = upper (lamJ (dg f0 f1 f2) (M3.ofMandel c [s 0, s 1, s 2]) (dg l0 l1 l2) (M3.ofMandel c (act (Gen.N1_C_TAU_JAUMANN__DTAU_DF_r c c3 fn D (tensv F0) (tensv (dg f0 f1 f2)) s) (M3.mandel1 (symm (dg l0 l1 l2)))))) := by\n  refine (PropsN1.N1_C_TAU_JAUMANN__ABAQUS c c3 fn hc h2 ..).trans ?_\n  refine (PropsN1.N1_ABAQUS__DTAU_DF c c3 fn hc h2 (hJ := hJ) ..).trans ?_\n  exact (PropsN1.N1_C_TAU_JAUMANN__DTAU_DF c c3 fn hc h2 ..).symm\n\n/-- conversions compose: `C_TAU_JAUMANN ← SPATIAL_MODULI ← ABAQUS` acts as the direct `C_TAU_JAUMANN ← ABAQUS`, for every variation. -/\ntheorem N1_compose_C_TAU_JAUMANN__SPATIAL_MODULI__ABAQUS (hc : c * c = 2) (h2 : (2:K) ≠ 0)\n    (D : Nat → Nat → K) (F0 : M3 K) (f0 f1 f2 : K) (l0 l1 l2 : K) (s : Nat → K)  :\n    upper (lamJ (dg f0 f1 f2) (M3.ofMandel c [s 0, s 1, s 2]) (dg l0 l1 l2) (M3.ofMandel c (act (Gen.N1_C_TAU_JAUMANN__SPATIAL_MODULI_r c c3 fn (matOf (Gen.N1_SPATIAL_MODULI__ABAQUS_r c c3 fn D (tensv F0) (tensv (dg f0 f1 f2)) s)) (tensv F0) (tensv (dg f0 f1 f2)) s) (M3.mandel1 (symm (dg l0 l1 l2))))))\n      = upper (lamJ (dg f0 f1 f2) (M3.ofMandel c [s 0, s 1, s 2]) (dg l0 l1 l2) (M3.ofMandel c (act (Gen.N1_C_TAU_JAUMANN__ABAQUS_r c c3 fn D (tensv F0) (tensv (dg f0 f1 f2)) s) (M3.mandel1 (symm (dg l0 l1 l2)))))) := by\n  refine (PropsN1.N1_C_TAU_JAUMANN__SPATIAL_MODULI c c3 fn hc h2 ..).trans ?_\n  refine (PropsN1.N1_SPATIAL_MODULI__ABAQUS c c3 fn hc h2 ..).trans ?_\n  exact (PropsN1.N1_C_TAU_JAUMANN__ABAQUS c c3 fn hc h2 ..).symm\n\n/-- conversions compose: `C_TAU_JAUMANN ← SPATIAL_MODULI ← DTAU_DF` acts as the direct `C_TAU_JAUMANN ← DTAU_DF`, for every variation. -/\ntheorem N1_compose_C_TAU_JAUMANN__SPATIAL_MODULI__DTAU_DF (hc : c * c = 2) (h2 : (2:K) ≠ 0)\n    (D : Nat → Nat → K) (F0 : M3 K) (f0 f1 f2 : K) (l0 l1 l2 : K) (s : Nat → K)  :\n    upper (lamJ (dg f0 f1 f2) (M3.ofMandel c [s 0, s 1, s 2]) (dg l0 l1 l2) (M3.ofMandel c (act (Gen.N1_C_TAU_JAUMANN__SPATIAL_MODULI_r c c3 fn (matOf (Gen.N1_SPATIAL_MODULI__DTAU_DF_r c c3 fn D (tensv F0) (tensv (dg f0 f1 f2)) s)) (tensv F0) (tensv (dg f0 f1 f2)) s) (M3.mandel1 (symm (dg l0 l1 l2))))))\n      = upper (lamJ (dg f0 f1 f2) (M3.ofMandel c [s 0, s 1, s 2]) (dg l0 l1 l2) (M3.ofMandel c (act (Gen.N1_C_TAU_JAUMANN__DTAU_DF_r c c3 fn D (tensv F0) (tensv (dg f0 f1 f2)) s) (M3.mandel1 (symm (dg l0 l1 l2)))))) := by\n  refine (PropsN1.N1_C_TAU_JAUMANN__SPATIAL_MODULI c c3 fn hc h2 ..).trans ?_\n  refine (PropsN1Chains.N1_SPATIAL_MODULI__DTAU_DF c c3 fn hc h2 ..).trans ?_\n  exact (PropsN1.N1_C_TAU_JAUMANN__DTAU_DF c c3 fn hc h2 ..).symm\n\n/-- conversions compose: `SPATIAL_MODULI ← C_TAU_JAUMANN ← DTAU_DF` acts as the direct `SPATIAL_MODULI ← DTAU_DF`, for every variation. -/\ntheorem N1_compose_SPATIAL_MODULI__C_TAU_JAUMANN__DTAU_DF (hc : c * c = 2) (h2 : (2:K) ≠ 0)\n    (D : Nat → Nat → K) (F0 : M3 K) (f0 f1 f2 : K) (l0 l1 l2 : K) (s : Nat → K)  :\n    upper (lamSM (dg f0 f1 f2) (M3.ofMandel c [s 0, s 1, s 2]) (dg l0 l1 l2) (M3.ofMandel c (act (Gen.N1_SPATIAL_MODULI__C_TAU_JAUMANN_r c c3 fn (matOf (Gen.N1_C_TAU_JAUMANN__DTAU_DF_r c c3 fn D (tensv F0) (tensv (dg f0 f1 f2)) s)) (tensv F0) (tensv (dg f0 f1 f2)) s) (M3.mandel1 (symm (dg l0 l1 l2))))))\n      = upper (lamSM (dg f0 f1 f2) (M3.ofMandel c [s 0, s 1, s 2]) (dg l0 l1 l2) (M3.ofMandel c (act (Gen.N1_SPATIAL_MODULI__DTAU_DF_r c c3 fn D (tensv F0) (tensv (dg f0 f1 f2)) s) (M3.mandel1 (symm (dg l0 l1 l2)))))) := by\n  refine (PropsN1.N1_SPATIAL_MODULI__C_TAU_JAUMANN c c3 fn hc h2 ..).trans ?_\n  refine (PropsN1.N1_C_TAU_JAUMANN__DTAU_DF c c3 fn hc h2 ..).trans ?_\n  exact (PropsN1Chains.N1_SPATIAL_MODULI__DTAU_DF c c3 fn hc h2 ..).symm\n\n/-- conversions compose: `SPATIAL_MODULI ← C_TAU_JAUMANN ← ABAQUS` acts as the direct `SPATIAL_MODULI ← ABAQUS`, for every variation. -/\ntheorem N1_compose_SPATIAL_MODULI__C_TAU_JAUMANN__ABAQUS (hc : c * c = 2) (h2 : (2:K) ≠ 0)\n    (D : Nat → Nat → K) (F0 : M3 K) (f0 f1 f2 : K) (l0 l1 l2 : K) (s : Nat → K)  :\n    upper (lamSM (dg f0 f1 f2) (M3.ofMandel c [s 0, s 1, s 2]) (dg l0 l1 l2) (M3.ofMandel c (act (Gen.N1_SPATIAL_MODULI__C_TAU_JAUMANN_r c c3 fn (matOf (Gen.N1_C_TAU_JAUMANN__ABAQUS_r c c3 fn D (tensv F0) (tensv (dg f0 f1 f2)) s)) (tensv F0) (tensv (dg f0 f1 f2)) s) (M3.mandel1 (symm (dg l0 l1 l2))))))\n      = upper (lamSM (dg f0 f1 f2) (M3.ofMandel c [s 0, s 1, s 2]) (dg l0 l1 l2) (M3.ofMandel c (act (Gen.N1_SPATIAL_MODULI__ABAQUS_r c c3 fn D (tensv F0) (tensv (dg f0 f1 f2)) s) (M3.mandel1 (symm (dg l0 l1 l2)))))) := by\n  refine (PropsN1.N1_SPATIAL_MODULI__C_TAU_JAUMANN c c3 fn hc h2 ..).trans ?_\n  refine (PropsN1.N1_C_TAU_JAUMANN__ABAQUS c c3 fn hc h2 ..).trans ?_\n  exact (PropsN1.N1_SPATIAL_MODULI__ABAQUS c c3 fn hc h2 ..).symm\n\n/-- conversions compose: `ABAQUS ← DTAU_DF ← C_TAU_JAUMANN` acts as the direct `ABAQUS ← C_TAU_JAUMANN`, for every variation. -/\ntheorem N1_compose_ABAQUS__DTAU_DF__C_TAU_JAUMANN (hc : c * c = 2) (h2 : (2:K) ≠ 0)\n    (D : Nat → Nat → K) (F0 : M3 K) (f0 f1 f2 : K) (l0 l1 l2 : K) (s : Nat → K) (hJ : (dg f0 f1 f2).det ≠ 0) :\n    upper (lamAb (dg f0 f1 f2) (M3.ofMandel c [s 0, s 1, s 2]) (dg l0 l1 l2) (M3.ofMandel c (act (Gen.N1_ABAQUS__DTAU_DF_r c c3 fn (matOf (Gen.N1_DTAU_DF__C_TAU_JAUMANN_r c c3 fn D (tensv F0) (tensv (dg f0 f1 f2)) s)) (tensv F0) (tensv (dg f0 f1 f2)) s) (M3.mandel1 (symm (dg l0 l1 l2))))))\n      = upper (lamAb (dg f0 f1 f2) (M3.ofMandel c [s 0, s 1, s 2]) (dg l0 l1 l2) (M3.ofMandel c (act (Gen.N1_ABAQUS__C_TAU_JAUMANN_r c c3 fn D (tensv F0) (tensv (dg f0 f1 f2)) s) (M3.mandel1 (symm (dg l0 l1 l2)))))) := by\n  refine (PropsN1.N1_ABAQUS__DTAU_DF c c3 fn hc h2 (hJ := hJ) ..).trans ?_\n  refine (PropsN1.N1_DTAU_DF__C_TAU_JAUMANN c c3 fn hc h2 (hJ := hJ) ..).trans ?_\n  exact (PropsN1.N1_ABAQUS__C_TAU_JAUMANN c c3 fn hc h2 (hJ := hJ) ..).symm\n\n/-- conversions compose: `ABAQUS ← DTAU_DF ← SPATIAL_MODULI` acts as the direct `ABAQUS ← SPATIAL_MODULI`, for every variation. -/\ntheorem N1_compose_ABAQUS__DTAU_DF__SPATIAL_MODULI (hc : c * c = 2) (h2 : (2:K) ≠ 0)\n    (D : Nat → Nat → K) (F0 : M3 K) (f0 f1 f2 : K) (l0 l1 l2 : K) (s : Nat → K) (hJ : (dg f0 f1 f2).det ≠ 0) :\n    upper (lamAb (dg f0 f1 f2) (M3.ofMandel c [s 0, s 1, s 2]) (dg l0 l1 l2) (M3.ofMandel c (act (Gen.N1_ABAQUS__DTAU_DF_r c c3 fn (matOf (Gen.N1_DTAU_DF__SPATIAL_MODULI_r c c3 fn D (tensv F0) (tensv (dg f0 f1 f2)) s)) (tensv F0) (tensv (dg f0 f1 f2)) s) (M3.mandel1 (symm (dg l0 l1 l2))))))\n      = upper (lamAb (dg f0 f1 f2) (M3.ofMandel c [s 0, s 1, s 2]) (dg l0 l1 l2) (M3.ofMandel c (act (Gen.N1_ABAQUS__SPATIAL_MODULI_r c c3 fn D (tensv F0) (tensv (dg f0 f1 f2)) s) (M3.mandel1 (symm (dg l0 l1 l2)))))) := by\n  refine (PropsN1.N1_ABAQUS__DTAU_DF c c3 fn hc h2 (hJ := hJ) ..).trans ?_\n  refine (PropsN1Chains.N1_DTAU_DF__SPATIAL_MODULI c c3 fn hc h2 (hJ := hJ) ..).trans ?_\n  exact (PropsN1.N1_ABAQUS__SPATIAL_MODULI c c3 fn hc h2 (hJ := hJ) ..).symm\n\n/-- conversions compose: `DTAU_DF ← C_TAU_JAUMANN ← ABAQUS` acts as the direct `DTAU_DF ← ABAQUS`, for every variation. -/\ntheorem N1_compose_DTAU_DF__C_TAU_JAUMANN__ABAQUS (hc : c * c = 2) (h2 : (2:K) ≠ 0)\n    (D : Nat → Nat → K) (F0 : M3 K) (f0 f1 f2 : K) (l0 l1 l2 : K) (s : Nat → K) (hJ : (dg f0 f1 f2).det ≠ 0) :\n    upper (lamTau (dg f0 f1 f2) (M3.ofMandel c [s 0, s 1, s 2]) (dg l0 l1 l2) (M3.ofMandel c (act (Gen.N1_DTAU_DF__C_TAU_JAUMANN_r c c3 fn (matOf (Gen.N1_C_TAU_JAUMANN__ABAQUS_r c c3 fn D (tensv F0) (tensv (dg f0 f1 f2)) s)) (tensv F0) (tensv (dg f0 f1 f2)) s) (M3.tens1 ((dg l0 l1 l2) * (dg f0 f1 f2))))))\n      = upper (lamTau (dg f0 f1 f2) (M3.ofMandel c [s 0, s 1, s 2]) (dg l0 l1 l2) (M3.ofMandel c (act (Gen.N1_DTAU_DF__ABAQUS_r c c3 fn D (tensv F0) (tensv (dg f0 f1 f2)) s) (M3.tens1 ((dg l0 l1 l2) * (dg f0 f1 f2)))))) := by\n  refine (PropsN1.N1_DTAU_DF__C_TAU_JAUMANN c c3 fn hc h2 (hJ := hJ) ..).trans ?_\n  refine (PropsN1.N1_C_TAU_JAUMANN__ABAQUS c c3 fn hc h2 ..).trans ?_\n  exact (PropsN1.N1_DTAU_DF__ABAQUS c c3 fn hc h2 (hJ := hJ) ..).symm\n\n/-- conversions compose: `DTAU_DF ← C_TAU_JAUMANN ← SPATIAL_MODULI` acts as the direct `DTAU_DF ← SPATIAL_MODULI`, for every variation. -/\ntheorem N1_compose_DTAU_DF__C_TAU_JAUMANN__SPATIAL_MODULI (hc : c * c = 2) (h2 : (2:K) ≠ 0)\n    (D : Nat → Nat → K) (F0 : M3 K) (f0 f1 f2 : K) (l0 l1 l2 : K) (s : Nat → K) (hJ : (dg f0 f1 f2).det ≠ 0) :\n    upper (lamTau (dg f0 f1 f2) (M3.ofMandel c [s 0, s 1, s 2]) (dg l0 l1 l2) (M3.ofMandel c (act (Gen.N1_DTAU_DF__C_TAU_JAUMANN_r c c3 fn (matOf (Gen.N1_C_TAU_JAUMANN__SPATIAL_MODULI_r c c3 fn D (tensv F0) (tensv (dg f0 f1 f2)) s)) (tensv F0) (tensv (dg f0 f1 f2)) s) (M3.tens1 ((dg l0 l1 l2) * (dg f0 f1 f2))))))\n      = upper (lamTau (dg f0 f1 f2) (M3.ofMandel c [s 0, s 1, s 2]) (dg l0 l1 l2) (M3.ofMandel c (act (Gen.N1_DTAU_DF__SPATIAL_MODULI_r c c3 fn D (tensv F0) (tensv (dg f0 f1 f2)) s) (M3.tens1 ((dg l0 l1 l2) * (dg f0 f1 f2)))))) := by\n  refine (PropsN1.N1_DTAU_DF__C_TAU_JAUMANN c c3 fn hc h2 (hJ := hJ) ..).trans ?_\n  refine (PropsN1.N1_C_TAU_JAUMANN__SPATIAL_MODULI c c3 fn hc h2 ..).trans ?_\n  exact (PropsN1Chains.N1_DTAU_DF__SPATIAL_MODULI c c3 fn hc h2 (hJ := hJ) ..).symm\n\n/-- conversions compose: `DTAU_DF ← ABAQUS ← SPATIAL_MODULI` acts as the direct `DTAU_DF ← SPATIAL_MODULI`, for every variation. -/\ntheorem N1_compose_DTAU_DF__ABAQUS__SPATIAL_MODULI (hc : c * c = 2) (h2 : (2:K) ≠ 0)\n    (D : Nat → Nat → K) (F0 : M3 K) (f0 f1 f2 : K) (l0 l1 l2 : K) (s : Nat → K) (hJ : (dg f0 f1 f2).det ≠ 0) :\n    upper (lamTau (dg f0 f1 f2) (M3.ofMandel c [s 0, s 1, s 2]) (dg l0 l1 l2) (M3.ofMandel c (act (Gen.N1_DTAU_DF__ABAQUS_r c c3 fn (matOf (Gen.N1_ABAQUS__SPATIAL_MODULI_r c c3 fn D (tensv F0) (tensv (dg f0 f1 f2)) s)) (tensv F0) (tensv (dg f0 f1 f2)) s) (M3.tens1 ((dg l0 l1 l2) * (dg f0 f1 f2))))))\n      = upper (lamTau (dg f0 f1 f2) (M3.ofMandel c [s 0, s 1, s 2]) (dg l0 l1 l2) (M3.ofMandel c (act (Gen.N1_DTAU_DF__SPATIAL_MODULI_r c c3 fn D (tensv F0) (tensv (dg f0 f1 f2)) s) (M3.tens1 ((dg l0 l1 l2) * (dg f0 f1 f2)))))) := by\n  refine (PropsN1.N1_DTAU_DF__ABAQUS c c3 fn hc h2 (hJ := hJ) ..).trans ?_\n  refine (PropsN1.N1_ABAQUS__SPATIAL_MODULI c c3 fn hc h2 (hJ := hJ) ..).trans ?_\n  exact (PropsN1Chains.N1_DTAU_DF__SPATIAL_MODULI c c3 fn hc h2 (hJ := hJ) ..).symm\n\n/-- conversions compose: `DTAU_DF ← ABAQUS ← C_TAU_JAUMANN` acts as the direct `DTAU_DF ← C_TAU_JAUMANN`, for every variation. -/\ntheorem N1_compose_DTAU_DF__ABAQUS__C_TAU_JAUMANN (hc : c * c = 2) (h2 : (2:K) ≠ 0)\n    (D : Nat → Nat → K) (F0 : M3 K) (f0 f1 f2 : K) (l0 l1 l2 : K) (s : Nat → K) (hJ : (dg f0 f1 f2).det ≠ 0) :\n    upper (lamTau (dg f0 f1 f2) (M3.ofMandel c [s 0, s 1, s 2]) (dg l0 l1 l2) (M3.ofMandel c (act (Gen.N1_DTAU_DF__ABAQUS_r c c3 fn (matOf (Gen.N1_ABAQUS__C_TAU_JAUMANN_r c c3 fn D (tensv F0) (tensv (dg f0 f1 f2)) s)) (tensv F0) (tensv (dg f0 f1 f2)) s) (M3.tens1 ((dg l0 l1 l2) * (dg f0 f1 f2))))))\n      = upper (lamTau (dg f0 f1 f2) (M3.ofMandel c [s 0, s 1, s 2]) (dg l0 l1 l2) (M3.ofMandel c (act (Gen.N1_DTAU_DF__C_TAU_JAUMANN_r c c3 fn D (tensv F0) (tensv (dg f0 f1 f2)) s) (M3.tens1 ((dg l0 l1 l2) * (dg f0 f1 f2)))))) := by\n  refine (PropsN1.N1_DTAU_DF__ABAQUS c c3 fn hc h2 (hJ := hJ) ..).trans ?_\n  refine (PropsN1.N1_ABAQUS__C_TAU_JAUMANN c c3 fn hc h2 (hJ := hJ) ..).trans ?_\n  exact (PropsN1.N1_DTAU_DF__C_TAU_JAUMANN c c3 fn hc h2 (hJ := hJ) ..).symm\n\n/-- conversions compose: `DTAU_DF ← SPATIAL_MODULI ← ABAQUS` acts as the direct `DTAU_DF ← ABAQUS`, for every variation. -/\ntheorem N1_compose_DTAU_DF__SPATIAL_MODULI__ABAQUS (hc : c * c = 2) (h2 : (2:K) ≠ 0)\n    (D : Nat → Nat → K) (F0 : M3 K) (f0 f1 f2 : K) (l0 l1 l2 : K) (s : Nat → K) (hJ : (dg f0 f1 f2).det ≠ 0) :\n    upper (lamTau (dg f0 f1 f2) (M3.ofMandel c [s 0, s 1, s 2]) (dg l0 l1 l2) (M3.ofMandel c (act (Gen.N1_DTAU_DF__SPATIAL_MODULI_r c c3 fn (matOf (Gen.N1_SPATIAL_MODULI__ABAQUS_r c c3 fn D (tensv F0) (tensv (dg f0 f1 f2)) s)) (tensv F0) (tensv (dg f0 f1 f2)) s) (M3.tens1 ((dg l0 l1 l2) * (dg f0 f1 f2))))))\n      = upper (lamTau (dg f0 f1 f2) (M3.ofMandel c [s 0, s 1, s 2]) (dg l0 l1 l2) (M3.ofMandel c (act (Gen.N1_DTAU_DF__ABAQUS_r c c3 fn D (tensv F0) (tensv (dg f0 f1 f2)) s) (M3.tens1 ((dg l0 l1 l2) * (dg f0 f1 f2)))))) := by\n  refine (PropsN1Chains.N1_DTAU_DF__SPATIAL_MODULI c c3 fn hc h2 (hJ := hJ) ..).trans ?_\n  refine (PropsN1.N1_SPATIAL_MODULI__ABAQUS c c3 fn hc h2 ..).trans ?_\n  exact (PropsN1.N1_DTAU_DF__ABAQUS c c3 fn hc h2 (hJ := hJ) ..).symm\n\n/-- conversions compose: `DTAU_DF ← SPATIAL_MODULI ← C_TAU_JAUMANN` acts as the direct `DTAU_DF ← C_TAU_JAUMANN`, for every variation. -/\ntheorem N1_compose_DTAU_DF__SPATIAL_MODULI__C_TAU_JAUMANN (hc : c * c = 2) (h2 : (2:K) ≠ 0)\n    (D : Nat → Nat → K) (F0 : M3 K) (f0 f1 f2 : K) (l0 l1 l2 : K) (s : Nat → K) (hJ : (dg f0 f1 f2).det ≠ 0) :\n    upper (lamTau (dg f0 f1 f2) (M3.ofMandel c [s 0, s 1, s 2]) (dg l0 l1 l2) (M3.ofMandel c (act (Gen.N1_DTAU_DF__SPATIAL_MODULI_r c c3 fn (matOf (Gen.N1_SPATIAL_MODULI__C_TAU_JAUMANN_r c c3 fn D (tensv F0) (tensv (dg f0 f1 f2)) s)) (tensv F0) (tensv (dg f0 f1 f2)) s) (M3.tens1 ((dg l0 l1 l2) * (dg f0 f1 f2))))))\n      = upper (lamTau (dg f0 f1 f2) (M3.ofMandel c [s 0, s 1, s 2]) (dg l0 l1 l2) (M3.ofMandel c (act (Gen.N1_DTAU_DF__C_TAU_JAUMANN_r c c3 fn D (tensv F0) (tensv (dg f0 f1 f2)) s) (M3.tens1 ((dg l0 l1 l2) * (dg f0 f1 f2)))))) := by\n  refine (PropsN1Chains.N1_DTAU_DF__SPATIAL_MODULI c c3 fn hc h2 (hJ := hJ) ..).trans ?_\n  refine (PropsN1.N1_SPATIAL_MODULI__C_TAU_JAUMANN c c3 fn hc h2 ..).trans ?_\n  exact (PropsN1.N1_DTAU_DF__C_TAU_JAUMANN c c3 fn hc h2 (hJ := hJ) ..).symm\n\n/-- conversions compose: `DSIG_DF ← ABAQUS ← DS_DEGL` acts as the direct `DSIG_DF ← DS_DEGL`, for every variation. -/\ntheorem N1_compose_DSIG_DF__ABAQUS__DS_DEGL (hc : c * c = 2) (h2 : (2:K) ≠ 0)\n    (D : Nat → Nat → K) (F0 : M3 K) (f0 f1 f2 : K) (l0 l1 l2 : K) (s : Nat → K) (hJ : (dg f0 f1 f2).det ≠ 0) :\n    upper (lamSig (dg f0 f1 f2) (M3.ofMandel c [s 0, s 1, s 2]) (dg l0 l1 l2) (M3.ofMandel c (act (Gen.N1_DSIG_DF__ABAQUS_r c c3 fn (matOf (Gen.N1_ABAQUS__DS_DEGL_r c c3 fn D (tensv F0) (tensv (dg f0 f1 f2)) s)) (tensv F0) (tensv (dg f0 f1 f2)) s) (M3.tens1 ((dg l0 l1 l2) * (dg f0 f1 f2))))))\n      = upper (lamSig (dg f0 f1 f2) (M3.ofMandel c [s 0, s 1, s 2]) (dg l0 l1 l2) (M3.ofMandel c (act (Gen.N1_DSIG_DF__DS_DEGL_r c c3 fn D (tensv F0) (tensv (dg f0 f1 f2)) s) (M3.tens1 ((dg l0 l1 l2) * (dg f0 f1 f2)))))) := by\n  refine (PropsN1Chains.N1_DSIG_DF__ABAQUS c c3 fn hc h2 (hJ := hJ) ..).trans ?_\n  refine (PropsN1Chains.N1_ABAQUS__DS_DEGL c c3 fn hc h2 (hJ := hJ) ..).trans ?_\n  exact (PropsN1Chains.N1_DSIG_DF__DS_DEGL c c3 fn hc h2 (hJ := hJ) ..).symm\n\n/-- conversions compose: `DSIG_DF ← ABAQUS ← DTAU_DF` acts as the direct `DSIG_DF ← DTAU_DF`, for every variation. -/\ntheorem N1_compose_DSIG_DF__ABAQUS__DTAU_DF (hc : c * c = 2) (h2 : (2:K) ≠ 0)\n    (D : Nat → Nat → K) (F0 : M3 K) (f0 f1 f2 : K) (l0 l1 l2 : K) (s : Nat → K) (hJ : (dg f0 f1 f2).det ≠ 0) :\n    upper (lamSig (dg f0 f1 f2) (M3.ofMandel c [s 0, s 1, s 2]) (dg l0 l1 l2) (M3.ofMandel c (act (Gen.N1_DSIG_DF__ABAQUS_r c c3 fn (matOf (Gen.N1_ABAQUS__DTAU_DF_r c c3 fn D (tensv F0) (tensv (dg f0 f1 f2)) s)) (tensv F0) (tensv (dg f0 f1 f2)) s) (M3.tens1 ((dg l0 l1 l2) * (dg f0 f1 f2))))))\n      = upper (lamSig (dg f0 f1 f2) (M3.ofMandel c [s 0, s 1, s 2]) (dg l0 l1 l2) (M3.ofMandel c (act (Gen.N1_DSIG_DF__DTAU_DF_r c c3 fn D (tensv F0) (tensv (dg f0 f1 f2)) s) (M3.tens1 ((dg l0 l1 l2) * (dg f0 f1 f2)))))) := by\n  refine (PropsN1Chains.N1_DSIG_DF__ABAQUS c c3 fn hc h2 (hJ := hJ) ..).trans ?_\n  refine (PropsN1.N1_ABAQUS__DTAU_DF c c3 fn hc h2 (hJ := hJ) ..).trans ?_\n  exact (PropsN1.N1_DSIG_DF__DTAU_DF c c3 fn hc h2 (hJ := hJ) ..).symm\n\nend TfelVerif.C23.PropsCompose1\n
+/-- round trip `DS_DC → DS_DEGL → DS_DC`: converting back gives an operator with the same action (hence the same
+meaning) as the one started from, for every variation. -/
+theorem N1_roundtrip_DS_DC__DS_DEGL (hc : c * c = 2) (h2 : (2:K) ≠ 0)
+    (D : Nat → Nat → K) (F0 : M3 K) (f0 f1 f2 : K) (l0 l1 l2 : K) (s : Nat → K)  :
+    upper (lamS (dg f0 f1 f2) (M3.ofMandel c [s 0, s 1, s 2]) (dg l0 l1 l2) (M3.ofMandel c (act (Gen.N1_DS_DC__DS_DEGL_r c c3 fn (matOf (Gen.N1_DS_DEGL__DS_DC_r c c3 fn D (tensv F0) (tensv (dg f0 f1 f2)) s)) (tensv F0) (tensv (dg f0 f1 f2)) s) (M3.mandel1 (dC (dg f0 f1 f2) (dg l0 l1 l2))))))
+      = upper (lamS (dg f0 f1 f2) (M3.ofMandel c [s 0, s 1, s 2]) (dg l0 l1 l2) (M3.ofMandel c (act (rowsOf D i3 i3) (M3.mandel1 (dC (dg f0 f1 f2) (dg l0 l1 l2)))))) := by
+  refine (PropsN1.N1_DS_DC__DS_DEGL c c3 fn hc h2 ..).trans ?_
+  exact PropsN1.N1_DS_DEGL__DS_DC c c3 fn hc h2 ..
+
+/-- round trip `DS_DEGL → DS_DC → DS_DEGL`: converting back gives an operator with the same action (hence the same
+meaning) as the one started from, for every variation. -/
+theorem N1_roundtrip_DS_DEGL__DS_DC (hc : c * c = 2) (h2 : (2:K) ≠ 0)
+    (D : Nat → Nat → K) (F0 : M3 K) (f0 f1 f2 : K) (l0 l1 l2 : K) (s : Nat → K)  :
+    upper (lamS (dg f0 f1 f2) (M3.ofMandel c [s 0, s 1, s 2]) (dg l0 l1 l2) (M3.ofMandel c (act (Gen.N1_DS_DEGL__DS_DC_r c c3 fn (matOf (Gen.N1_DS_DC__DS_DEGL_r c c3 fn D (tensv F0) (tensv (dg f0 f1 f2)) s)) (tensv F0) (tensv (dg f0 f1 f2)) s) (M3.mandel1 (dE (dg f0 f1 f2) (dg l0 l1 l2))))))
+      = upper (lamS (dg f0 f1 f2) (M3.ofMandel c [s 0, s 1, s 2]) (dg l0 l1 l2) (M3.ofMandel c (act (rowsOf D i3 i3) (M3.mandel1 (dE (dg f0 f1 f2) (dg l0 l1 l2)))))) := by
+  refine (PropsN1.N1_DS_DEGL__DS_DC c c3 fn hc h2 ..).trans ?_
+  exact PropsN1.N1_DS_DC__DS_DEGL c c3 fn hc h2 ..
+
+/-- round trip `SPATIAL_MODULI → DS_DEGL → SPATIAL_MODULI`: converting back gives an operator with the same action (hence the same
+meaning) as the one started from, for every variation. -/
+theorem N1_roundtrip_SPATIAL_MODULI__DS_DEGL (hc : c * c = 2) (h2 : (2:K) ≠ 0)
+    (D : Nat → Nat → K) (F0 : M3 K) (f0 f1 f2 : K) (l0 l1 l2 : K) (s : Nat → K) (hJ : (dg f0 f1 f2).det ≠ 0) :
+    upper (lamSM (dg f0 f1 f2) (M3.ofMandel c [s 0, s 1, s 2]) (dg l0 l1 l2) (M3.ofMandel c (act (Gen.N1_SPATIAL_MODULI__DS_DEGL_r c c3 fn (matOf (Gen.N1_DS_DEGL__SPATIAL_MODULI_r c c3 fn D (tensv F0) (tensv (dg f0 f1 f2)) s)) (tensv F0) (tensv (dg f0 f1 f2)) s) (M3.mandel1 (symm (dg l0 l1 l2))))))
+      = upper (lamSM (dg f0 f1 f2) (M3.ofMandel c [s 0, s 1, s 2]) (dg l0 l1 l2) (M3.ofMandel c (act (rowsOf D i3 i3) (M3.mandel1 (symm (dg l0 l1 l2)))))) := by
+  refine (PropsN1.N1_SPATIAL_MODULI__DS_DEGL c c3 fn hc h2 ..).trans ?_
+  exact PropsN1Chains.N1_DS_DEGL__SPATIAL_MODULI c c3 fn hc h2 (hJ := hJ) ..
+
+/-- round trip `DS_DEGL → SPATIAL_MODULI → DS_DEGL`: converting back gives an operator with the same action (hence the same
+meaning) as the one started from, for every variation. -/
+theorem N1_roundtrip_DS_DEGL__SPATIAL_MODULI (hc : c * c = 2) (h2 : (2:K) ≠ 0)
+    (D : Nat → Nat → K) (F0 : M3 K) (f0 f1 f2 : K) (l0 l1 l2 : K) (s : Nat → K) (hJ : (dg f0 f1 f2).det ≠ 0) :
+    upper (lamS (dg f0 f1 f2) (M3.ofMandel c [s 0, s 1, s 2]) (dg l0 l1 l2) (M3.ofMandel c (act (Gen.N1_DS_DEGL__SPATIAL_MODULI_r c c3 fn (matOf (Gen.N1_SPATIAL_MODULI__DS_DEGL_r c c3 fn D (tensv F0) (tensv (dg f0 f1 f2)) s)) (tensv F0) (tensv (dg f0 f1 f2)) s) (M3.mandel1 (dE (dg f0 f1 f2) (dg l0 l1 l2))))))
+      = upper (lamS (dg f0 f1 f2) (M3.ofMandel c [s 0, s 1, s 2]) (dg l0 l1 l2) (M3.ofMandel c (act (rowsOf D i3 i3) (M3.mandel1 (dE (dg f0 f1 f2) (dg l0 l1 l2)))))) := by
+  refine (PropsN1Chains.N1_DS_DEGL__SPATIAL_MODULI c c3 fn hc h2 (hJ := hJ) ..).trans ?_
+  exact PropsN1.N1_SPATIAL_MODULI__DS_DEGL c c3 fn hc h2 ..
+
+/-- round trip `ABAQUS → SPATIAL_MODULI → ABAQUS`: converting back gives an operator with the same action (hence the same
+meaning) as the one started from, for every variation. -/
+theorem N1_roundtrip_ABAQUS__SPATIAL_MODULI (hc : c * c = 2) (h2 : (2:K) ≠ 0)
+    (D : Nat → Nat → K) (F0 : M3 K) (f0 f1 f2 : K) (l0 l1 l2 : K) (s : Nat → K) (hJ : (dg f0 f1 f2).det ≠ 0) :
+    upper (lamAb (dg f0 f1 f2) (M3.ofMandel c [s 0, s 1, s 2]) (dg l0 l1 l2) (M3.ofMandel c (act (Gen.N1_ABAQUS__SPATIAL_MODULI_r c c3 fn (matOf (Gen.N1_SPATIAL_MODULI__ABAQUS_r c c3 fn D (tensv F0) (tensv (dg f0 f1 f2)) s)) (tensv F0) (tensv (dg f0 f1 f2)) s) (M3.mandel1 (symm (dg l0 l1 l2))))))
+      = upper (lamAb (dg f0 f1 f2) (M3.ofMandel c [s 0, s 1, s 2]) (dg l0 l1 l2) (M3.ofMandel c (act (rowsOf D i3 i3) (M3.mandel1 (symm (dg l0 l1 l2)))))) := by
+  refine (PropsN1.N1_ABAQUS__SPATIAL_MODULI c c3 fn hc h2 (hJ := hJ) ..).trans ?_
+  exact PropsN1.N1_SPATIAL_MODULI__ABAQUS c c3 fn hc h2 ..
+
+/-- round trip `SPATIAL_MODULI → ABAQUS → SPATIAL_MODULI`: converting back gives an operator with the same action (hence the same
+meaning) as the one started from, for every variation. -/
+theorem N1_roundtrip_SPATIAL_MODULI__ABAQUS (hc : c * c = 2) (h2 : (2:K) ≠ 0)
+    (D : Nat → Nat → K) (F0 : M3 K) (f0 f1 f2 : K) (l0 l1 l2 : K) (s : Nat → K) (hJ : (dg f0 f1 f2).det ≠ 0) :
+    upper (lamSM (dg f0 f1 f2) (M3.ofMandel c [s 0, s 1, s 2]) (dg l0 l1 l2) (M3.ofMandel c (act (Gen.N1_SPATIAL_MODULI__ABAQUS_r c c3 fn (matOf (Gen.N1_ABAQUS__SPATIAL_MODULI_r c c3 fn D (tensv F0) (tensv (dg f0 f1 f2)) s)) (tensv F0) (tensv (dg f0 f1 f2)) s) (M3.mandel1 (symm (dg l0 l1 l2))))))
+      = upper (lamSM (dg f0 f1 f2) (M3.ofMandel c [s 0, s 1, s 2]) (dg l0 l1 l2) (M3.ofMandel c (act (rowsOf D i3 i3) (M3.mandel1 (symm (dg l0 l1 l2)))))) := by
+  refine (PropsN1.N1_SPATIAL_MODULI__ABAQUS c c3 fn hc h2 ..).trans ?_
+  exact PropsN1.N1_ABAQUS__SPATIAL_MODULI c c3 fn hc h2 (hJ := hJ) ..
+
+/-- round trip `C_TRUESDELL → SPATIAL_MODULI → C_TRUESDELL`: converting back gives an operator with the same action (hence the same
+meaning) as the one started from, for every variation. -/
+theorem N1_roundtrip_C_TRUESDELL__SPATIAL_MODULI (hc : c * c = 2) (h2 : (2:K) ≠ 0)
+    (D : Nat → Nat → K) (F0 : M3 K) (f0 f1 f2 : K) (l0 l1 l2 : K) (s : Nat → K) (hJ : (dg f0 f1 f2).det ≠ 0) :
+    upper (lamTr (dg f0 f1 f2) (M3.ofMandel c [s 0, s 1, s 2]) (dg l0 l1 l2) (M3.ofMandel c (act (Gen.N1_C_TRUESDELL__SPATIAL_MODULI_r c c3 fn (matOf (Gen.N1_SPATIAL_MODULI__C_TRUESDELL_r c c3 fn D (tensv F0) (tensv (dg f0 f1 f2)) s)) (tensv F0) (tensv (dg f0 f1 f2)) s) (M3.mandel1 (symm (dg l0 l1 l2))))))
+      = upper (lamTr (dg f0 f1 f2) (M3.ofMandel c [s 0, s 1, s 2]) (dg l0 l1 l2) (M3.ofMandel c (act (rowsOf D i3 i3) (M3.mandel1 (symm (dg l0 l1 l2)))))) := by
+  refine (PropsN1.N1_C_TRUESDELL__SPATIAL_MODULI c c3 fn hc h2 (hJ := hJ) ..).trans ?_
+  exact PropsN1.N1_SPATIAL_MODULI__C_TRUESDELL c c3 fn hc h2 ..
+
+/-- round trip `SPATIAL_MODULI → C_TRUESDELL → SPATIAL_MODULI`: converting back gives an operator with the same action (hence the same
+meaning) as the one started from, for every variation. -/
+theorem N1_roundtrip_SPATIAL_MODULI__C_TRUESDELL (hc : c * c = 2) (h2 : (2:K) ≠ 0)
+    (D : Nat → Nat → K) (F0 : M3 K) (f0 f1 f2 : K) (l0 l1 l2 : K) (s : Nat → K) (hJ : (dg f0 f1 f2).det ≠ 0) :
+    upper (lamSM (dg f0 f1 f2) (M3.ofMandel c [s 0, s 1, s 2]) (dg l0 l1 l2) (M3.ofMandel c (act (Gen.N1_SPATIAL_MODULI__C_TRUESDELL_r c c3 fn (matOf (Gen.N1_C_TRUESDELL__SPATIAL_MODULI_r c c3 fn D (tensv F0) (tensv (dg f0 f1 f2)) s)) (tensv F0) (tensv (dg f0 f1 f2)) s) (M3.mandel1 (symm (dg l0 l1 l2))))))
+      = upper (lamSM (dg f0 f1 f2) (M3.ofMandel c [s 0, s 1, s 2]) (dg l0 l1 l2) (M3.ofMandel c (act (rowsOf D i3 i3) (M3.mandel1 (symm (dg l0 l1 l2)))))) := by
+  refine (PropsN1.N1_SPATIAL_MODULI__C_TRUESDELL c c3 fn hc h2 ..).trans ?_
+  exact PropsN1.N1_C_TRUESDELL__SPATIAL_MODULI c c3 fn hc h2 (hJ := hJ) ..
+
+/-- round trip `DSIG_DDF → DSIG_DF → DSIG_DDF`: converting back gives an operator with the same action (hence the same
+meaning) as the one started from, for every variation. -/
+theorem N1_roundtrip_DSIG_DDF__DSIG_DF (hc : c * c = 2) (h2 : (2:K) ≠ 0)
+    (D : Nat → Nat → K) (g0 g1 g2 d0 d1 d2 : K) (l0 l1 l2 : K) (s : Nat → K) (hJ : (dg g0 g1 g2).det ≠ 0) :
+    upper (lamSig ((dg d0 d1 d2) * (dg g0 g1 g2)) (M3.ofMandel c [s 0, s 1, s 2]) (dg l0 l1 l2) (M3.ofMandel c (act (Gen.N1_DSIG_DDF__DSIG_DF_r c c3 fn (matOf (Gen.N1_DSIG_DF__DSIG_DDF_r c c3 fn D (tensv (dg g0 g1 g2)) (tensv ((dg d0 d1 d2) * (dg g0 g1 g2))) s)) (tensv (dg g0 g1 g2)) (tensv ((dg d0 d1 d2) * (dg g0 g1 g2))) s) (M3.tens1 ((dg l0 l1 l2) * (dg d0 d1 d2))))))
+      = upper (lamSig ((dg d0 d1 d2) * (dg g0 g1 g2)) (M3.ofMandel c [s 0, s 1, s 2]) (dg l0 l1 l2) (M3.ofMandel c (act (rowsOf D i3 i3) (M3.tens1 ((dg l0 l1 l2) * (dg d0 d1 d2)))))) := by
+  refine (PropsN1.N1_DSIG_DDF__DSIG_DF c c3 fn hc h2 ..).trans ?_
+  exact PropsN1.N1_DSIG_DF__DSIG_DDF c c3 fn hc h2 (hJ := hJ) ..
+
+/-- round trip `DSIG_DF → DSIG_DDF → DSIG_DF`: converting back gives an operator with the same action (hence the same
+meaning) as the one started from, for every variation. -/
+theorem N1_roundtrip_DSIG_DF__DSIG_DDF (hc : c * c = 2) (h2 : (2:K) ≠ 0)
+    (D : Nat → Nat → K) (g0 g1 g2 d0 d1 d2 : K) (l0 l1 l2 : K) (s : Nat → K) (hJ : (dg g0 g1 g2).det ≠ 0) :
+    upper (lamSig ((dg d0 d1 d2) * (dg g0 g1 g2)) (M3.ofMandel c [s 0, s 1, s 2]) (dg l0 l1 l2) (M3.ofMandel c (act (Gen.N1_DSIG_DF__DSIG_DDF_r c c3 fn (matOf (Gen.N1_DSIG_DDF__DSIG_DF_r c c3 fn D (tensv (dg g0 g1 g2)) (tensv ((dg d0 d1 d2) * (dg g0 g1 g2))) s)) (tensv (dg g0 g1 g2)) (tensv ((dg d0 d1 d2) * (dg g0 g1 g2))) s) (M3.tens1 ((dg l0 l1 l2) * ((dg d0 d1 d2) * (dg g0 g1 g2)))))))
+      = upper (lamSig ((dg d0 d1 d2) * (dg g0 g1 g2)) (M3.ofMandel c [s 0, s 1, s 2]) (dg l0 l1 l2) (M3.ofMandel c (act (rowsOf D i3 i3) (M3.tens1 ((dg l0 l1 l2) * ((dg d0 d1 d2) * (dg g0 g1 g2))))))) := by
+  refine (PropsN1.N1_DSIG_DF__DSIG_DDF c c3 fn hc h2 (hJ := hJ) ..).trans ?_
+  exact PropsN1.N1_DSIG_DDF__DSIG_DF c c3 fn hc h2 ..
+
+/-- round trip `DTAU_DDF → DTAU_DF → DTAU_DDF`: converting back gives an operator with the same action (hence the same
+meaning) as the one started from, for every variation. -/
+theorem N1_roundtrip_DTAU_DDF__DTAU_DF (hc : c * c = 2) (h2 : (2:K) ≠ 0)
+    (D : Nat → Nat → K) (g0 g1 g2 d0 d1 d2 : K) (l0 l1 l2 : K) (s : Nat → K) (hJ : (dg g0 g1 g2).det ≠ 0) :
+    upper (lamTau ((dg d0 d1 d2) * (dg g0 g1 g2)) (M3.ofMandel c [s 0, s 1, s 2]) (dg l0 l1 l2) (M3.ofMandel c (act (Gen.N1_DTAU_DDF__DTAU_DF_r c c3 fn (matOf (Gen.N1_DTAU_DF__DTAU_DDF_r c c3 fn D (tensv (dg g0 g1 g2)) (tensv ((dg d0 d1 d2) * (dg g0 g1 g2))) s)) (tensv (dg g0 g1 g2)) (tensv ((dg d0 d1 d2) * (dg g0 g1 g2))) s) (M3.tens1 ((dg l0 l1 l2) * (dg d0 d1 d2))))))
+      = upper (lamTau ((dg d0 d1 d2) * (dg g0 g1 g2)) (M3.ofMandel c [s 0, s 1, s 2]) (dg l0 l1 l2) (M3.ofMandel c (act (rowsOf D i3 i3) (M3.tens1 ((dg l0 l1 l2) * (dg d0 d1 d2)))))) := by
+  refine (PropsN1.N1_DTAU_DDF__DTAU_DF c c3 fn hc h2 ..).trans ?_
+  exact PropsN1.N1_DTAU_DF__DTAU_DDF c c3 fn hc h2 (hJ := hJ) ..
+
+/-- round trip `DTAU_DF → DTAU_DDF → DTAU_DF`: converting back gives an operator with the same action (hence the same
+meaning) as the one started from, for every variation. -/
+theorem N1_roundtrip_DTAU_DF__DTAU_DDF (hc : c * c = 2) (h2 : (2:K) ≠ 0)
+    (D : Nat → Nat → K) (g0 g1 g2 d0 d1 d2 : K) (l0 l1 l2 : K) (s : Nat → K) (hJ : (dg g0 g1 g2).det ≠ 0) :
+    upper (lamTau ((dg d0 d1 d2) * (dg g0 g1 g2)) (M3.ofMandel c [s 0, s 1, s 2]) (dg l0 l1 l2) (M3.ofMandel c (act (Gen.N1_DTAU_DF__DTAU_DDF_r c c3 fn (matOf (Gen.N1_DTAU_DDF__DTAU_DF_r c c3 fn D (tensv (dg g0 g1 g2)) (tensv ((dg d0 d1 d2) * (dg g0 g1 g2))) s)) (tensv (dg g0 g1 g2)) (tensv ((dg d0 d1 d2) * (dg g0 g1 g2))) s) (M3.tens1 ((dg l0 l1 l2) * ((dg d0 d1 d2) * (dg g0 g1 g2)))))))
+      = upper (lamTau ((dg d0 d1 d2) * (dg g0 g1 g2)) (M3.ofMandel c [s 0, s 1, s 2]) (dg l0 l1 l2) (M3.ofMandel c (act (rowsOf D i3 i3) (M3.tens1 ((dg l0 l1 l2) * ((dg d0 d1 d2) * (dg g0 g1 g2))))))) := by
+  refine (PropsN1.N1_DTAU_DF__DTAU_DDF c c3 fn hc h2 (hJ := hJ) ..).trans ?_
+  exact PropsN1.N1_DTAU_DDF__DTAU_DF c c3 fn hc h2 ..
+
+/-- round trip `SPATIAL_MODULI → DTAU_DF → SPATIAL_MODULI`: converting back gives an operator with the same action (hence the same
+meaning) as the one started from, for every variation. -/
+theorem N1_roundtrip_SPATIAL_MODULI__DTAU_DF (hc : c * c = 2) (h2 : (2:K) ≠ 0)
+    (D : Nat → Nat → K) (F0 : M3 K) (f0 f1 f2 : K) (l0 l1 l2 : K) (s : Nat → K) (hJ : (dg f0 f1 f2).det ≠ 0) :
+    upper (lamSM (dg f0 f1 f2) (M3.ofMandel c [s 0, s 1, s 2]) (dg l0 l1 l2) (M3.ofMandel c (act (Gen.N1_SPATIAL_MODULI__DTAU_DF_r c c3 fn (matOf (Gen.N1_DTAU_DF__SPATIAL_MODULI_r c c3 fn D (tensv F0) (tensv (dg f0 f1 f2)) s)) (tensv F0) (tensv (dg f0 f1 f2)) s) (M3.mandel1 (symm (dg l0 l1 l2))))))
+      = upper (lamSM (dg f0 f1 f2) (M3.ofMandel c [s 0, s 1, s 2]) (dg l0 l1 l2) (M3.ofMandel c (act (rowsOf D i3 i3) (M3.mandel1 (symm (dg l0 l1 l2)))))) := by
+  refine (PropsN1Chains.N1_SPATIAL_MODULI__DTAU_DF c c3 fn hc h2 ..).trans ?_
+  exact PropsN1Chains.N1_DTAU_DF__SPATIAL_MODULI c c3 fn hc h2 (hJ := hJ) ..
+
+/-- round trip `C_TAU_JAUMANN → DTAU_DF → C_TAU_JAUMANN`: converting back gives an operator with the same action (hence the same
+meaning) as the one started from, for every variation. -/
+theorem N1_roundtrip_C_TAU_JAUMANN__DTAU_DF (hc : c * c = 2) (h2 : (2:K) ≠ 0)
+    (D : Nat → Nat → K) (F0 : M3 K) (f0 f1 f2 : K) (l0 l1 l2 : K) (s : Nat → K) (hJ : (dg f0 f1 f2).det ≠ 0) :
+    upper (lamJ (dg f0 f1 f2) (M3.ofMandel c [s 0, s 1, s 2]) (dg l0 l1 l2) (M3.ofMandel c (act (Gen.N1_C_TAU_JAUMANN__DTAU_DF_r c c3 fn (matOf (Gen.N1_DTAU_DF__C_TAU_JAUMANN_r c c3 fn D (tensv F0) (tensv (dg f0 f1 f2)) s)) (tensv F0) (tensv (dg f0 f1 f2)) s) (M3.mandel1 (symm (dg l0 l1 l2))))))
+      = upper (lamJ (dg f0 f1 f2) (M3.ofMandel c [s 0, s 1, s 2]) (dg l0 l1 l2) (M3.ofMandel c (act (rowsOf D i3 i3) (M3.mandel1 (symm (dg l0 l1 l2)))))) := by
+  refine (PropsN1.N1_C_TAU_JAUMANN__DTAU_DF c c3 fn hc h2 ..).trans ?_
+  exact PropsN1.N1_DTAU_DF__C_TAU_JAUMANN c c3 fn hc h2 (hJ := hJ) ..
+
+/-- round trip `ABAQUS → C_TAU_JAUMANN → ABAQUS`: converting back gives an operator with the same action (hence the same
+meaning) as the one started from, for every variation. -/
+theorem N1_roundtrip_ABAQUS__C_TAU_JAUMANN (hc : c * c = 2) (h2 : (2:K) ≠ 0)
+    (D : Nat → Nat → K) (F0 : M3 K) (f0 f1 f2 : K) (l0 l1 l2 : K) (s : Nat → K) (hJ : (dg f0 f1 f2).det ≠ 0) :
+    upper (lamAb (dg f0 f1 f2) (M3.ofMandel c [s 0, s 1, s 2]) (dg l0 l1 l2) (M3.ofMandel c (act (Gen.N1_ABAQUS__C_TAU_JAUMANN_r c c3 fn (matOf (Gen.N1_C_TAU_JAUMANN__ABAQUS_r c c3 fn D (tensv F0) (tensv (dg f0 f1 f2)) s)) (tensv F0) (tensv (dg f0 f1 f2)) s) (M3.mandel1 (symm (dg l0 l1 l2))))))
+      = upper (lamAb (dg f0 f1 f2) (M3.ofMandel c [s 0, s 1, s 2]) (dg l0 l1 l2) (M3.ofMandel c (act (rowsOf D i3 i3) (M3.mandel1 (symm (dg l0 l1 l2)))))) := by
+  refine (PropsN1.N1_ABAQUS__C_TAU_JAUMANN c c3 fn hc h2 (hJ := hJ) ..).trans ?_
+  exact PropsN1.N1_C_TAU_JAUMANN__ABAQUS c c3 fn hc h2 ..
+
+/-- round trip `C_TAU_JAUMANN → ABAQUS → C_TAU_JAUMANN`: converting back gives an operator with the same action (hence the same
+meaning) as the one started from, for every variation. -/
+theorem N1_roundtrip_C_TAU_JAUMANN__ABAQUS (hc : c * c = 2) (h2 : (2:K) ≠ 0)
+    (D : Nat → Nat → K) (F0 : M3 K) (f0 f1 f2 : K) (l0 l1 l2 : K) (s : Nat → K) (hJ : (dg f0 f1 f2).det ≠ 0) :
+    upper (lamJ (dg f0 f1 f2) (M3.ofMandel c [s 0, s 1, s 2]) (dg l0 l1 l2) (M3.ofMandel c (act (Gen.N1_C_TAU_JAUMANN__ABAQUS_r c c3 fn (matOf (Gen.N1_ABAQUS__C_TAU_JAUMANN_r c c3 fn D (tensv F0) (tensv (dg f0 f1 f2)) s)) (tensv F0) (tensv (dg f0 f1 f2)) s) (M3.mandel1 (symm (dg l0 l1 l2))))))
+      = upper (lamJ (dg f0 f1 f2) (M3.ofMandel c [s 0, s 1, s 2]) (dg l0 l1 l2) (M3.ofMandel c (act (rowsOf D i3 i3) (M3.mandel1 (symm (dg l0 l1 l2)))))) := by
+  refine (PropsN1.N1_C_TAU_JAUMANN__ABAQUS c c3 fn hc h2 ..).trans ?_
+  exact PropsN1.N1_ABAQUS__C_TAU_JAUMANN c c3 fn hc h2 (hJ := hJ) ..
+
+/-- round trip `C_TAU_JAUMANN → SPATIAL_MODULI → C_TAU_JAUMANN`: converting back gives an operator with the same action (hence the same
+meaning) as the one started from, for every variation. -/
+theorem N1_roundtrip_C_TAU_JAUMANN__SPATIAL_MODULI (hc : c * c = 2) (h2 : (2:K) ≠ 0)
+    (D : Nat → Nat → K) (F0 : M3 K) (f0 f1 f2 : K) (l0 l1 l2 : K) (s : Nat → K)  :
+    upper (lamJ (dg f0 f1 f2) (M3.ofMandel c [s 0, s 1, s 2]) (dg l0 l1 l2) (M3.ofMandel c (act (Gen.N1_C_TAU_JAUMANN__SPATIAL_MODULI_r c c3 fn (matOf (Gen.N1_SPATIAL_MODULI__C_TAU_JAUMANN_r c c3 fn D (tensv F0) (tensv (dg f0 f1 f2)) s)) (tensv F0) (tensv (dg f0 f1 f2)) s) (M3.mandel1 (symm (dg l0 l1 l2))))))
+      = upper (lamJ (dg f0 f1 f2) (M3.ofMandel c [s 0, s 1, s 2]) (dg l0 l1 l2) (M3.ofMandel c (act (rowsOf D i3 i3) (M3.mandel1 (symm (dg l0 l1 l2)))))) := by
+  refine (PropsN1.N1_C_TAU_JAUMANN__SPATIAL_MODULI c c3 fn hc h2 ..).trans ?_
+  exact PropsN1.N1_SPATIAL_MODULI__C_TAU_JAUMANN c c3 fn hc h2 ..
+
+/-- round trip `SPATIAL_MODULI → C_TAU_JAUMANN → SPATIAL_MODULI`: converting back gives an operator with the same action (hence the same
+meaning) as the one started from, for every variation. -/
+theorem N1_roundtrip_SPATIAL_MODULI__C_TAU_JAUMANN (hc : c * c = 2) (h2 : (2:K) ≠ 0)
+    (D : Nat → Nat → K) (F0 : M3 K) (f0 f1 f2 : K) (l0 l1 l2 : K) (s : Nat → K)  :
+    upper (lamSM (dg f0 f1 f2) (M3.ofMandel c [s 0, s 1, s 2]) (dg l0 l1 l2) (M3.ofMandel c (act (Gen.N1_SPATIAL_MODULI__C_TAU_JAUMANN_r c c3 fn (matOf (Gen.N1_C_TAU_JAUMANN__SPATIAL_MODULI_r c c3 fn D (tensv F0) (tensv (dg f0 f1 f2)) s)) (tensv F0) (tensv (dg f0 f1 f2)) s) (M3.mandel1 (symm (dg l0 l1 l2))))))
+      = upper (lamSM (dg f0 f1 f2) (M3.ofMandel c [s 0, s 1, s 2]) (dg l0 l1 l2) (M3.ofMandel c (act (rowsOf D i3 i3) (M3.mandel1 (symm (dg l0 l1 l2)))))) := by
+  refine (PropsN1.N1_SPATIAL_MODULI__C_TAU_JAUMANN c c3 fn hc h2 ..).trans ?_
+  exact PropsN1.N1_C_TAU_JAUMANN__SPATIAL_MODULI c c3 fn hc h2 ..
+
+/-- round trip `ABAQUS → DTAU_DF → ABAQUS`: converting back gives an operator with the same action (hence the same
+meaning) as the one started from, for every variation. -/
+theorem N1_roundtrip_ABAQUS__DTAU_DF (hc : c * c = 2) (h2 : (2:K) ≠ 0)
+    (D : Nat → Nat → K) (F0 : M3 K) (f0 f1 f2 : K) (l0 l1 l2 : K) (s : Nat → K) (hJ : (dg f0 f1 f2).det ≠ 0) :
+    upper (lamAb (dg f0 f1 f2) (M3.ofMandel c [s 0, s 1, s 2]) (dg l0 l1 l2) (M3.ofMandel c (act (Gen.N1_ABAQUS__DTAU_DF_r c c3 fn (matOf (Gen.N1_DTAU_DF__ABAQUS_r c c3 fn D (tensv F0) (tensv (dg f0 f1 f2)) s)) (tensv F0) (tensv (dg f0 f1 f2)) s) (M3.mandel1 (symm (dg l0 l1 l2))))))
+      = upper (lamAb (dg f0 f1 f2) (M3.ofMandel c [s 0, s 1, s 2]) (dg l0 l1 l2) (M3.ofMandel c (act (rowsOf D i3 i3) (M3.mandel1 (symm (dg l0 l1 l2)))))) := by
+  refine (PropsN1.N1_ABAQUS__DTAU_DF c c3 fn hc h2 (hJ := hJ) ..).trans ?_
+  exact PropsN1.N1_DTAU_DF__ABAQUS c c3 fn hc h2 (hJ := hJ) ..
+
+/-- round trip `DTAU_DF → C_TAU_JAUMANN → DTAU_DF`: converting back gives an operator with the same action (hence the same
+meaning) as the one started from, for every variation. -/
+theorem N1_roundtrip_DTAU_DF__C_TAU_JAUMANN (hc : c * c = 2) (h2 : (2:K) ≠ 0)
+    (D : Nat → Nat → K) (F0 : M3 K) (f0 f1 f2 : K) (l0 l1 l2 : K) (s : Nat → K) (hJ : (dg f0 f1 f2).det ≠ 0) :
+    upper (lamTau (dg f0 f1 f2) (M3.ofMandel c [s 0, s 1, s 2]) (dg l0 l1 l2) (M3.ofMandel c (act (Gen.N1_DTAU_DF__C_TAU_JAUMANN_r c c3 fn (matOf (Gen.N1_C_TAU_JAUMANN__DTAU_DF_r c c3 fn D (tensv F0) (tensv (dg f0 f1 f2)) s)) (tensv F0) (tensv (dg f0 f1 f2)) s) (M3.tens1 ((dg l0 l1 l2) * (dg f0 f1 f2))))))
+      = upper (lamTau (dg f0 f1 f2) (M3.ofMandel c [s 0, s 1, s 2]) (dg l0 l1 l2) (M3.ofMandel c (act (rowsOf D i3 i3) (M3.tens1 ((dg l0 l1 l2) * (dg f0 f1 f2)))))) := by
+  refine (PropsN1.N1_DTAU_DF__C_TAU_JAUMANN c c3 fn hc h2 (hJ := hJ) ..).trans ?_
+  exact PropsN1.N1_C_TAU_JAUMANN__DTAU_DF c c3 fn hc h2 ..
+
+/-- round trip `DTAU_DF → ABAQUS → DTAU_DF`: converting back gives an operator with the same action (hence the same
+meaning) as the one started from, for every variation. -/
+theorem N1_roundtrip_DTAU_DF__ABAQUS (hc : c * c = 2) (h2 : (2:K) ≠ 0)
+    (D : Nat → Nat → K) (F0 : M3 K) (f0 f1 f2 : K) (l0 l1 l2 : K) (s : Nat → K) (hJ : (dg f0 f1 f2).det ≠ 0) :
+    upper (lamTau (dg f0 f1 f2) (M3.ofMandel c [s 0, s 1, s 2]) (dg l0 l1 l2) (M3.ofMandel c (act (Gen.N1_DTAU_DF__ABAQUS_r c c3 fn (matOf (Gen.N1_ABAQUS__DTAU_DF_r c c3 fn D (tensv F0) (tensv (dg f0 f1 f2)) s)) (tensv F0) (tensv (dg f0 f1 f2)) s) (M3.tens1 ((dg l0 l1 l2) * (dg f0 f1 f2))))))
+      = upper (lamTau (dg f0 f1 f2) (M3.ofMandel c [s 0, s 1, s 2]) (dg l0 l1 l2) (M3.ofMandel c (act (rowsOf D i3 i3) (M3.tens1 ((dg l0 l1 l2) * (dg f0 f1 f2)))))) := by
+  refine (PropsN1.N1_DTAU_DF__ABAQUS c c3 fn hc h2 (hJ := hJ) ..).trans ?_
+  exact PropsN1.N1_ABAQUS__DTAU_DF c c3 fn hc h2 (hJ := hJ) ..
+
+/-- round trip `DTAU_DF → SPATIAL_MODULI → DTAU_DF`: converting back gives an operator with the same action (hence the same
+meaning) as the one started from, for every variation. -/
+theorem N1_roundtrip_DTAU_DF__SPATIAL_MODULI (hc : c * c = 2) (h2 : (2:K) ≠ 0)
+    (D : Nat → Nat → K) (F0 : M3 K) (f0 f1 f2 : K) (l0 l1 l2 : K) (s : Nat → K) (hJ : (dg f0 f1 f2).det ≠ 0) :
+    upper (lamTau (dg f0 f1 f2) (M3.ofMandel c [s 0, s 1, s 2]) (dg l0 l1 l2) (M3.ofMandel c (act (Gen.N1_DTAU_DF__SPATIAL_MODULI_r c c3 fn (matOf (Gen.N1_SPATIAL_MODULI__DTAU_DF_r c c3 fn D (tensv F0) (tensv (dg f0 f1 f2)) s)) (tensv F0) (tensv (dg f0 f1 f2)) s) (M3.tens1 ((dg l0 l1 l2) * (dg f0 f1 f2))))))
+      = upper (lamTau (dg f0 f1 f2) (M3.ofMandel c [s 0, s 1, s 2]) (dg l0 l1 l2) (M3.ofMandel c (act (rowsOf D i3 i3) (M3.tens1 ((dg l0 l1 l2) * (dg f0 f1 f2)))))) := by
+  refine (PropsN1Chains.N1_DTAU_DF__SPATIAL_MODULI c c3 fn hc h2 (hJ := hJ) ..).trans ?_
+  exact PropsN1Chains.N1_SPATIAL_MODULI__DTAU_DF c c3 fn hc h2 ..
+
+/-- conversions compose: `DS_DF ← DS_DC ← DS_DEGL` acts as the direct `DS_DF ← DS_DEGL`, for every variation. -/
+theorem N1_compose_DS_DF__DS_DC__DS_DEGL (hc : c * c = 2) (h2 : (2:K) ≠ 0)
+    (D : Nat → Nat → K) (F0 : M3 K) (f0 f1 f2 : K) (l0 l1 l2 : K) (s : Nat → K)  :
+    upper (lamS (dg f0 f1 f2) (M3.ofMandel c [s 0, s 1, s 2]) (dg l0 l1 l2) (M3.ofMandel c (act (Gen.N1_DS_DF__DS_DC_r c c3 fn (matOf (Gen.N1_DS_DC__DS_DEGL_r c c3 fn D (tensv F0) (tensv (dg f0 f1 f2)) s)) (tensv F0) (tensv (dg f0 f1 f2)) s) (M3.tens1 ((dg l0 l1 l2) * (dg f0 f1 f2))))))
+      = upper (lamS (dg f0 f1 f2) (M3.ofMandel c [s 0, s 1, s 2]) (dg l0 l1 l2) (M3.ofMandel c (act (Gen.N1_DS_DF__DS_DEGL_r c c3 fn D (tensv F0) (tensv (dg f0 f1 f2)) s) (M3.tens1 ((dg l0 l1 l2) * (dg f0 f1 f2)))))) := by
+  refine (PropsN1.N1_DS_DF__DS_DC c c3 fn hc h2 ..).trans ?_
+  refine (PropsN1.N1_DS_DC__DS_DEGL c c3 fn hc h2 ..).trans ?_
+  exact (PropsN1.N1_DS_DF__DS_DEGL c c3 fn hc h2 ..).symm
+
+/-- conversions compose: `DS_DF ← DS_DEGL ← DS_DC` acts as the direct `DS_DF ← DS_DC`, for every variation. -/
+theorem N1_compose_DS_DF__DS_DEGL__DS_DC (hc : c * c = 2) (h2 : (2:K) ≠ 0)
+    (D : Nat → Nat → K) (F0 : M3 K) (f0 f1 f2 : K) (l0 l1 l2 : K) (s : Nat → K)  :
+    upper (lamS (dg f0 f1 f2) (M3.ofMandel c [s 0, s 1, s 2]) (dg l0 l1 l2) (M3.ofMandel c (act (Gen.N1_DS_DF__DS_DEGL_r c c3 fn (matOf (Gen.N1_DS_DEGL__DS_DC_r c c3 fn D (tensv F0) (tensv (dg f0 f1 f2)) s)) (tensv F0) (tensv (dg f0 f1 f2)) s) (M3.tens1 ((dg l0 l1 l2) * (dg f0 f1 f2))))))
+      = upper (lamS (dg f0 f1 f2) (M3.ofMandel c [s 0, s 1, s 2]) (dg l0 l1 l2) (M3.ofMandel c (act (Gen.N1_DS_DF__DS_DC_r c c3 fn D (tensv F0) (tensv (dg f0 f1 f2)) s) (M3.tens1 ((dg l0 l1 l2) * (dg f0 f1 f2)))))) := by
+  refine (PropsN1.N1_DS_DF__DS_DEGL c c3 fn hc h2 ..).trans ?_
+  refine (PropsN1.N1_DS_DEGL__DS_DC c c3 fn hc h2 ..).trans ?_
+  exact (PropsN1.N1_DS_DF__DS_DC c c3 fn hc h2 ..).symm
+
+/-- conversions compose: `ABAQUS ← SPATIAL_MODULI ← DS_DEGL` acts as the direct `ABAQUS ← DS_DEGL`, for every variation. -/
+theorem N1_compose_ABAQUS__SPATIAL_MODULI__DS_DEGL (hc : c * c = 2) (h2 : (2:K) ≠ 0)
+    (D : Nat → Nat → K) (F0 : M3 K) (f0 f1 f2 : K) (l0 l1 l2 : K) (s : Nat → K) (hJ : (dg f0 f1 f2).det ≠ 0) :
+    upper (lamAb (dg f0 f1 f2) (M3.ofMandel c [s 0, s 1, s 2]) (dg l0 l1 l2) (M3.ofMandel c (act (Gen.N1_ABAQUS__SPATIAL_MODULI_r c c3 fn (matOf (Gen.N1_SPATIAL_MODULI__DS_DEGL_r c c3 fn D (tensv F0) (tensv (dg f0 f1 f2)) s)) (tensv F0) (tensv (dg f0 f1 f2)) s) (M3.mandel1 (symm (dg l0 l1 l2))))))
+      = upper (lamAb (dg f0 f1 f2) (M3.ofMandel c [s 0, s 1, s 2]) (dg l0 l1 l2) (M3.ofMandel c (act (Gen.N1_ABAQUS__DS_DEGL_r c c3 fn D (tensv F0) (tensv (dg f0 f1 f2)) s) (M3.mandel1 (symm (dg l0 l1 l2)))))) := by
+  refine (PropsN1.N1_ABAQUS__SPATIAL_MODULI c c3 fn hc h2 (hJ := hJ) ..).trans ?_
+  refine (PropsN1.N1_SPATIAL_MODULI__DS_DEGL c c3 fn hc h2 ..).trans ?_
+  exact (PropsN1Chains.N1_ABAQUS__DS_DEGL c c3 fn hc h2 (hJ := hJ) ..).symm
+
+/-- conversions compose: `ABAQUS ← SPATIAL_MODULI ← DTAU_DF` acts as the direct `ABAQUS ← DTAU_DF`, for every variation. -/
+theorem N1_compose_ABAQUS__SPATIAL_MODULI__DTAU_DF (hc : c * c = 2) (h2 : (2:K) ≠ 0)
+    (D : Nat → Nat → K) (F0 : M3 K) (f0 f1 f2 : K) (l0 l1 l2 : K) (s : Nat → K) (hJ : (dg f0 f1 f2).det ≠ 0) :
+    upper (lamAb (dg f0 f1 f2) (M3.ofMandel c [s 0, s 1, s 2]) (dg l0 l1 l2) (M3.ofMandel c (act (Gen.N1_ABAQUS__SPATIAL_MODULI_r c c3 fn (matOf (Gen.N1_SPATIAL_MODULI__DTAU_DF_r c c3 fn D (tensv F0) (tensv (dg f0 f1 f2)) s)) (tensv F0) (tensv (dg f0 f1 f2)) s) (M3.mandel1 (symm (dg l0 l1 l2))))))
+      = upper (lamAb (dg f0 f1 f2) (M3.ofMandel c [s 0, s 1, s 2]) (dg l0 l1 l2) (M3.ofMandel c (act (Gen.N1_ABAQUS__DTAU_DF_r c c3 fn D (tensv F0) (tensv (dg f0 f1 f2)) s) (M3.mandel1 (symm (dg l0 l1 l2)))))) := by
+  refine (PropsN1.N1_ABAQUS__SPATIAL_MODULI c c3 fn hc h2 (hJ := hJ) ..).trans ?_
+  refine (PropsN1Chains.N1_SPATIAL_MODULI__DTAU_DF c c3 fn hc h2 ..).trans ?_
+  exact (PropsN1.N1_ABAQUS__DTAU_DF c c3 fn hc h2 (hJ := hJ) ..).symm
+
+/-- conversions compose: `ABAQUS ← SPATIAL_MODULI ← C_TAU_JAUMANN` acts as the direct `ABAQUS ← C_TAU_JAUMANN`, for every variation. -/
+theorem N1_compose_ABAQUS__SPATIAL_MODULI__C_TAU_JAUMANN (hc : c * c = 2) (h2 : (2:K) ≠ 0)
+    (D : Nat → Nat → K) (F0 : M3 K) (f0 f1 f2 : K) (l0 l1 l2 : K) (s : Nat → K) (hJ : (dg f0 f1 f2).det ≠ 0) :
+    upper (lamAb (dg f0 f1 f2) (M3.ofMandel c [s 0, s 1, s 2]) (dg l0 l1 l2) (M3.ofMandel c (act (Gen.N1_ABAQUS__SPATIAL_MODULI_r c c3 fn (matOf (Gen.N1_SPATIAL_MODULI__C_TAU_JAUMANN_r c c3 fn D (tensv F0) (tensv (dg f0 f1 f2)) s)) (tensv F0) (tensv (dg f0 f1 f2)) s) (M3.mandel1 (symm (dg l0 l1 l2))))))
+      = upper (lamAb (dg f0 f1 f2) (M3.ofMandel c [s 0, s 1, s 2]) (dg l0 l1 l2) (M3.ofMandel c (act (Gen.N1_ABAQUS__C_TAU_JAUMANN_r c c3 fn D (tensv F0) (tensv (dg f0 f1 f2)) s) (M3.mandel1 (symm (dg l0 l1 l2)))))) := by
+  refine (PropsN1.N1_ABAQUS__SPATIAL_MODULI c c3 fn hc h2 (hJ := hJ) ..).trans ?_
+  refine (PropsN1.N1_SPATIAL_MODULI__C_TAU_JAUMANN c c3 fn hc h2 ..).trans ?_
+  exact (PropsN1.N1_ABAQUS__C_TAU_JAUMANN c c3 fn hc h2 (hJ := hJ) ..).symm
+
+/-- conversions compose: `ABAQUS ← DS_DEGL ← SPATIAL_MODULI` acts as the direct `ABAQUS ← SPATIAL_MODULI`, for every variation. -/
+theorem N1_compose_ABAQUS__DS_DEGL__SPATIAL_MODULI (hc : c * c = 2) (h2 : (2:K) ≠ 0)
+    (D : Nat → Nat → K) (F0 : M3 K) (f0 f1 f2 : K) (l0 l1 l2 : K) (s : Nat → K) (hJ : (dg f0 f1 f2).det ≠ 0) :
+    upper (lamAb (dg f0 f1 f2) (M3.ofMandel c [s 0, s 1, s 2]) (dg l0 l1 l2) (M3.ofMandel c (act (Gen.N1_ABAQUS__DS_DEGL_r c c3 fn (matOf (Gen.N1_DS_DEGL__SPATIAL_MODULI_r c c3 fn D (tensv F0) (tensv (dg f0 f1 f2)) s)) (tensv F0) (tensv (dg f0 f1 f2)) s) (M3.mandel1 (symm (dg l0 l1 l2))))))
+      = upper (lamAb (dg f0 f1 f2) (M3.ofMandel c [s 0, s 1, s 2]) (dg l0 l1 l2) (M3.ofMandel c (act (Gen.N1_ABAQUS__SPATIAL_MODULI_r c c3 fn D (tensv F0) (tensv (dg f0 f1 f2)) s) (M3.mandel1 (symm (dg l0 l1 l2)))))) := by
+  refine (PropsN1Chains.N1_ABAQUS__DS_DEGL c c3 fn hc h2 (hJ := hJ) ..).trans ?_
+  refine (PropsN1Chains.N1_DS_DEGL__SPATIAL_MODULI c c3 fn hc h2 (hJ := hJ) ..).trans ?_
+  exact (PropsN1.N1_ABAQUS__SPATIAL_MODULI c c3 fn hc h2 (hJ := hJ) ..).symm
+
+/-- conversions compose: `DSIG_DF ← C_TRUESDELL ← DS_DEGL` acts as the direct `DSIG_DF ← DS_DEGL`, for every variation. -/
+theorem N1_compose_DSIG_DF__C_TRUESDELL__DS_DEGL (hc : c * c = 2) (h2 : (2:K) ≠ 0)
+    (D : Nat → Nat → K) (F0 : M3 K) (f0 f1 f2 : K) (l0 l1 l2 : K) (s : Nat → K) (hJ : (dg f0 f1 f2).det ≠ 0) :
+    upper (lamSig (dg f0 f1 f2) (M3.ofMandel c [s 0, s 1, s 2]) (dg l0 l1 l2) (M3.ofMandel c (act (Gen.N1_DSIG_DF__C_TRUESDELL_r c c3 fn (matOf (Gen.N1_C_TRUESDELL__DS_DEGL_r c c3 fn D (tensv F0) (tensv (dg f0 f1 f2)) s)) (tensv F0) (tensv (dg f0 f1 f2)) s) (M3.tens1 ((dg l0 l1 l2) * (dg f0 f1 f2))))))
+      = upper (lamSig (dg f0 f1 f2) (M3.ofMandel c [s 0, s 1, s 2]) (dg l0 l1 l2) (M3.ofMandel c (act (Gen.N1_DSIG_DF__DS_DEGL_r c c3 fn D (tensv F0) (tensv (dg f0 f1 f2)) s) (M3.tens1 ((dg l0 l1 l2) * (dg f0 f1 f2)))))) := by
+  refine (PropsN1Chains.N1_DSIG_DF__C_TRUESDELL c c3 fn hc h2 (hJ := hJ) ..).trans ?_
+  refine (PropsN1Chains.N1_C_TRUESDELL__DS_DEGL c c3 fn hc h2 (hJ := hJ) ..).trans ?_
+  exact (PropsN1Chains.N1_DSIG_DF__DS_DEGL c c3 fn hc h2 (hJ := hJ) ..).symm
+
+/-- conversions compose: `DSIG_DF ← C_TRUESDELL ← DTAU_DF` acts as the direct `DSIG_DF ← DTAU_DF`, for every variation. -/
+theorem N1_compose_DSIG_DF__C_TRUESDELL__DTAU_DF (hc : c * c = 2) (h2 : (2:K) ≠ 0)
+    (D : Nat → Nat → K) (F0 : M3 K) (f0 f1 f2 : K) (l0 l1 l2 : K) (s : Nat → K) (hJ : (dg f0 f1 f2).det ≠ 0) :
+    upper (lamSig (dg f0 f1 f2) (M3.ofMandel c [s 0, s 1, s 2]) (dg l0 l1 l2) (M3.ofMandel c (act (Gen.N1_DSIG_DF__C_TRUESDELL_r c c3 fn (matOf (Gen.N1_C_TRUESDELL__DTAU_DF_r c c3 fn D (tensv F0) (tensv (dg f0 f1 f2)) s)) (tensv F0) (tensv (dg f0 f1 f2)) s) (M3.tens1 ((dg l0 l1 l2) * (dg f0 f1 f2))))))
+      = upper (lamSig (dg f0 f1 f2) (M3.ofMandel c [s 0, s 1, s 2]) (dg l0 l1 l2) (M3.ofMandel c (act (Gen.N1_DSIG_DF__DTAU_DF_r c c3 fn D (tensv F0) (tensv (dg f0 f1 f2)) s) (M3.tens1 ((dg l0 l1 l2) * (dg f0 f1 f2)))))) := by
+  refine (PropsN1Chains.N1_DSIG_DF__C_TRUESDELL c c3 fn hc h2 (hJ := hJ) ..).trans ?_
+  refine (PropsN1Chains.N1_C_TRUESDELL__DTAU_DF c c3 fn hc h2 (hJ := hJ) ..).trans ?_
+  exact (PropsN1.N1_DSIG_DF__DTAU_DF c c3 fn hc h2 (hJ := hJ) ..).symm
+
+/-- conversions compose: `SPATIAL_MODULI ← ABAQUS ← DS_DEGL` acts as the direct `SPATIAL_MODULI ← DS_DEGL`, for every variation. -/
+theorem N1_compose_SPATIAL_MODULI__ABAQUS__DS_DEGL (hc : c * c = 2) (h2 : (2:K) ≠ 0)
+    (D : Nat → Nat → K) (F0 : M3 K) (f0 f1 f2 : K) (l0 l1 l2 : K) (s : Nat → K) (hJ : (dg f0 f1 f2).det ≠ 0) :
+    upper (lamSM (dg f0 f1 f2) (M3.ofMandel c [s 0, s 1, s 2]) (dg l0 l1 l2) (M3.ofMandel c (act (Gen.N1_SPATIAL_MODULI__ABAQUS_r c c3 fn (matOf (Gen.N1_ABAQUS__DS_DEGL_r c c3 fn D (tensv F0) (tensv (dg f0 f1 f2)) s)) (tensv F0) (tensv (dg f0 f1 f2)) s) (M3.mandel1 (symm (dg l0 l1 l2))))))
+      = upper (lamSM (dg f0 f1 f2) (M3.ofMandel c [s 0, s 1, s 2]) (dg l0 l1 l2) (M3.ofMandel c (act (Gen.N1_SPATIAL_MODULI__DS_DEGL_r c c3 fn D (tensv F0) (tensv (dg f0 f1 f2)) s) (M3.mandel1 (symm (dg l0 l1 l2)))))) := by
+  refine (PropsN1.N1_SPATIAL_MODULI__ABAQUS c c3 fn hc h2 ..).trans ?_
+  refine (PropsN1Chains.N1_ABAQUS__DS_DEGL c c3 fn hc h2 (hJ := hJ) ..).trans ?_
+  exact (PropsN1.N1_SPATIAL_MODULI__DS_DEGL c c3 fn hc h2 ..).symm
+
+/-- conversions compose: `SPATIAL_MODULI ← ABAQUS ← C_TAU_JAUMANN` acts as the direct `SPATIAL_MODULI ← C_TAU_JAUMANN`, for every variation. -/
+theorem N1_compose_SPATIAL_MODULI__ABAQUS__C_TAU_JAUMANN (hc : c * c = 2) (h2 : (2:K) ≠ 0)
+    (D : Nat → Nat → K) (F0 : M3 K) (f0 f1 f2 : K) (l0 l1 l2 : K) (s : Nat → K) (hJ : (dg f0 f1 f2).det ≠ 0) :
+    upper (lamSM (dg f0 f1 f2) (M3.ofMandel c [s 0, s 1, s 2]) (dg l0 l1 l2) (M3.ofMandel c (act (Gen.N1_SPATIAL_MODULI__ABAQUS_r c c3 fn (matOf (Gen.N1_ABAQUS__C_TAU_JAUMANN_r c c3 fn D (tensv F0) (tensv (dg f0 f1 f2)) s)) (tensv F0) (tensv (dg f0 f1 f2)) s) (M3.mandel1 (symm (dg l0 l1 l2))))))
+      = upper (lamSM (dg f0 f1 f2) (M3.ofMandel c [s 0, s 1, s 2]) (dg l0 l1 l2) (M3.ofMandel c (act (Gen.N1_SPATIAL_MODULI__C_TAU_JAUMANN_r c c3 fn D (tensv F0) (tensv (dg f0 f1 f2)) s) (M3.mandel1 (symm (dg l0 l1 l2)))))) := by
+  refine (PropsN1.N1_SPATIAL_MODULI__ABAQUS c c3 fn hc h2 ..).trans ?_
+  refine (PropsN1.N1_ABAQUS__C_TAU_JAUMANN c c3 fn hc h2 (hJ := hJ) ..).trans ?_
+  exact (PropsN1.N1_SPATIAL_MODULI__C_TAU_JAUMANN c c3 fn hc h2 ..).symm
+
+/-- conversions compose: `SPATIAL_MODULI ← ABAQUS ← DTAU_DF` acts as the direct `SPATIAL_MODULI ← DTAU_DF`, for every variation. -/
+theorem N1_compose_SPATIAL_MODULI__ABAQUS__DTAU_DF (hc : c * c = 2) (h2 : (2:K) ≠ 0)
+    (D : Nat → Nat → K) (F0 : M3 K) (f0 f1 f2 : K) (l0 l1 l2 : K) (s : Nat → K) (hJ : (dg f0 f1 f2).det ≠ 0) :
+    upper (lamSM (dg f0 f1 f2) (M3.ofMandel c [s 0, s 1, s 2]) (dg l0 l1 l2) (M3.ofMandel c (act (Gen.N1_SPATIAL_MODULI__ABAQUS_r c c3 fn (matOf (Gen.N1_ABAQUS__DTAU_DF_r c c3 fn D (tensv F0) (tensv (dg f0 f1 f2)) s)) (tensv F0) (tensv (dg f0 f1 f2)) s) (M3.mandel1 (symm (dg l0 l1 l2))))))
+      = upper (lamSM (dg f0 f1 f2) (M3.ofMandel c [s 0, s 1, s 2]) (dg l0 l1 l2) (M3.ofMandel c (act (Gen.N1_SPATIAL_MODULI__DTAU_DF_r c c3 fn D (tensv F0) (tensv (dg f0 f1 f2)) s) (M3.mandel1 (symm (dg l0 l1 l2)))))) := by
+  refine (PropsN1.N1_SPATIAL_MODULI__ABAQUS c c3 fn hc h2 ..).trans ?_
+  refine (PropsN1.N1_ABAQUS__DTAU_DF c c3 fn hc h2 (hJ := hJ) ..).trans ?_
+  exact (PropsN1Chains.N1_SPATIAL_MODULI__DTAU_DF c c3 fn hc h2 ..).symm
+
+/-- conversions compose: `C_TRUESDELL ← SPATIAL_MODULI ← DS_DEGL` acts as the direct `C_TRUESDELL ← DS_DEGL`, for every variation. -/
+theorem N1_compose_C_TRUESDELL__SPATIAL_MODULI__DS_DEGL (hc : c * c = 2) (h2 : (2:K) ≠ 0)
+    (D : Nat → Nat → K) (F0 : M3 K) (f0 f1 f2 : K) (l0 l1 l2 : K) (s : Nat → K) (hJ : (dg f0 f1 f2).det ≠ 0) :
+    upper (lamTr (dg f0 f1 f2) (M3.ofMandel c [s 0, s 1, s 2]) (dg l0 l1 l2) (M3.ofMandel c (act (Gen.N1_C_TRUESDELL__SPATIAL_MODULI_r c c3 fn (matOf (Gen.N1_SPATIAL_MODULI__DS_DEGL_r c c3 fn D (tensv F0) (tensv (dg f0 f1 f2)) s)) (tensv F0) (tensv (dg f0 f1 f2)) s) (M3.mandel1 (symm (dg l0 l1 l2))))))
+      = upper (lamTr (dg f0 f1 f2) (M3.ofMandel c [s 0, s 1, s 2]) (dg l0 l1 l2) (M3.ofMandel c (act (Gen.N1_C_TRUESDELL__DS_DEGL_r c c3 fn D (tensv F0) (tensv (dg f0 f1 f2)) s) (M3.mandel1 (symm (dg l0 l1 l2)))))) := by
+  refine (PropsN1.N1_C_TRUESDELL__SPATIAL_MODULI c c3 fn hc h2 (hJ := hJ) ..).trans ?_
+  refine (PropsN1.N1_SPATIAL_MODULI__DS_DEGL c c3 fn hc h2 ..).trans ?_
+  exact (PropsN1Chains.N1_C_TRUESDELL__DS_DEGL c c3 fn hc h2 (hJ := hJ) ..).symm
+
+/-- conversions compose: `C_TRUESDELL ← SPATIAL_MODULI ← DTAU_DF` acts as the direct `C_TRUESDELL ← DTAU_DF`, for every variation. -/
+theorem N1_compose_C_TRUESDELL__SPATIAL_MODULI__DTAU_DF (hc : c * c = 2) (h2 : (2:K) ≠ 0)
+    (D : Nat → Nat → K) (F0 : M3 K) (f0 f1 f2 : K) (l0 l1 l2 : K) (s : Nat → K) (hJ : (dg f0 f1 f2).det ≠ 0) :
+    upper (lamTr (dg f0 f1 f2) (M3.ofMandel c [s 0, s 1, s 2]) (dg l0 l1 l2) (M3.ofMandel c (act (Gen.N1_C_TRUESDELL__SPATIAL_MODULI_r c c3 fn (matOf (Gen.N1_SPATIAL_MODULI__DTAU_DF_r c c3 fn D (tensv F0) (tensv (dg f0 f1 f2)) s)) (tensv F0) (tensv (dg f0 f1 f2)) s) (M3.mandel1 (symm (dg l0 l1 l2))))))
+      = upper (lamTr (dg f0 f1 f2) (M3.ofMandel c [s 0, s 1, s 2]) (dg l0 l1 l2) (M3.ofMandel c (act (Gen.N1_C_TRUESDELL__DTAU_DF_r c c3 fn D (tensv F0) (tensv (dg f0 f1 f2)) s) (M3.mandel1 (symm (dg l0 l1 l2)))))) := by
+  refine (PropsN1.N1_C_TRUESDELL__SPATIAL_MODULI c c3 fn hc h2 (hJ := hJ) ..).trans ?_
+  refine (PropsN1Chains.N1_SPATIAL_MODULI__DTAU_DF c c3 fn hc h2 ..).trans ?_
+  exact (PropsN1Chains.N1_C_TRUESDELL__DTAU_DF c c3 fn hc h2 (hJ := hJ) ..).symm
+
+/-- conversions compose: `C_TRUESDELL ← DS_DEGL ← SPATIAL_MODULI` acts as the direct `C_TRUESDELL ← SPATIAL_MODULI`, for every variation. -/
+theorem N1_compose_C_TRUESDELL__DS_DEGL__SPATIAL_MODULI (hc : c * c = 2) (h2 : (2:K) ≠ 0)
+    (D : Nat → Nat → K) (F0 : M3 K) (f0 f1 f2 : K) (l0 l1 l2 : K) (s : Nat → K) (hJ : (dg f0 f1 f2).det ≠ 0) :
+    upper (lamTr (dg f0 f1 f2) (M3.ofMandel c [s 0, s 1, s 2]) (dg l0 l1 l2) (M3.ofMandel c (act (Gen.N1_C_TRUESDELL__DS_DEGL_r c c3 fn (matOf (Gen.N1_DS_DEGL__SPATIAL_MODULI_r c c3 fn D (tensv F0) (tensv (dg f0 f1 f2)) s)) (tensv F0) (tensv (dg f0 f1 f2)) s) (M3.mandel1 (symm (dg l0 l1 l2))))))
+      = upper (lamTr (dg f0 f1 f2) (M3.ofMandel c [s 0, s 1, s 2]) (dg l0 l1 l2) (M3.ofMandel c (act (Gen.N1_C_TRUESDELL__SPATIAL_MODULI_r c c3 fn D (tensv F0) (tensv (dg f0 f1 f2)) s) (M3.mandel1 (symm (dg l0 l1 l2)))))) := by
+  refine (PropsN1Chains.N1_C_TRUESDELL__DS_DEGL c c3 fn hc h2 (hJ := hJ) ..).trans ?_
+  refine (PropsN1Chains.N1_DS_DEGL__SPATIAL_MODULI c c3 fn hc h2 (hJ := hJ) ..).trans ?_
+  exact (PropsN1.N1_C_TRUESDELL__SPATIAL_MODULI c c3 fn hc h2 (hJ := hJ) ..).symm
+
+/-- conversions compose: `SPATIAL_MODULI ← C_TRUESDELL ← DS_DEGL` acts as the direct `SPATIAL_MODULI ← DS_DEGL`, for every variation. -/
+theorem N1_compose_SPATIAL_MODULI__C_TRUESDELL__DS_DEGL (hc : c * c = 2) (h2 : (2:K) ≠ 0)
+    (D : Nat → Nat → K) (F0 : M3 K) (f0 f1 f2 : K) (l0 l1 l2 : K) (s : Nat → K) (hJ : (dg f0 f1 f2).det ≠ 0) :
+    upper (lamSM (dg f0 f1 f2) (M3.ofMandel c [s 0, s 1, s 2]) (dg l0 l1 l2) (M3.ofMandel c (act (Gen.N1_SPATIAL_MODULI__C_TRUESDELL_r c c3 fn (matOf (Gen.N1_C_TRUESDELL__DS_DEGL_r c c3 fn D (tensv F0) (tensv (dg f0 f1 f2)) s)) (tensv F0) (tensv (dg f0 f1 f2)) s) (M3.mandel1 (symm (dg l0 l1 l2))))))
+      = upper (lamSM (dg f0 f1 f2) (M3.ofMandel c [s 0, s 1, s 2]) (dg l0 l1 l2) (M3.ofMandel c (act (Gen.N1_SPATIAL_MODULI__DS_DEGL_r c c3 fn D (tensv F0) (tensv (dg f0 f1 f2)) s) (M3.mandel1 (symm (dg l0 l1 l2)))))) := by
+  refine (PropsN1.N1_SPATIAL_MODULI__C_TRUESDELL c c3 fn hc h2 ..).trans ?_
+  refine (PropsN1Chains.N1_C_TRUESDELL__DS_DEGL c c3 fn hc h2 (hJ := hJ) ..).trans ?_
+  exact (PropsN1.N1_SPATIAL_MODULI__DS_DEGL c c3 fn hc h2 ..).symm
+
+/-- conversions compose: `SPATIAL_MODULI ← C_TRUESDELL ← DTAU_DF` acts as the direct `SPATIAL_MODULI ← DTAU_DF`, for every variation. -/
+theorem N1_compose_SPATIAL_MODULI__C_TRUESDELL__DTAU_DF (hc : c * c = 2) (h2 : (2:K) ≠ 0)
+    (D : Nat → Nat → K) (F0 : M3 K) (f0 f1 f2 : K) (l0 l1 l2 : K) (s : Nat → K) (hJ : (dg f0 f1 f2).det ≠ 0) :
+    upper (lamSM (dg f0 f1 f2) (M3.ofMandel c [s 0, s 1, s 2]) (dg l0 l1 l2) (M3.ofMandel c (act (Gen.N1_SPATIAL_MODULI__C_TRUESDELL_r c c3 fn (matOf (Gen.N1_C_TRUESDELL__DTAU_DF_r c c3 fn D (tensv F0) (tensv (dg f0 f1 f2)) s)) (tensv F0) (tensv (dg f0 f1 f2)) s) (M3.mandel1 (symm (dg l0 l1 l2))))))
+      = upper (lamSM (dg f0 f1 f2) (M3.ofMandel c [s 0, s 1, s 2]) (dg l0 l1 l2) (M3.ofMandel c (act (Gen.N1_SPATIAL_MODULI__DTAU_DF_r c c3 fn D (tensv F0) (tensv (dg f0 f1 f2)) s) (M3.mandel1 (symm (dg l0 l1 l2)))))) := by
+  refine (PropsN1.N1_SPATIAL_MODULI__C_TRUESDELL c c3 fn hc h2 ..).trans ?_
+  refine (PropsN1Chains.N1_C_TRUESDELL__DTAU_DF c c3 fn hc h2 (hJ := hJ) ..).trans ?_
+  exact (PropsN1Chains.N1_SPATIAL_MODULI__DTAU_DF c c3 fn hc h2 ..).symm
+
+/-- conversions compose: `DSIG_DF ← DTAU_DF ← ABAQUS` acts as the direct `DSIG_DF ← ABAQUS`, for every variation. -/
+theorem N1_compose_DSIG_DF__DTAU_DF__ABAQUS (hc : c * c = 2) (h2 : (2:K) ≠ 0)
+    (D : Nat → Nat → K) (F0 : M3 K) (f0 f1 f2 : K) (l0 l1 l2 : K) (s : Nat → K) (hJ : (dg f0 f1 f2).det ≠ 0) :
+    upper (lamSig (dg f0 f1 f2) (M3.ofMandel c [s 0, s 1, s 2]) (dg l0 l1 l2) (M3.ofMandel c (act (Gen.N1_DSIG_DF__DTAU_DF_r c c3 fn (matOf (Gen.N1_DTAU_DF__ABAQUS_r c c3 fn D (tensv F0) (tensv (dg f0 f1 f2)) s)) (tensv F0) (tensv (dg f0 f1 f2)) s) (M3.tens1 ((dg l0 l1 l2) * (dg f0 f1 f2))))))
+      = upper (lamSig (dg f0 f1 f2) (M3.ofMandel c [s 0, s 1, s 2]) (dg l0 l1 l2) (M3.ofMandel c (act (Gen.N1_DSIG_DF__ABAQUS_r c c3 fn D (tensv F0) (tensv (dg f0 f1 f2)) s) (M3.tens1 ((dg l0 l1 l2) * (dg f0 f1 f2)))))) := by
+  refine (PropsN1.N1_DSIG_DF__DTAU_DF c c3 fn hc h2 (hJ := hJ) ..).trans ?_
+  refine (PropsN1.N1_DTAU_DF__ABAQUS c c3 fn hc h2 (hJ := hJ) ..).trans ?_
+  exact (PropsN1Chains.N1_DSIG_DF__ABAQUS c c3 fn hc h2 (hJ := hJ) ..).symm
+
+/-- conversions compose: `SPATIAL_MODULI ← DTAU_DF ← C_TAU_JAUMANN` acts as the direct `SPATIAL_MODULI ← C_TAU_JAUMANN`, for every variation. -/
+theorem N1_compose_SPATIAL_MODULI__DTAU_DF__C_TAU_JAUMANN (hc : c * c = 2) (h2 : (2:K) ≠ 0)
+    (D : Nat → Nat → K) (F0 : M3 K) (f0 f1 f2 : K) (l0 l1 l2 : K) (s : Nat → K) (hJ : (dg f0 f1 f2).det ≠ 0) :
+    upper (lamSM (dg f0 f1 f2) (M3.ofMandel c [s 0, s 1, s 2]) (dg l0 l1 l2) (M3.ofMandel c (act (Gen.N1_SPATIAL_MODULI__DTAU_DF_r c c3 fn (matOf (Gen.N1_DTAU_DF__C_TAU_JAUMANN_r c c3 fn D (tensv F0) (tensv (dg f0 f1 f2)) s)) (tensv F0) (tensv (dg f0 f1 f2)) s) (M3.mandel1 (symm (dg l0 l1 l2))))))
+      = upper (lamSM (dg f0 f1 f2) (M3.ofMandel c [s 0, s 1, s 2]) (dg l0 l1 l2) (M3.ofMandel c (act (Gen.N1_SPATIAL_MODULI__C_TAU_JAUMANN_r c c3 fn D (tensv F0) (tensv (dg f0 f1 f2)) s) (M3.mandel1 (symm (dg l0 l1 l2)))))) := by
+  refine (PropsN1Chains.N1_SPATIAL_MODULI__DTAU_DF c c3 fn hc h2 ..).trans ?_
+  refine (PropsN1.N1_DTAU_DF__C_TAU_JAUMANN c c3 fn hc h2 (hJ := hJ) ..).trans ?_
+  exact (PropsN1.N1_SPATIAL_MODULI__C_TAU_JAUMANN c c3 fn hc h2 ..).symm
+
+/-- conversions compose: `SPATIAL_MODULI ← DTAU_DF ← ABAQUS` acts as the direct `SPATIAL_MODULI ← ABAQUS`, for every variation. -/
+theorem N1_compose_SPATIAL_MODULI__DTAU_DF__ABAQUS (hc : c * c = 2) (h2 : (2:K) ≠ 0)
+    (D : Nat → Nat → K) (F0 : M3 K) (f0 f1 f2 : K) (l0 l1 l2 : K) (s : Nat → K) (hJ : (dg f0 f1 f2).det ≠ 0) :
+    upper (lamSM (dg f0 f1 f2) (M3.ofMandel c [s 0, s 1, s 2]) (dg l0 l1 l2) (M3.ofMandel c (act (Gen.N1_SPATIAL_MODULI__DTAU_DF_r c c3 fn (matOf (Gen.N1_DTAU_DF__ABAQUS_r c c3 fn D (tensv F0) (tensv (dg f0 f1 f2)) s)) (tensv F0) (tensv (dg f0 f1 f2)) s) (M3.mandel1 (symm (dg l0 l1 l2))))))
+      = upper (lamSM (dg f0 f1 f2) (M3.ofMandel c [s 0, s 1, s 2]) (dg l0 l1 l2) (M3.ofMandel c (act (Gen.N1_SPATIAL_MODULI__ABAQUS_r c c3 fn D (tensv F0) (tensv (dg f0 f1 f2)) s) (M3.mandel1 (symm (dg l0 l1 l2)))))) := by
+  refine (PropsN1Chains.N1_SPATIAL_MODULI__DTAU_DF c c3 fn hc h2 ..).trans ?_
+  refine (PropsN1.N1_DTAU_DF__ABAQUS c c3 fn hc h2 (hJ := hJ) ..).trans ?_
+  exact (PropsN1.N1_SPATIAL_MODULI__ABAQUS c c3 fn hc h2 ..).symm
+
+/-- conversions compose: `C_TAU_JAUMANN ← DTAU_DF ← ABAQUS` acts as the direct `C_TAU_JAUMANN ← ABAQUS`, for every variation. -/
+theorem N1_compose_C_TAU_JAUMANN__DTAU_DF__ABAQUS (hc : c * c = 2) (h2 : (2:K) ≠ 0)
+    (D : Nat → Nat → K) (F0 : M3 K) (f0 f1 f2 : K) (l0 l1 l2 : K) (s : Nat → K) (hJ : (dg f0 f1 f2).det ≠ 0) :
+    upper (lamJ (dg f0 f1 f2) (M3.ofMandel c [s 0, s 1, s 2]) (dg l0 l1 l2) (M3.ofMandel c (act (Gen.N1_C_TAU_JAUMANN__DTAU_DF_r c c3 fn (matOf (Gen.N1_DTAU_DF__ABAQUS_r c c3 fn D (tensv F0) (tensv (dg f0 f1 f2)) s)) (tensv F0) (tensv (dg f0 f1 f2)) s) (M3.mandel1 (symm (dg l0 l1 l2))))))
+      = upper (lamJ (dg f0 f1 f2) (M3.ofMandel c [s 0, s 1, s 2]) (dg l0 l1 l2) (M3.ofMandel c (act (Gen.N1_C_TAU_JAUMANN__ABAQUS_r c c3 fn D (tensv F0) (tensv (dg f0 f1 f2)) s) (M3.mandel1 (symm (dg l0 l1 l2)))))) := by
+  refine (PropsN1.N1_C_TAU_JAUMANN__DTAU_DF c c3 fn hc h2 ..).trans ?_
+  refine (PropsN1.N1_DTAU_DF__ABAQUS c c3 fn hc h2 (hJ := hJ) ..).trans ?_
+  exact (PropsN1.N1_C_TAU_JAUMANN__ABAQUS c c3 fn hc h2 ..).symm
+
+/-- conversions compose: `C_TAU_JAUMANN ← DTAU_DF ← SPATIAL_MODULI` acts as the direct `C_TAU_JAUMANN ← SPATIAL_MODULI`, for every variation. -/
+theorem N1_compose_C_TAU_JAUMANN__DTAU_DF__SPATIAL_MODULI (hc : c * c = 2) (h2 : (2:K) ≠ 0)
+    (D : Nat → Nat → K) (F0 : M3 K) (f0 f1 f2 : K) (l0 l1 l2 : K) (s : Nat → K) (hJ : (dg f0 f1 f2).det ≠ 0) :
+    upper (lamJ (dg f0 f1 f2) (M3.ofMandel c [s 0, s 1, s 2]) (dg l0 l1 l2) (M3.ofMandel c (act (Gen.N1_C_TAU_JAUMANN__DTAU_DF_r c c3 fn (matOf (Gen.N1_DTAU_DF__SPATIAL_MODULI_r c c3 fn D (tensv F0) (tensv (dg f0 f1 f2)) s)) (tensv F0) (tensv (dg f0 f1 f2)) s) (M3.mandel1 (symm (dg l0 l1 l2))))))
+      = upper (lamJ (dg f0 f1 f2) (M3.ofMandel c [s 0, s 1, s 2]) (dg l0 l1 l2) (M3.ofMandel c (act (Gen.N1_C_TAU_JAUMANN__SPATIAL_MODULI_r c c3 fn D (tensv F0) (tensv (dg f0 f1 f2)) s) (M3.mandel1 (symm (dg l0 l1 l2)))))) := by
+  refine (PropsN1.N1_C_TAU_JAUMANN__DTAU_DF c c3 fn hc h2 ..).trans ?_
+  refine (PropsN1Chains.N1_DTAU_DF__SPATIAL_MODULI c c3 fn hc h2 (hJ := hJ) ..).trans ?_
+  exact (PropsN1.N1_C_TAU_JAUMANN__SPATIAL_MODULI c c3 fn hc h2 ..).symm
+
+/-- conversions compose: `C_TRUESDELL ← DTAU_DF ← SPATIAL_MODULI` acts as the direct `C_TRUESDELL ← SPATIAL_MODULI`, for every variation. -/
+theorem N1_compose_C_TRUESDELL__DTAU_DF__SPATIAL_MODULI (hc : c * c = 2) (h2 : (2:K) ≠ 0)
+    (D : Nat → Nat → K) (F0 : M3 K) (f0 f1 f2 : K) (l0 l1 l2 : K) (s : Nat → K) (hJ : (dg f0 f1 f2).det ≠ 0) :
+    upper (lamTr (dg f0 f1 f2) (M3.ofMandel c [s 0, s 1, s 2]) (dg l0 l1 l2) (M3.ofMandel c (act (Gen.N1_C_TRUESDELL__DTAU_DF_r c c3 fn (matOf (Gen.N1_DTAU_DF__SPATIAL_MODULI_r c c3 fn D (tensv F0) (tensv (dg f0 f1 f2)) s)) (tensv F0) (tensv (dg f0 f1 f2)) s) (M3.mandel1 (symm (dg l0 l1 l2))))))
+      = upper (lamTr (dg f0 f1 f2) (M3.ofMandel c [s 0, s 1, s 2]) (dg l0 l1 l2) (M3.ofMandel c (act (Gen.N1_C_TRUESDELL__SPATIAL_MODULI_r c c3 fn D (tensv F0) (tensv (dg f0 f1 f2)) s) (M3.mandel1 (symm (dg l0 l1 l2)))))) := by
+  refine (PropsN1Chains.N1_C_TRUESDELL__DTAU_DF c c3 fn hc h2 (hJ := hJ) ..).trans ?_
+  refine (PropsN1Chains.N1_DTAU_DF__SPATIAL_MODULI c c3 fn hc h2 (hJ := hJ) ..).trans ?_
+  exact (PropsN1.N1_C_TRUESDELL__SPATIAL_MODULI c c3 fn hc h2 (hJ := hJ) ..).symm
+
+/-- conversions compose: `ABAQUS ← C_TAU_JAUMANN ← DTAU_DF` acts as the direct `ABAQUS ← DTAU_DF`, for every variation. -/
+theorem N1_compose_ABAQUS__C_TAU_JAUMANN__DTAU_DF (hc : c * c = 2) (h2 : (2:K) ≠ 0)
+    (D : Nat → Nat → K) (F0 : M3 K) (f0 f1 f2 : K) (l0 l1 l2 : K) (s : Nat → K) (hJ : (dg f0 f1 f2).det ≠ 0) :
+    upper (lamAb (dg f0 f1 f2) (M3.ofMandel c [s 0, s 1, s 2]) (dg l0 l1 l2) (M3.ofMandel c (act (Gen.N1_ABAQUS__C_TAU_JAUMANN_r c c3 fn (matOf (Gen.N1_C_TAU_JAUMANN__DTAU_DF_r c c3 fn D (tensv F0) (tensv (dg f0 f1 f2)) s)) (tensv F0) (tensv (dg f0 f1 f2)) s) (M3.mandel1 (symm (dg l0 l1 l2))))))
+      = upper (lamAb (dg f0 f1 f2) (M3.ofMandel c [s 0, s 1, s 2]) (dg l0 l1 l2) (M3.ofMandel c (act (Gen.N1_ABAQUS__DTAU_DF_r c c3 fn D (tensv F0) (tensv (dg f0 f1 f2)) s) (M3.mandel1 (symm (dg l0 l1 l2)))))) := by
+  refine (PropsN1.N1_ABAQUS__C_TAU_JAUMANN c c3 fn hc h2 (hJ := hJ) ..).trans ?_
+  refine (PropsN1.N1_C_TAU_JAUMANN__DTAU_DF c c3 fn hc h2 ..).trans ?_
+  exact (PropsN1.N1_ABAQUS__DTAU_DF c c3 fn hc h2 (hJ := hJ) ..).symm
+
+/-- conversions compose: `ABAQUS ← C_TAU_JAUMANN ← SPATIAL_MODULI` acts as the direct `ABAQUS ← SPATIAL_MODULI`, for every variation. -/
+theorem N1_compose_ABAQUS__C_TAU_JAUMANN__SPATIAL_MODULI (hc : c * c = 2) (h2 : (2:K) ≠ 0)
+    (D : Nat → Nat → K) (F0 : M3 K) (f0 f1 f2 : K) (l0 l1 l2 : K) (s : Nat → K) (hJ : (dg f0 f1 f2).det ≠ 0) :
+    upper (lamAb (dg f0 f1 f2) (M3.ofMandel c [s 0, s 1, s 2]) (dg l0 l1 l2) (M3.ofMandel c (act (Gen.N1_ABAQUS__C_TAU_JAUMANN_r c c3 fn (matOf (Gen.N1_C_TAU_JAUMANN__SPATIAL_MODULI_r c c3 fn D (tensv F0) (tensv (dg f0 f1 f2)) s)) (tensv F0) (tensv (dg f0 f1 f2)) s) (M3.mandel1 (symm (dg l0 l1 l2))))))
+      = upper (lamAb (dg f0 f1 f2) (M3.ofMandel c [s 0, s 1, s 2]) (dg l0 l1 l2) (M3.ofMandel c (act (Gen.N1_ABAQUS__SPATIAL_MODULI_r c c3 fn D (tensv F0) (tensv (dg f0 f1 f2)) s) (M3.mandel1 (symm (dg l0 l1 l2)))))) := by
+  refine (PropsN1.N1_ABAQUS__C_TAU_JAUMANN c c3 fn hc h2 (hJ := hJ) ..).trans ?_
+  refine (PropsN1.N1_C_TAU_JAUMANN__SPATIAL_MODULI c c3 fn hc h2 ..).trans ?_
+  exact (PropsN1.N1_ABAQUS__SPATIAL_MODULI c c3 fn hc h2 (hJ := hJ) ..).symm
+
+/-- conversions compose: `C_TAU_JAUMANN ← ABAQUS ← SPATIAL_MODULI` acts as the direct `C_TAU_JAUMANN ← SPATIAL_MODULI`, for every variation. -/
+theorem N1_compose_C_TAU_JAUMANN__ABAQUS__SPATIAL_MODULI (hc : c * c = 2) (h2 : (2:K) ≠ 0)
+    (D : Nat → Nat → K) (F0 : M3 K) (f0 f1 f2 : K) (l0 l1 l2 : K) (s : Nat → K) (hJ : (dg f0 f1 f2).det ≠ 0) :
+    upper (lamJ (dg f0 f1 f2) (M3.ofMandel c [s 0, s 1, s 2]) (dg l0 l1 l2) (M3.ofMandel c (act (Gen.N1_C_TAU_JAUMANN__ABAQUS_r c c3 fn (matOf (Gen.N1_ABAQUS__SPATIAL_MODULI_r c c3 fn D (tensv F0) (tensv (dg f0 f1 f2)) s)) (tensv F0) (tensv (dg f0 f1 f2)) s) (M3.mandel1 (symm (dg l0 l1 l2))))))
+      = upper (lamJ (dg f0 f1 f2) (M3.ofMandel c [s 0, s 1, s 2]) (dg l0 l1 l2) (M3.ofMandel c (act (Gen.N1_C_TAU_JAUMANN__SPATIAL_MODULI_r c c3 fn D (tensv F0) (tensv (dg f0 f1 f2)) s) (M3.mandel1 (symm (dg l0 l1 l2)))))) := by
+  refine (PropsN1.N1_C_TAU_JAUMANN__ABAQUS c c3 fn hc h2 ..).trans ?_
+  refine (PropsN1.N1_ABAQUS__SPATIAL_MODULI c c3 fn hc h2 (hJ := hJ) ..).trans ?_
+  exact (PropsN1.N1_C_TAU_JAUMANN__SPATIAL_MODULI c c3 fn hc h2 ..).symm
+
+/-- conversions compose: `C_TAU_JAUMANN ← ABAQUS ← DTAU_DF` acts as the direct `C_TAU_JAUMANN ← DTAU_DF`, for every variation. -/
+theorem N1_compose_C_TAU_JAUMANN__ABAQUS__DTAU_DF (hc : c * c = 2) (h2 : (2:K) ≠ 0)
+    (D : Nat → Nat → K) (F0 : M3 K) (f0 f1 f2 : K) (l0 l1 l2 : K) (s : Nat → K) (hJ : (dg f0 f1 f2).det ≠ 0) :
+    upper (lamJ (dg f0 f1 f2) (M3.ofMandel c [s 0, s 1, s 2]) (dg l0 l1 l2) (M3.ofMandel c (act (Gen.N1_C_TAU_JAUMANN__ABAQUS_r c c3 fn (matOf (Gen.N1_ABAQUS__DTAU_DF_r c c3 fn D (tensv F0) (tensv (dg f0 f1 f2)) s)) (tensv F0) (tensv (dg f0 f1 f2)) s) (M3.mandel1 (symm (dg l0 l1 l2))))))
+      = upper (lamJ (dg f0 f1 f2) (M3.ofMandel c [s 0, s 1, s 2]) (dg l0 l1 l2) (M3.ofMandel c (act (Gen.N1_C_TAU_JAUMANN__DTAU_DF_r c c3 fn D (tensv F0) (tensv (dg f0 f1 f2)) s) (M3.mandel1 (symm (dg l0 l1 l2)))))) := by
+  refine (PropsN1.N1_C_TAU_JAUMANN__ABAQUS c c3 fn hc h2 ..).trans ?_
+  refine (PropsN1.N1_ABAQUS__DTAU_DF c c3 fn hc h2 (hJ := hJ) ..).trans ?_
+  exact (PropsN1.N1_C_TAU_JAUMANN__DTAU_DF c c3 fn hc h2 ..).symm
+
+/-- conversions compose: `C_TAU_JAUMANN ← SPATIAL_MODULI ← ABAQUS` acts as the direct `C_TAU_JAUMANN ← ABAQUS`, for every variation. -/
+theorem N1_compose_C_TAU_JAUMANN__SPATIAL_MODULI__ABAQUS (hc : c * c = 2) (h2 : (2:K) ≠ 0)
+    (D : Nat → Nat → K) (F0 : M3 K) (f0 f1 f2 : K) (l0 l1 l2 : K) (s : Nat → K)  :
+    upper (lamJ (dg f0 f1 f2) (M3.ofMandel c [s 0, s 1, s 2]) (dg l0 l1 l2) (M3.ofMandel c (act (Gen.N1_C_TAU_JAUMANN__SPATIAL_MODULI_r c c3 fn (matOf (Gen.N1_SPATIAL_MODULI__ABAQUS_r c c3 fn D (tensv F0) (tensv (dg f0 f1 f2)) s)) (tensv F0) (tensv (dg f0 f1 f2)) s) (M3.mandel1 (symm (dg l0 l1 l2))))))
+      = upper (lamJ (dg f0 f1 f2) (M3.ofMandel c [s 0, s 1, s 2]) (dg l0 l1 l2) (M3.ofMandel c (act (Gen.N1_C_TAU_JAUMANN__ABAQUS_r c c3 fn D (tensv F0) (tensv (dg f0 f1 f2)) s) (M3.mandel1 (symm (dg l0 l1 l2)))))) := by
+  refine (PropsN1.N1_C_TAU_JAUMANN__SPATIAL_MODULI c c3 fn hc h2 ..).trans ?_
+  refine (PropsN1.N1_SPATIAL_MODULI__ABAQUS c c3 fn hc h2 ..).trans ?_
+  exact (PropsN1.N1_C_TAU_JAUMANN__ABAQUS c c3 fn hc h2 ..).symm
+
+/-- conversions compose: `C_TAU_JAUMANN ← SPATIAL_MODULI ← DTAU_DF` acts as the direct `C_TAU_JAUMANN ← DTAU_DF`, for every variation. -/
+theorem N1_compose_C_TAU_JAUMANN__SPATIAL_MODULI__DTAU_DF (hc : c * c = 2) (h2 : (2:K) ≠ 0)
+    (D : Nat → Nat → K) (F0 : M3 K) (f0 f1 f2 : K) (l0 l1 l2 : K) (s : Nat → K)  :
+    upper (lamJ (dg f0 f1 f2) (M3.ofMandel c [s 0, s 1, s 2]) (dg l0 l1 l2) (M3.ofMandel c (act (Gen.N1_C_TAU_JAUMANN__SPATIAL_MODULI_r c c3 fn (matOf (Gen.N1_SPATIAL_MODULI__DTAU_DF_r c c3 fn D (tensv F0) (tensv (dg f0 f1 f2)) s)) (tensv F0) (tensv (dg f0 f1 f2)) s) (M3.mandel1 (symm (dg l0 l1 l2))))))
+      = upper (lamJ (dg f0 f1 f2) (M3.ofMandel c [s 0, s 1, s 2]) (dg l0 l1 l2) (M3.ofMandel c (act (Gen.N1_C_TAU_JAUMANN__DTAU_DF_r c c3 fn D (tensv F0) (tensv (dg f0 f1 f2)) s) (M3.mandel1 (symm (dg l0 l1 l2)))))) := by
+  refine (PropsN1.N1_C_TAU_JAUMANN__SPATIAL_MODULI c c3 fn hc h2 ..).trans ?_
+  refine (PropsN1Chains.N1_SPATIAL_MODULI__DTAU_DF c c3 fn hc h2 ..).trans ?_
+  exact (PropsN1.N1_C_TAU_JAUMANN__DTAU_DF c c3 fn hc h2 ..).symm
+
+/-- conversions compose: `SPATIAL_MODULI ← C_TAU_JAUMANN ← DTAU_DF` acts as the direct `SPATIAL_MODULI ← DTAU_DF`, for every variation. -/
+theorem N1_compose_SPATIAL_MODULI__C_TAU_JAUMANN__DTAU_DF (hc : c * c = 2) (h2 : (2:K) ≠ 0)
+    (D : Nat → Nat → K) (F0 : M3 K) (f0 f1 f2 : K) (l0 l1 l2 : K) (s : Nat → K)  :
+    upper (lamSM (dg f0 f1 f2) (M3.ofMandel c [s 0, s 1, s 2]) (dg l0 l1 l2) (M3.ofMandel c (act (Gen.N1_SPATIAL_MODULI__C_TAU_JAUMANN_r c c3 fn (matOf (Gen.N1_C_TAU_JAUMANN__DTAU_DF_r c c3 fn D (tensv F0) (tensv (dg f0 f1 f2)) s)) (tensv F0) (tensv (dg f0 f1 f2)) s) (M3.mandel1 (symm (dg l0 l1 l2))))))
+      = upper (lamSM (dg f0 f1 f2) (M3.ofMandel c [s 0, s 1, s 2]) (dg l0 l1 l2) (M3.ofMandel c (act (Gen.N1_SPATIAL_MODULI__DTAU_DF_r c c3 fn D (tensv F0) (tensv (dg f0 f1 f2)) s) (M3.mandel1 (symm (dg l0 l1 l2)))))) := by
+  refine (PropsN1.N1_SPATIAL_MODULI__C_TAU_JAUMANN c c3 fn hc h2 ..).trans ?_
+  refine (PropsN1.N1_C_TAU_JAUMANN__DTAU_DF c c3 fn hc h2 ..).trans ?_
+  exact (PropsN1Chains.N1_SPATIAL_MODULI__DTAU_DF c c3 fn hc h2 ..).symm
+
+/-- conversions compose: `SPATIAL_MODULI ← C_TAU_JAUMANN ← ABAQUS` acts as the direct `SPATIAL_MODULI ← ABAQUS`, for every variation. -/
+theorem N1_compose_SPATIAL_MODULI__C_TAU_JAUMANN__ABAQUS (hc : c * c = 2) (h2 : (2:K) ≠ 0)
+    (D : Nat → Nat → K) (F0 : M3 K) (f0 f1 f2 : K) (l0 l1 l2 : K) (s : Nat → K)  :
+    upper (lamSM (dg f0 f1 f2) (M3.ofMandel c [s 0, s 1, s 2]) (dg l0 l1 l2) (M3.ofMandel c (act (Gen.N1_SPATIAL_MODULI__C_TAU_JAUMANN_r c c3 fn (matOf (Gen.N1_C_TAU_JAUMANN__ABAQUS_r c c3 fn D (tensv F0) (tensv (dg f0 f1 f2)) s)) (tensv F0) (tensv (dg f0 f1 f2)) s) (M3.mandel1 (symm (dg l0 l1 l2))))))
+      = upper (lamSM (dg f0 f1 f2) (M3.ofMandel c [s 0, s 1, s 2]) (dg l0 l1 l2) (M3.ofMandel c (act (Gen.N1_SPATIAL_MODULI__ABAQUS_r c c3 fn D (tensv F0) (tensv (dg f0 f1 f2)) s) (M3.mandel1 (symm (dg l0 l1 l2)))))) := by
+  refine (PropsN1.N1_SPATIAL_MODULI__C_TAU_JAUMANN c c3 fn hc h2 ..).trans ?_
+  refine (PropsN1.N1_C_TAU_JAUMANN__ABAQUS c c3 fn hc h2 ..).trans ?_
+  exact (PropsN1.N1_SPATIAL_MODULI__ABAQUS c c3 fn hc h2 ..).symm
+
+/-- conversions compose: `ABAQUS ← DTAU_DF ← C_TAU_JAUMANN` acts as the direct `ABAQUS ← C_TAU_JAUMANN`, for every variation. -/
+theorem N1_compose_ABAQUS__DTAU_DF__C_TAU_JAUMANN (hc : c * c = 2) (h2 : (2:K) ≠ 0)
+    (D : Nat → Nat → K) (F0 : M3 K) (f0 f1 f2 : K) (l0 l1 l2 : K) (s : Nat → K) (hJ : (dg f0 f1 f2).det ≠ 0) :
+    upper (lamAb (dg f0 f1 f2) (M3.ofMandel c [s 0, s 1, s 2]) (dg l0 l1 l2) (M3.ofMandel c (act (Gen.N1_ABAQUS__DTAU_DF_r c c3 fn (matOf (Gen.N1_DTAU_DF__C_TAU_JAUMANN_r c c3 fn D (tensv F0) (tensv (dg f0 f1 f2)) s)) (tensv F0) (tensv (dg f0 f1 f2)) s) (M3.mandel1 (symm (dg l0 l1 l2))))))
+      = upper (lamAb (dg f0 f1 f2) (M3.ofMandel c [s 0, s 1, s 2]) (dg l0 l1 l2) (M3.ofMandel c (act (Gen.N1_ABAQUS__C_TAU_JAUMANN_r c c3 fn D (tensv F0) (tensv (dg f0 f1 f2)) s) (M3.mandel1 (symm (dg l0 l1 l2)))))) := by
+  refine (PropsN1.N1_ABAQUS__DTAU_DF c c3 fn hc h2 (hJ := hJ) ..).trans ?_
+  refine (PropsN1.N1_DTAU_DF__C_TAU_JAUMANN c c3 fn hc h2 (hJ := hJ) ..).trans ?_
+  exact (PropsN1.N1_ABAQUS__C_TAU_JAUMANN c c3 fn hc h2 (hJ := hJ) ..).symm
+
+/-- conversions compose: `ABAQUS ← DTAU_DF ← SPATIAL_MODULI` acts as the direct `ABAQUS ← SPATIAL_MODULI`, for every variation. -/
+theorem N1_compose_ABAQUS__DTAU_DF__SPATIAL_MODULI (hc : c * c = 2) (h2 : (2:K) ≠ 0)
+    (D : Nat → Nat → K) (F0 : M3 K) (f0 f1 f2 : K) (l0 l1 l2 : K) (s : Nat → K) (hJ : (dg f0 f1 f2).det ≠ 0) :
+    upper (lamAb (dg f0 f1 f2) (M3.ofMandel c [s 0, s 1, s 2]) (dg l0 l1 l2) (M3.ofMandel c (act (Gen.N1_ABAQUS__DTAU_DF_r c c3 fn (matOf (Gen.N1_DTAU_DF__SPATIAL_MODULI_r c c3 fn D (tensv F0) (tensv (dg f0 f1 f2)) s)) (tensv F0) (tensv (dg f0 f1 f2)) s) (M3.mandel1 (symm (dg l0 l1 l2))))))
+      = upper (lamAb (dg f0 f1 f2) (M3.ofMandel c [s 0, s 1, s 2]) (dg l0 l1 l2) (M3.ofMandel c (act (Gen.N1_ABAQUS__SPATIAL_MODULI_r c c3 fn D (tensv F0) (tensv (dg f0 f1 f2)) s) (M3.mandel1 (symm (dg l0 l1 l2)))))) := by
+  refine (PropsN1.N1_ABAQUS__DTAU_DF c c3 fn hc h2 (hJ := hJ) ..).trans ?_
+  refine (PropsN1Chains.N1_DTAU_DF__SPATIAL_MODULI c c3 fn hc h2 (hJ := hJ) ..).trans ?_
+  exact (PropsN1.N1_ABAQUS__SPATIAL_MODULI c c3 fn hc h2 (hJ := hJ) ..).symm
+
+/-- conversions compose: `DTAU_DF ← C_TAU_JAUMANN ← ABAQUS` acts as the direct `DTAU_DF ← ABAQUS`, for every variation. -/
+theorem N1_compose_DTAU_DF__C_TAU_JAUMANN__ABAQUS (hc : c * c = 2) (h2 : (2:K) ≠ 0)
+    (D : Nat → Nat → K) (F0 : M3 K) (f0 f1 f2 : K) (l0 l1 l2 : K) (s : Nat → K) (hJ : (dg f0 f1 f2).det ≠ 0) :
+    upper (lamTau (dg f0 f1 f2) (M3.ofMandel c [s 0, s 1, s 2]) (dg l0 l1 l2) (M3.ofMandel c (act (Gen.N1_DTAU_DF__C_TAU_JAUMANN_r c c3 fn (matOf (Gen.N1_C_TAU_JAUMANN__ABAQUS_r c c3 fn D (tensv F0) (tensv (dg f0 f1 f2)) s)) (tensv F0) (tensv (dg f0 f1 f2)) s) (M3.tens1 ((dg l0 l1 l2) * (dg f0 f1 f2))))))
+      = upper (lamTau (dg f0 f1 f2) (M3.ofMandel c [s 0, s 1, s 2]) (dg l0 l1 l2) (M3.ofMandel c (act (Gen.N1_DTAU_DF__ABAQUS_r c c3 fn D (tensv F0) (tensv (dg f0 f1 f2)) s) (M3.tens1 ((dg l0 l1 l2) * (dg f0 f1 f2)))))) := by
+  refine (PropsN1.N1_DTAU_DF__C_TAU_JAUMANN c c3 fn hc h2 (hJ := hJ) ..).trans ?_
+  refine (PropsN1.N1_C_TAU_JAUMANN__ABAQUS c c3 fn hc h2 ..).trans ?_
+  exact (PropsN1.N1_DTAU_DF__ABAQUS c c3 fn hc h2 (hJ := hJ) ..).symm
+
+/-- conversions compose: `DTAU_DF ← C_TAU_JAUMANN ← SPATIAL_MODULI` acts as the direct `DTAU_DF ← SPATIAL_MODULI`, for every variation. -/
+theorem N1_compose_DTAU_DF__C_TAU_JAUMANN__SPATIAL_MODULI (hc : c * c = 2) (h2 : (2:K) ≠ 0)
+    (D : Nat → Nat → K) (F0 : M3 K) (f0 f1 f2 : K) (l0 l1 l2 : K) (s : Nat → K) (hJ : (dg f0 f1 f2).det ≠ 0) :
+    upper (lamTau (dg f0 f1 f2) (M3.ofMandel c [s 0, s 1, s 2]) (dg l0 l1 l2) (M3.ofMandel c (act (Gen.N1_DTAU_DF__C_TAU_JAUMANN_r c c3 fn (matOf (Gen.N1_C_TAU_JAUMANN__SPATIAL_MODULI_r c c3 fn D (tensv F0) (tensv (dg f0 f1 f2)) s)) (tensv F0) (tensv (dg f0 f1 f2)) s) (M3.tens1 ((dg l0 l1 l2) * (dg f0 f1 f2))))))
+      = upper (lamTau (dg f0 f1 f2) (M3.ofMandel c [s 0, s 1, s 2]) (dg l0 l1 l2) (M3.ofMandel c (act (Gen.N1_DTAU_DF__SPATIAL_MODULI_r c c3 fn D (tensv F0) (tensv (dg f0 f1 f2)) s) (M3.tens1 ((dg l0 l1 l2) * (dg f0 f1 f2)))))) := by
+  refine (PropsN1.N1_DTAU_DF__C_TAU_JAUMANN c c3 fn hc h2 (hJ := hJ) ..).trans ?_
+  refine (PropsN1.N1_C_TAU_JAUMANN__SPATIAL_MODULI c c3 fn hc h2 ..).trans ?_
+  exact (PropsN1Chains.N1_DTAU_DF__SPATIAL_MODULI c c3 fn hc h2 (hJ := hJ) ..).symm
+
+/-- conversions compose: `DTAU_DF ← ABAQUS ← SPATIAL_MODULI` acts as the direct `DTAU_DF ← SPATIAL_MODULI`, for every variation. -/
+theorem N1_compose_DTAU_DF__ABAQUS__SPATIAL_MODULI (hc : c * c = 2) (h2 : (2:K) ≠ 0)
+    (D : Nat → Nat → K) (F0 : M3 K) (f0 f1 f2 : K) (l0 l1 l2 : K) (s : Nat → K) (hJ : (dg f0 f1 f2).det ≠ 0) :
+    upper (lamTau (dg f0 f1 f2) (M3.ofMandel c [s 0, s 1, s 2]) (dg l0 l1 l2) (M3.ofMandel c (act (Gen.N1_DTAU_DF__ABAQUS_r c c3 fn (matOf (Gen.N1_ABAQUS__SPATIAL_MODULI_r c c3 fn D (tensv F0) (tensv (dg f0 f1 f2)) s)) (tensv F0) (tensv (dg f0 f1 f2)) s) (M3.tens1 ((dg l0 l1 l2) * (dg f0 f1 f2))))))
+      = upper (lamTau (dg f0 f1 f2) (M3.ofMandel c [s 0, s 1, s 2]) (dg l0 l1 l2) (M3.ofMandel c (act (Gen.N1_DTAU_DF__SPATIAL_MODULI_r c c3 fn D (tensv F0) (tensv (dg f0 f1 f2)) s) (M3.tens1 ((dg l0 l1 l2) * (dg f0 f1 f2)))))) := by
+  refine (PropsN1.N1_DTAU_DF__ABAQUS c c3 fn hc h2 (hJ := hJ) ..).trans ?_
+  refine (PropsN1.N1_ABAQUS__SPATIAL_MODULI c c3 fn hc h2 (hJ := hJ) ..).trans ?_
+  exact (PropsN1Chains.N1_DTAU_DF__SPATIAL_MODULI c c3 fn hc h2 (hJ := hJ) ..).symm
+
+/-- conversions compose: `DTAU_DF ← ABAQUS ← C_TAU_JAUMANN` acts as the direct `DTAU_DF ← C_TAU_JAUMANN`, for every variation. -/
+theorem N1_compose_DTAU_DF__ABAQUS__C_TAU_JAUMANN (hc : c * c = 2) (h2 : (2:K) ≠ 0)
+    (D : Nat → Nat → K) (F0 : M3 K) (f0 f1 f2 : K) (l0 l1 l2 : K) (s : Nat → K) (hJ : (dg f0 f1 f2).det ≠ 0) :
+    upper (lamTau (dg f0 f1 f2) (M3.ofMandel c [s 0, s 1, s 2]) (dg l0 l1 l2) (M3.ofMandel c (act (Gen.N1_DTAU_DF__ABAQUS_r c c3 fn (matOf (Gen.N1_ABAQUS__C_TAU_JAUMANN_r c c3 fn D (tensv F0) (tensv (dg f0 f1 f2)) s)) (tensv F0) (tensv (dg f0 f1 f2)) s) (M3.tens1 ((dg l0 l1 l2) * (dg f0 f1 f2))))))
+      = upper (lamTau (dg f0 f1 f2) (M3.ofMandel c [s 0, s 1, s 2]) (dg l0 l1 l2) (M3.ofMandel c (act (Gen.N1_DTAU_DF__C_TAU_JAUMANN_r c c3 fn D (tensv F0) (tensv (dg f0 f1 f2)) s) (M3.tens1 ((dg l0 l1 l2) * (dg f0 f1 f2)))))) := by
+  refine (PropsN1.N1_DTAU_DF__ABAQUS c c3 fn hc h2 (hJ := hJ) ..).trans ?_
+  refine (PropsN1.N1_ABAQUS__C_TAU_JAUMANN c c3 fn hc h2 (hJ := hJ) ..).trans ?_
+  exact (PropsN1.N1_DTAU_DF__C_TAU_JAUMANN c c3 fn hc h2 (hJ := hJ) ..).symm
+
+/-- conversions compose: `DTAU_DF ← SPATIAL_MODULI ← ABAQUS` acts as the direct `DTAU_DF ← ABAQUS`, for every variation. -/
+theorem N1_compose_DTAU_DF__SPATIAL_MODULI__ABAQUS (hc : c * c = 2) (h2 : (2:K) ≠ 0)
+    (D : Nat → Nat → K) (F0 : M3 K) (f0 f1 f2 : K) (l0 l1 l2 : K) (s : Nat → K) (hJ : (dg f0 f1 f2).det ≠ 0) :
+    upper (lamTau (dg f0 f1 f2) (M3.ofMandel c [s 0, s 1, s 2]) (dg l0 l1 l2) (M3.ofMandel c (act (Gen.N1_DTAU_DF__SPATIAL_MODULI_r c c3 fn (matOf (Gen.N1_SPATIAL_MODULI__ABAQUS_r c c3 fn D (tensv F0) (tensv (dg f0 f1 f2)) s)) (tensv F0) (tensv (dg f0 f1 f2)) s) (M3.tens1 ((dg l0 l1 l2) * (dg f0 f1 f2))))))
+      = upper (lamTau (dg f0 f1 f2) (M3.ofMandel c [s 0, s 1, s 2]) (dg l0 l1 l2) (M3.ofMandel c (act (Gen.N1_DTAU_DF__ABAQUS_r c c3 fn D (tensv F0) (tensv (dg f0 f1 f2)) s) (M3.tens1 ((dg l0 l1 l2) * (dg f0 f1 f2)))))) := by
+  refine (PropsN1Chains.N1_DTAU_DF__SPATIAL_MODULI c c3 fn hc h2 (hJ := hJ) ..).trans ?_
+  refine (PropsN1.N1_SPATIAL_MODULI__ABAQUS c c3 fn hc h2 ..).trans ?_
+  exact (PropsN1.N1_DTAU_DF__ABAQUS c c3 fn hc h2 (hJ := hJ) ..).symm
+
+/-- conversions compose: `DTAU_DF ← SPATIAL_MODULI ← C_TAU_JAUMANN` acts as the direct `DTAU_DF ← C_TAU_JAUMANN`, for every variation. -/
+theorem N1_compose_DTAU_DF__SPATIAL_MODULI__C_TAU_JAUMANN (hc : c * c = 2) (h2 : (2:K) ≠ 0)
+    (D : Nat → Nat → K) (F0 : M3 K) (f0 f1 f2 : K) (l0 l1 l2 : K) (s : Nat → K) (hJ : (dg f0 f1 f2).det ≠ 0) :
+    upper (lamTau (dg f0 f1 f2) (M3.ofMandel c [s 0, s 1, s 2]) (dg l0 l1 l2) (M3.ofMandel c (act (Gen.N1_DTAU_DF__SPATIAL_MODULI_r c c3 fn (matOf (Gen.N1_SPATIAL_MODULI__C_TAU_JAUMANN_r c c3 fn D (tensv F0) (tensv (dg f0 f1 f2)) s)) (tensv F0) (tensv (dg f0 f1 f2)) s) (M3.tens1 ((dg l0 l1 l2) * (dg f0 f1 f2))))))
+      = upper (lamTau (dg f0 f1 f2) (M3.ofMandel c [s 0, s 1, s 2]) (dg l0 l1 l2) (M3.ofMandel c (act (Gen.N1_DTAU_DF__C_TAU_JAUMANN_r c c3 fn D (tensv F0) (tensv (dg f0 f1 f2)) s) (M3.tens1 ((dg l0 l1 l2) * (dg f0 f1 f2)))))) := by
+  refine (PropsN1Chains.N1_DTAU_DF__SPATIAL_MODULI c c3 fn hc h2 (hJ := hJ) ..).trans ?_
+  refine (PropsN1.N1_SPATIAL_MODULI__C_TAU_JAUMANN c c3 fn hc h2 ..).trans ?_
+  exact (PropsN1.N1_DTAU_DF__C_TAU_JAUMANN c c3 fn hc h2 (hJ := hJ) ..).symm
+
+/-- conversions compose: `DSIG_DF ← ABAQUS ← DS_DEGL` acts as the direct `DSIG_DF ← DS_DEGL`, for every variation. -/
+theorem N1_compose_DSIG_DF__ABAQUS__DS_DEGL (hc : c * c = 2) (h2 : (2:K) ≠ 0)
+    (D : Nat → Nat → K) (F0 : M3 K) (f0 f1 f2 : K) (l0 l1 l2 : K) (s : Nat → K) (hJ : (dg f0 f1 f2).det ≠ 0) :
+    upper (lamSig (dg f0 f1 f2) (M3.ofMandel c [s 0, s 1, s 2]) (dg l0 l1 l2) (M3.ofMandel c (act (Gen.N1_DSIG_DF__ABAQUS_r c c3 fn (matOf (Gen.N1_ABAQUS__DS_DEGL_r c c3 fn D (tensv F0) (tensv (dg f0 f1 f2)) s)) (tensv F0) (tensv (dg f0 f1 f2)) s) (M3.tens1 ((dg l0 l1 l2) * (dg f0 f1 f2))))))
+      = upper (lamSig (dg f0 f1 f2) (M3.ofMandel c [s 0, s 1, s 2]) (dg l0 l1 l2) (M3.ofMandel c (act (Gen.N1_DSIG_DF__DS_DEGL_r c c3 fn D (tensv F0) (tensv (dg f0 f1 f2)) s) (M3.tens1 ((dg l0 l1 l2) * (dg f0 f1 f2)))))) := by
+  refine (PropsN1Chains.N1_DSIG_DF__ABAQUS c c3 fn hc h2 (hJ := hJ) ..).trans ?_
+  refine (PropsN1Chains.N1_ABAQUS__DS_DEGL c c3 fn hc h2 (hJ := hJ) ..).trans ?_
+  exact (PropsN1Chains.N1_DSIG_DF__DS_DEGL c c3 fn hc h2 (hJ := hJ) ..).symm
+
+/-- conversions compose: `DSIG_DF ← ABAQUS ← DTAU_DF` acts as the direct `DSIG_DF ← DTAU_DF`, for every variation. -/
+theorem N1_compose_DSIG_DF__ABAQUS__DTAU_DF (hc : c * c = 2) (h2 : (2:K) ≠ 0)
+    (D : Nat → Nat → K) (F0 : M3 K) (f0 f1 f2 : K) (l0 l1 l2 : K) (s : Nat → K) (hJ : (dg f0 f1 f2).det ≠ 0) :
+    upper (lamSig (dg f0 f1 f2) (M3.ofMandel c [s 0, s 1, s 2]) (dg l0 l1 l2) (M3.ofMandel c (act (Gen.N1_DSIG_DF__ABAQUS_r c c3 fn (matOf (Gen.N1_ABAQUS__DTAU_DF_r c c3 fn D (tensv F0) (tensv (dg f0 f1 f2)) s)) (tensv F0) (tensv (dg f0 f1 f2)) s) (M3.tens1 ((dg l0 l1 l2) * (dg f0 f1 f2))))))
+      = upper (lamSig (dg f0 f1 f2) (M3.ofMandel c [s 0, s 1, s 2]) (dg l0 l1 l2) (M3.ofMandel c (act (Gen.N1_DSIG_DF__DTAU_DF_r c c3 fn D (tensv F0) (tensv (dg f0 f1 f2)) s) (M3.tens1 ((dg l0 l1 l2) * (dg f0 f1 f2)))))) := by
+  refine (PropsN1Chains.N1_DSIG_DF__ABAQUS c c3 fn hc h2 (hJ := hJ) ..).trans ?_
+  refine (PropsN1.N1_ABAQUS__DTAU_DF c c3 fn hc h2 (hJ := hJ) ..).trans ?_
+  exact (PropsN1.N1_DSIG_DF__DTAU_DF c c3 fn hc h2 (hJ := hJ) ..).symm
+
+end TfelVerif.C23.PropsCompose1
